@@ -18,6 +18,14 @@ import Poulpy.Lemmas.ExpandExec
 import Poulpy.Lemmas.AutoDecrypt
 import Poulpy.Lemmas.LweDecrypt
 import Poulpy.Lemmas.NoisyTrace
+import Poulpy.Lemmas.KsHeadRoom
+import Poulpy.Lemmas.FusedAny
+import Poulpy.Lemmas.TraceJump
+import Poulpy.Lemmas.GgswDecrypt
+import Poulpy.Lemmas.NoisyPack
+import Poulpy.Lemmas.AdmCorollaries
+import Poulpy.Lemmas.GgswDecrypt2
+import Poulpy.Lemmas.TraceExec
 import Poulpy.Model.Core.Pack
 import Poulpy.Props.C09
 
@@ -1786,9 +1794,9 @@ section NoisyTraceSec
 open Hal Core Ks Pack
 variable {M : Type*} [AddCommGroup M]
 
-/-- **`glwe_trace_decrypts`** — the executed trace loop with noise: under the per-level noisy contracts (`glwe_rsh(1)` halves up to `≤ Br`; `glwe_automorphism_add_assign` of level `i` gives `φ + σ_i φ` up to `≤ Ba i` — `glwe_automorphism_add_decrypts`), the result's phase is the partial trace `traceAbs levels φ` plus an error of size `≤ Σ_{i∈levels}(2·Br + Ba i)` -/
-theorem glwe_trace_decrypts (c : Pack.Contract M) (ν : M → Int) (hν : SizeFn c ν) (ph : Ct → M) (big128 : Bool) (keys : List Key)
-    (Br : Int) (Ba : Nat → Int)
+/-- **`glwe_trace_decrypts`** — the executed trace loop with noise: under the per-level noisy contracts (`glwe_rsh(1)` halves up to `≤ Br`; `glwe_automorphism_add_assign` of level `i` gives `φ + σ_i φ` up to `≤ Ba i`), the result's phase is the partial trace `traceAbs levels φ` plus an error of size `≤ Σ_{i∈levels}(2·Br + Ba i)`; `ν` is ℚ-valued (an ℤ-valued size function with the halving law vanishes identically) -/
+theorem glwe_trace_decrypts (c : Pack.Contract M) (ν : M → ℚ) (hν : SizeFn c ν) (ph : Ct → M) (big128 : Bool) (keys : List Key)
+    (Br : ℚ) (Ba : Nat → ℚ)
     (hrsh : ∀ x y, glweRsh 1 x = .ok y → ∃ e, ph y = c.half (ph x) + e ∧ ν e ≤ Br)
     (hauto : ∀ i x key p y, traceGalois x.n i = .ok p → keys.find? (fun k => k.p == p) = some key →
       automorphismFused .add big128 (zeroBuf x.n (x.rank + 1) key.size) x.base2k x.size x.rank x key = .ok y →
@@ -1798,9 +1806,1921 @@ theorem glwe_trace_decrypts (c : Pack.Contract M) (ν : M → Int) (hν : SizeFn
     ∃ err, ph r = traceAbs c levels (ph x) + err ∧ ν err ≤ traceErrBound Br Ba levels :=
   Ks.traceLoop_noisy c ν hν ph big128 keys Br Ba hrsh hauto hn levels x r h
 
-
-/-- the size-function contract is satisfiable (degenerate witness; the intended `ν` is `‖·‖_∞` of the coefficient list) -/
-example : Ks.SizeFn Pack.model (fun _ => (0 : Int)) := ⟨by intros; simp, by intros; simp, by intros; simp, by intros; simp, rfl⟩
+/-- non-degenerate: the sup-norm of `ℚ[X]/(X²+1)` is a size function, and it is not zero -/
+example : Ks.SizeFn Pack.model Ks.supNorm := Ks.sizeFn_model_sup
+example : Ks.supNorm (1 / 2, -3) = 3 := by norm_num [Ks.supNorm]
 end NoisyTraceSec
+
+section KsHeadRoomSec
+open KsDec Hal Core Core.Ops C02L
+variable {M : Type*} [AddCommGroup M]
+
+/-- **head-room of the executed product from digit bounds** (C03-side copy of `Core.product_bound`, which lives above C03 in the import order): every limb of every column of the executed `gglwe_product_dft` is `≤ dsize·(cols_in·rows)·N·Da·Dm` when the input digits are `≤ Da` and the key digits `≤ Dm` -/
+theorem product_buffer_bound (N : Nat) (res a : Buf) (key : Key) (Da Dm : Int) (hDa : 0 ≤ Da) (hDm : 0 ≤ Dm) (hD : 1 ≤ key.dsize) (hres : res.WF)
+    (hmax : res.maxSize = key.mat.size) (_hsize : res.size = key.mat.size) (hcols : res.cols = key.mat.colsOut)
+    (hresn : res.n = N) (han : a.n = N)
+    (ha : ∀ col ∈ a.data, ∀ p ∈ col, PB' N Da p) (hm : ∀ j q, normInf (key.mat.entry j q) ≤ Dm) (c : Nat) (hc : c < res.cols) :
+    ∀ p ∈ (Ks.gglweProductDft res a key).act c,
+      normInf p ≤ (key.dsize : Int) * (((key.mat.colsIn * key.mat.rows : Nat) : Int) * ((N : Int) * Da * Dm)) :=
+  KsDec.product_bound' N res a key Da Dm hDa hDm hD hres hmax _hsize hcols hresn han ha hm c hc
+
+/-- `glwe_keyswitch_value` with the product-buffer hypothesis replaced by the decidable admissible-shape inequality `ksAdmissible` -/
+theorem glwe_keyswitch_value_adm (big128 : Bool) (N bout sout rout : Nat) (a : Ks.Ct) (key : Ks.Key) (sIn skOut : List Poly)
+    (EL KL : ℕ → ℕ → Poly) (Hin Dm : Int)
+    (hN : 0 < N) (ha : GWF N a) (hrank : a.rank = key.rankIn) (hrout : rout = key.rankOut) (hc0 : 0 < key.mat.colsOut)
+    (hD : 1 ≤ key.dsize) (hM : ∀ j q, (key.mat.entry j q).length = N) (hS : key.mat.rows * key.dsize ≤ key.mat.size)
+    (hbi1 : 1 ≤ a.base2k) (hbi : a.base2k ≤ 62) (hbk1 : 1 ≤ key.base2k) (hbk : key.base2k ≤ 62) (hbo1 : 1 ≤ bout) (hbo : bout ≤ 62)
+    (hIn0 : 0 ≤ Hin) (hIn : Hin + 8 ≤ 2 ^ 62) (hInB : ∀ c ∈ a.cols, ∀ l ∈ c, ∀ x ∈ l, |x| ≤ Hin)
+    (hDm0 : 0 ≤ Dm) (hm : ∀ j q, normInf (key.mat.entry j q) ≤ Dm) (hadm : ksAdmissible big128 key N Hin Dm)
+    (hEL : ∀ i r, (EL i r).length = N) (hKL : ∀ i r, (KL i r).length = N)
+    (hkey : ∀ i, i < key.mat.colsIn → ∀ r, r < key.mat.rows →
+      Gadget.val (Ks.radix N key.base2k) key.mat.size (Ks.keyPhase N skOut key.mat i r) =
+        Ks.ι N (sIn.getD i []) * Ks.radix N key.base2k ^ (key.mat.size - (r + 1) * key.dsize) + Ks.ι N (EL i r)
+          + Ks.radix N key.base2k ^ key.mat.size * Ks.ι N (KL i r)) :
+    ∃ res aConv, Ks.keyswitch big128 bout sout rout a key = .ok res ∧ Ks.convIn a key = .ok aConv ∧
+      GWF N aConv ∧ aConv.base2k = key.base2k ∧ aConv.rank = a.rank ∧ aConv.size = convSize a key ∧
+      GWF N res ∧ res.base2k = bout ∧ res.size = sout ∧ res.rank = rout ∧
+      ∃ E1 Q1 E3 Q3 : Poly, E1.length = N ∧ Q1.length = N ∧ E3.length = N ∧ Q3.length = N ∧
+        normInf E1 ≤ (1 + snorm (min a.rank sIn.length) sIn) * C02.normTol (key.base2k * convSize a key) (a.base2k * a.size) ∧
+        normInf E3 ≤ (1 + snorm (min rout skOut.length) skOut) * C02.normTol (bout * sout) (key.base2k * key.mat.size) ∧
+        (2 : Ks.R N) ^ (a.base2k * a.size) * Ks.ι N (valP key.base2k N (phase sIn aConv))
+          = (2 : Ks.R N) ^ (key.base2k * convSize a key) * Ks.ι N (valP a.base2k N (phase sIn a)) + Ks.ι N E1
+            + (2 : Ks.R N) ^ (key.base2k * convSize a key + a.base2k * a.size) * Ks.ι N Q1 ∧
+        (2 : Ks.R N) ^ (key.base2k * key.mat.size) * Ks.ι N (valP bout N (phase skOut res))
+          = (2 : Ks.R N) ^ (bout * sout) *
+              (∑ i ∈ Finset.range key.mat.colsIn, Ks.ι N (sIn.getD i []) *
+                  Gadget.usedVal (Ks.radix N key.base2k) key.mat.size key.dsize key.mat.rows aConv.size (Ks.inLimb N (aDftOf aConv) i)
+                + Ks.ι N (valP key.base2k N (fit N key.mat.size (aConv.cols.getD 0 [])))
+                + Ks.ι N (Ks.errL N key.base2k (aDftOf aConv) key EL) - Ks.ι N (Ks.dropL N key.base2k skOut (aDftOf aConv) key))
+            + Ks.ι N E3
+            + (2 : Ks.R N) ^ (bout * sout + key.base2k * key.mat.size) *
+                (Ks.ι N Q3 + Ks.ι N (Ks.errL N key.base2k (aDftOf aConv) key KL)
+                  - ∑ i ∈ Finset.range key.mat.colsIn,
+                      Gadget.head (Ks.radix N key.base2k) key.dsize key.mat.rows aConv.size (Ks.inLimb N (aDftOf aConv) i)
+                        (Ks.keyPhase N skOut key.mat i)) :=
+  KsDec.glwe_keyswitch_value_adm big128 N bout sout rout a key sIn skOut EL KL Hin Dm hN ha hrank hrout hc0 hD hM hS hbi1 hbi hbk1 hbk hbo1 hbo hIn0 hIn hInB hDm0 hm hadm hEL hKL hkey
+
+/-- **`glwe_keyswitch_decrypts`, head-room derived**: the hypotheses on the executed product buffer (`Hp`, `hprod`, `hAcc`) are gone; what is left is the key digit bound `Dm` and ONE decidable inequality `ksAdmissible big128 key N Hin Dm` (`dsize·cols_in·rows·N·(Hin+2^b)·Dm + (Hin+2^b) + 8 ≤ 2^(bits−2)`), discharged by `decide` for the crate's parameter sets below -/
+theorem glwe_keyswitch_decrypts_adm (big128 : Bool) (N bout sout rout : Nat) (a : Ks.Ct) (key : Ks.Key) (sIn skOut : List Poly)
+    (EL KL : ℕ → ℕ → Poly) (Hin Dm : Int)
+    (hN : 0 < N) (ha : GWF N a) (hrank : a.rank = key.rankIn) (hrout : rout = key.rankOut) (hc0 : 0 < key.mat.colsOut)
+    (hD : 1 ≤ key.dsize) (hM : ∀ j q, (key.mat.entry j q).length = N) (hS : key.mat.rows * key.dsize ≤ key.mat.size)
+    (hbi1 : 1 ≤ a.base2k) (hbi : a.base2k ≤ 62) (hbk1 : 1 ≤ key.base2k) (hbk : key.base2k ≤ 62) (hbo1 : 1 ≤ bout) (hbo : bout ≤ 62)
+    (hIn0 : 0 ≤ Hin) (hIn : Hin + 8 ≤ 2 ^ 62) (hInB : ∀ c ∈ a.cols, ∀ l ∈ c, ∀ x ∈ l, |x| ≤ Hin)
+    (hDm0 : 0 ≤ Dm) (hm : ∀ j q, normInf (key.mat.entry j q) ≤ Dm) (hadm : ksAdmissible big128 key N Hin Dm)
+    (hs : key.mat.colsIn ≤ sIn.length)
+    (hEL : ∀ i r, (EL i r).length = N) (hKL : ∀ i r, (KL i r).length = N)
+    (hkey : ∀ i, i < key.mat.colsIn → ∀ r, r < key.mat.rows →
+      Gadget.val (Ks.radix N key.base2k) key.mat.size (Ks.keyPhase N skOut key.mat i r) =
+        Ks.ι N (sIn.getD i []) * Ks.radix N key.base2k ^ (key.mat.size - (r + 1) * key.dsize) + Ks.ι N (EL i r)
+          + Ks.radix N key.base2k ^ key.mat.size * Ks.ι N (KL i r))
+    (hcov1 : convSize a key ≤ key.mat.size) (hcov2 : convSize a key ≤ key.mat.rows * key.dsize) :
+    ∃ res aConv, Ks.keyswitch big128 bout sout rout a key = .ok res ∧ Ks.convIn a key = .ok aConv ∧
+      GWF N res ∧ res.base2k = bout ∧ res.size = sout ∧ res.rank = rout ∧
+      ∃ (E1 E3 : Poly) (Q : Ks.R N), E1.length = N ∧ E3.length = N ∧
+        normInf E1 ≤ (1 + snorm (min a.rank sIn.length) sIn) * C02.normTol (key.base2k * convSize a key) (a.base2k * a.size) ∧
+        normInf E3 ≤ (1 + snorm (min rout skOut.length) skOut) * C02.normTol (bout * sout) (key.base2k * key.mat.size) ∧
+        (2 : Ks.R N) ^ (a.base2k * a.size + key.base2k * key.mat.size) * Ks.ι N (valP bout N (phase skOut res))
+          = (2 : Ks.R N) ^ (bout * sout + key.base2k * key.mat.size) * Ks.ι N (valP a.base2k N (phase sIn a))
+            + Ks.ι N (ksErr (2 ^ (bout * sout + key.base2k * (key.mat.size - convSize a key))) (2 ^ (a.base2k * a.size + bout * sout))
+                (2 ^ (a.base2k * a.size)) E1 (Ks.errL N key.base2k (aDftOf aConv) key EL)
+                (Ks.dropL N key.base2k skOut (aDftOf aConv) key) E3)
+            + (2 : Ks.R N) ^ (a.base2k * a.size + bout * sout + key.base2k * key.mat.size) * Q ∧
+        normInf (ksErr (2 ^ (bout * sout + key.base2k * (key.mat.size - convSize a key))) (2 ^ (a.base2k * a.size + bout * sout))
+                (2 ^ (a.base2k * a.size)) E1 (Ks.errL N key.base2k (aDftOf aConv) key EL)
+                (Ks.dropL N key.base2k skOut (aDftOf aConv) key) E3)
+          ≤ 2 ^ (bout * sout + key.base2k * (key.mat.size - convSize a key)) *
+              ((1 + snorm (min a.rank sIn.length) sIn) * C02.normTol (key.base2k * convSize a key) (a.base2k * a.size))
+            + 2 ^ (a.base2k * a.size + bout * sout) * gadgetBound N key.base2k (aDftOf aConv) key EL
+            + 2 ^ (a.base2k * a.size + bout * sout) * dropBound N key.base2k skOut (aDftOf aConv) key
+            + 2 ^ (a.base2k * a.size) *
+              ((1 + snorm (min rout skOut.length) skOut) * C02.normTol (bout * sout) (key.base2k * key.mat.size)) :=
+  KsDec.glwe_keyswitch_decrypts_adm big128 N bout sout rout a key sIn skOut EL KL Hin Dm hN ha hrank hrout hc0 hD hM hS hbi1 hbi hbk1 hbk hbo1 hbo hIn0 hIn hInB hDm0 hm hadm hs hEL hKL hkey hcov1 hcov2
+
+/-- in-place form -/
+theorem glwe_keyswitch_assign_decrypts_adm (big128 : Bool) (N : Nat) (a : Ks.Ct) (key : Ks.Key) (sIn skOut : List Poly)
+    (EL KL : ℕ → ℕ → Poly) (Hin Dm : Int)
+    (hN : 0 < N) (ha : GWF N a) (hrank : a.rank = key.rankIn) (hrout : a.rank = key.rankOut) (hc0 : 0 < key.mat.colsOut)
+    (hD : 1 ≤ key.dsize) (hM : ∀ j q, (key.mat.entry j q).length = N) (hS : key.mat.rows * key.dsize ≤ key.mat.size)
+    (hbi1 : 1 ≤ a.base2k) (hbi : a.base2k ≤ 62) (hbk1 : 1 ≤ key.base2k) (hbk : key.base2k ≤ 62)
+    (hIn0 : 0 ≤ Hin) (hIn : Hin + 8 ≤ 2 ^ 62) (hInB : ∀ c ∈ a.cols, ∀ l ∈ c, ∀ x ∈ l, |x| ≤ Hin)
+    (hDm0 : 0 ≤ Dm) (hm : ∀ j q, normInf (key.mat.entry j q) ≤ Dm) (hadm : ksAdmissible big128 key N Hin Dm)
+    (hs : key.mat.colsIn ≤ sIn.length)
+    (hEL : ∀ i r, (EL i r).length = N) (hKL : ∀ i r, (KL i r).length = N)
+    (hkey : ∀ i, i < key.mat.colsIn → ∀ r, r < key.mat.rows →
+      Gadget.val (Ks.radix N key.base2k) key.mat.size (Ks.keyPhase N skOut key.mat i r) =
+        Ks.ι N (sIn.getD i []) * Ks.radix N key.base2k ^ (key.mat.size - (r + 1) * key.dsize) + Ks.ι N (EL i r)
+          + Ks.radix N key.base2k ^ key.mat.size * Ks.ι N (KL i r))
+    (hcov1 : convSize a key ≤ key.mat.size) (hcov2 : convSize a key ≤ key.mat.rows * key.dsize) :
+    ∃ res aConv, Ks.keyswitch big128 a.base2k a.size a.rank a key = .ok res ∧ Ks.convIn a key = .ok aConv ∧
+      GWF N res ∧ res.base2k = a.base2k ∧ res.size = a.size ∧ res.rank = a.rank ∧
+      ∃ (E1 E3 : Poly) (Q : Ks.R N), E1.length = N ∧ E3.length = N ∧
+        normInf E1 ≤ (1 + snorm (min a.rank sIn.length) sIn) * C02.normTol (key.base2k * convSize a key) (a.base2k * a.size) ∧
+        normInf E3 ≤ (1 + snorm (min a.rank skOut.length) skOut) * C02.normTol (a.base2k * a.size) (key.base2k * key.mat.size) ∧
+        (2 : Ks.R N) ^ (a.base2k * a.size + key.base2k * key.mat.size) * Ks.ι N (valP a.base2k N (phase skOut res))
+          = (2 : Ks.R N) ^ (a.base2k * a.size + key.base2k * key.mat.size) * Ks.ι N (valP a.base2k N (phase sIn a))
+            + Ks.ι N (ksErr (2 ^ (a.base2k * a.size + key.base2k * (key.mat.size - convSize a key))) (2 ^ (a.base2k * a.size + a.base2k * a.size))
+                (2 ^ (a.base2k * a.size)) E1 (Ks.errL N key.base2k (aDftOf aConv) key EL)
+                (Ks.dropL N key.base2k skOut (aDftOf aConv) key) E3)
+            + (2 : Ks.R N) ^ (a.base2k * a.size + a.base2k * a.size + key.base2k * key.mat.size) * Q ∧
+        normInf (ksErr (2 ^ (a.base2k * a.size + key.base2k * (key.mat.size - convSize a key))) (2 ^ (a.base2k * a.size + a.base2k * a.size))
+                (2 ^ (a.base2k * a.size)) E1 (Ks.errL N key.base2k (aDftOf aConv) key EL)
+                (Ks.dropL N key.base2k skOut (aDftOf aConv) key) E3)
+          ≤ 2 ^ (a.base2k * a.size + key.base2k * (key.mat.size - convSize a key)) *
+              ((1 + snorm (min a.rank sIn.length) sIn) * C02.normTol (key.base2k * convSize a key) (a.base2k * a.size))
+            + 2 ^ (a.base2k * a.size + a.base2k * a.size) * gadgetBound N key.base2k (aDftOf aConv) key EL
+            + 2 ^ (a.base2k * a.size + a.base2k * a.size) * dropBound N key.base2k skOut (aDftOf aConv) key
+            + 2 ^ (a.base2k * a.size) *
+              ((1 + snorm (min a.rank skOut.length) skOut) * C02.normTol (a.base2k * a.size) (key.base2k * key.mat.size)) :=
+  KsDec.glwe_keyswitch_assign_decrypts_adm big128 N a key sIn skOut EL KL Hin Dm hN ha hrank hrout hc0 hD hM hS hbi1 hbi hbk1 hbk hIn0 hIn hInB hDm0 hm hadm hs hEL hKL hkey hcov1 hcov2
+
+/-- the limbs the product reads, in every regime: `usedVal = Σ_{m < min(a_size, dnum·dsize)} a_m·β^{S−1−m}` -/
+theorem used_value_general {R : Type*} [CommRing R] (β : R) (S dsize dnum aSize : ℕ) (a : ℕ → R) (hd : 0 < dsize) :
+    Gadget.usedVal β S dsize dnum aSize a = ∑ m ∈ Finset.range (min aSize (dnum * dsize)), a m * β ^ (S - 1 - m) :=
+  KsDec.usedVal_general β S dsize dnum aSize a hd
+
+/-- the dropped input limbs as an explicit coefficient list `truncL` and its norm: `‖truncL‖_∞ ≤ truncBound` -/
+theorem truncation_norm_bound (N b L T : Nat) (sIn : List Poly) (rin : Nat) (a : Ks.Ct) (Dg : Int) (hDg : 0 ≤ Dg) (ha : GWF N a)
+    (hrin : rin ≤ a.rank) (hdig : ∀ c ∈ a.cols, ∀ l ∈ c, ∀ x ∈ l, |x| ≤ Dg) :
+    normInf (truncL N b L T sIn rin a) ≤ truncBound b L T sIn rin a.size Dg :=
+  KsDec.normInf_truncL_le N b L T sIn rin a Dg hDg ha hrin hdig
+
+/-- **closed truncation bound**: `truncBound ≤ (1 + ‖s‖₁)·Dg·2·2^{b·(a_size−1−L)}` — relative to the input's scale `2^{b·a_size}` this is `(1+‖s‖₁)·2Dg/2^b·2^{−b·L}`, `L = min(a_size, key size, dnum·dsize)` -/
+theorem truncation_bound_closed (b L T : Nat) (sIn : List Poly) (rin aSize : Nat) (Dg : Int) (hb : 1 ≤ b) (hDg : 0 ≤ Dg) (hLT : L ≤ T) :
+    truncBound b L T sIn rin aSize Dg ≤ (1 + snorm rin sIn) * (Dg * (2 * 2 ^ (b * (aSize - L - 1)))) :=
+  KsDec.truncBound_le b L T sIn rin aSize Dg hb hDg hLT
+
+/-- **`glwe_keyswitch_decrypts`, every regime** (`hcov1`, `hcov2` dropped: `a_size > min(key size, dnum·dsize)` allowed, as long as the converted input is not longer than the key): the error gains the explicit truncation term `truncL` with the closed bound above; head-room derived (`ksAdmissible`) -/
+theorem glwe_keyswitch_decrypts_general (big128 : Bool) (N bout sout rout : Nat) (a : Ks.Ct) (key : Ks.Key) (sIn skOut : List Poly)
+    (EL KL : ℕ → ℕ → Poly) (Hin Dm : Int)
+    (hN : 0 < N) (ha : GWF N a) (hrank : a.rank = key.rankIn) (hrout : rout = key.rankOut) (hc0 : 0 < key.mat.colsOut)
+    (hD : 1 ≤ key.dsize) (hM : ∀ j q, (key.mat.entry j q).length = N) (hS : key.mat.rows * key.dsize ≤ key.mat.size)
+    (hbi1 : 1 ≤ a.base2k) (hbi : a.base2k ≤ 62) (hbk1 : 1 ≤ key.base2k) (hbk : key.base2k ≤ 62) (hbo1 : 1 ≤ bout) (hbo : bout ≤ 62)
+    (hIn0 : 0 ≤ Hin) (hIn : Hin + 8 ≤ 2 ^ 62) (hInB : ∀ c ∈ a.cols, ∀ l ∈ c, ∀ x ∈ l, |x| ≤ Hin)
+    (hDm0 : 0 ≤ Dm) (hm : ∀ j q, normInf (key.mat.entry j q) ≤ Dm) (hadm : ksAdmissible big128 key N Hin Dm)
+    (hs : key.mat.colsIn ≤ sIn.length)
+    (hEL : ∀ i r, (EL i r).length = N) (hKL : ∀ i r, (KL i r).length = N)
+    (hkey : ∀ i, i < key.mat.colsIn → ∀ r, r < key.mat.rows →
+      Gadget.val (Ks.radix N key.base2k) key.mat.size (Ks.keyPhase N skOut key.mat i r) =
+        Ks.ι N (sIn.getD i []) * Ks.radix N key.base2k ^ (key.mat.size - (r + 1) * key.dsize) + Ks.ι N (EL i r)
+          + Ks.radix N key.base2k ^ key.mat.size * Ks.ι N (KL i r)) :
+    ∃ res aConv, Ks.keyswitch big128 bout sout rout a key = .ok res ∧ Ks.convIn a key = .ok aConv ∧
+      GWF N res ∧ res.base2k = bout ∧ res.size = sout ∧ res.rank = rout ∧
+      ∃ (E1 E3 : Poly) (Q : Ks.R N), E1.length = N ∧ E3.length = N ∧
+        normInf E1 ≤ (1 + snorm (min a.rank sIn.length) sIn) * C02.normTol (key.base2k * convSize a key) (a.base2k * a.size) ∧
+        normInf E3 ≤ (1 + snorm (min rout skOut.length) skOut) * C02.normTol (bout * sout) (key.base2k * key.mat.size) ∧
+        (2 : Ks.R N) ^ (a.base2k * a.size + key.base2k * max key.mat.size (convSize a key)) * Ks.ι N (valP bout N (phase skOut res))
+          = (2 : Ks.R N) ^ (bout * sout + key.base2k * max key.mat.size (convSize a key)) * Ks.ι N (valP a.base2k N (phase sIn a))
+            + Ks.ι N (polyAdd
+                (ksErr (2 ^ (bout * sout + key.base2k * (key.mat.size - convSize a key)))
+                  (2 ^ (a.base2k * a.size + bout * sout + key.base2k * (convSize a key - key.mat.size)))
+                  (2 ^ (a.base2k * a.size + key.base2k * (convSize a key - key.mat.size))) E1
+                  (Ks.errL N key.base2k (aDftOf aConv) key EL) (Ks.dropL N key.base2k skOut (aDftOf aConv) key) E3)
+                (polyScale (-(2 ^ (a.base2k * a.size + bout * sout + key.base2k * (key.mat.size - convSize a key))))
+                  (truncL N key.base2k (min (convSize a key) (key.mat.rows * key.dsize)) (min (convSize a key) key.mat.size)
+                    sIn key.mat.colsIn aConv)))
+            + (2 : Ks.R N) ^ (a.base2k * a.size + bout * sout + key.base2k * max key.mat.size (convSize a key)) * Q ∧
+        normInf (polyAdd
+                (ksErr (2 ^ (bout * sout + key.base2k * (key.mat.size - convSize a key)))
+                  (2 ^ (a.base2k * a.size + bout * sout + key.base2k * (convSize a key - key.mat.size)))
+                  (2 ^ (a.base2k * a.size + key.base2k * (convSize a key - key.mat.size))) E1
+                  (Ks.errL N key.base2k (aDftOf aConv) key EL) (Ks.dropL N key.base2k skOut (aDftOf aConv) key) E3)
+                (polyScale (-(2 ^ (a.base2k * a.size + bout * sout + key.base2k * (key.mat.size - convSize a key))))
+                  (truncL N key.base2k (min (convSize a key) (key.mat.rows * key.dsize)) (min (convSize a key) key.mat.size)
+                    sIn key.mat.colsIn aConv)))
+          ≤ 2 ^ (bout * sout + key.base2k * (key.mat.size - convSize a key)) *
+              ((1 + snorm (min a.rank sIn.length) sIn) * C02.normTol (key.base2k * convSize a key) (a.base2k * a.size))
+            + 2 ^ (a.base2k * a.size + bout * sout + key.base2k * (convSize a key - key.mat.size)) *
+                gadgetBound N key.base2k (aDftOf aConv) key EL
+            + 2 ^ (a.base2k * a.size + bout * sout + key.base2k * (convSize a key - key.mat.size)) *
+                dropBound N key.base2k skOut (aDftOf aConv) key
+            + 2 ^ (a.base2k * a.size + key.base2k * (convSize a key - key.mat.size)) *
+              ((1 + snorm (min rout skOut.length) skOut) * C02.normTol (bout * sout) (key.base2k * key.mat.size))
+            + 2 ^ (a.base2k * a.size + bout * sout + key.base2k * (key.mat.size - convSize a key)) *
+                truncBound key.base2k (min (convSize a key) (key.mat.rows * key.dsize)) (min (convSize a key) key.mat.size)
+                  sIn key.mat.colsIn (convSize a key) (Hin + 2 ^ key.base2k) :=
+  KsDec.glwe_keyswitch_decrypts_general big128 N bout sout rout a key sIn skOut EL KL Hin Dm hN ha hrank hrout hc0 hD hM hS hbi1 hbi hbk1 hbk hbo1 hbo hIn0 hIn hInB hDm0 hm hadm hs hEL hKL hkey
+
+/-- in-place form -/
+theorem glwe_keyswitch_assign_decrypts_general (big128 : Bool) (N : Nat) (a : Ks.Ct) (key : Ks.Key) (sIn skOut : List Poly)
+    (EL KL : ℕ → ℕ → Poly) (Hin Dm : Int)
+    (hN : 0 < N) (ha : GWF N a) (hrank : a.rank = key.rankIn) (hrout : a.rank = key.rankOut) (hc0 : 0 < key.mat.colsOut)
+    (hD : 1 ≤ key.dsize) (hM : ∀ j q, (key.mat.entry j q).length = N) (hS : key.mat.rows * key.dsize ≤ key.mat.size)
+    (hbi1 : 1 ≤ a.base2k) (hbi : a.base2k ≤ 62) (hbk1 : 1 ≤ key.base2k) (hbk : key.base2k ≤ 62)
+    (hIn0 : 0 ≤ Hin) (hIn : Hin + 8 ≤ 2 ^ 62) (hInB : ∀ c ∈ a.cols, ∀ l ∈ c, ∀ x ∈ l, |x| ≤ Hin)
+    (hDm0 : 0 ≤ Dm) (hm : ∀ j q, normInf (key.mat.entry j q) ≤ Dm) (hadm : ksAdmissible big128 key N Hin Dm)
+    (hs : key.mat.colsIn ≤ sIn.length)
+    (hEL : ∀ i r, (EL i r).length = N) (hKL : ∀ i r, (KL i r).length = N)
+    (hkey : ∀ i, i < key.mat.colsIn → ∀ r, r < key.mat.rows →
+      Gadget.val (Ks.radix N key.base2k) key.mat.size (Ks.keyPhase N skOut key.mat i r) =
+        Ks.ι N (sIn.getD i []) * Ks.radix N key.base2k ^ (key.mat.size - (r + 1) * key.dsize) + Ks.ι N (EL i r)
+          + Ks.radix N key.base2k ^ key.mat.size * Ks.ι N (KL i r)) :
+    ∃ res aConv, Ks.keyswitch big128 a.base2k a.size a.rank a key = .ok res ∧ Ks.convIn a key = .ok aConv ∧
+      GWF N res ∧ res.base2k = a.base2k ∧ res.size = a.size ∧ res.rank = a.rank ∧
+      ∃ (E1 E3 : Poly) (Q : Ks.R N), E1.length = N ∧ E3.length = N ∧
+        normInf E1 ≤ (1 + snorm (min a.rank sIn.length) sIn) * C02.normTol (key.base2k * convSize a key) (a.base2k * a.size) ∧
+        normInf E3 ≤ (1 + snorm (min a.rank skOut.length) skOut) * C02.normTol (a.base2k * a.size) (key.base2k * key.mat.size) ∧
+        (2 : Ks.R N) ^ (a.base2k * a.size + key.base2k * max key.mat.size (convSize a key)) * Ks.ι N (valP a.base2k N (phase skOut res))
+          = (2 : Ks.R N) ^ (a.base2k * a.size + key.base2k * max key.mat.size (convSize a key)) * Ks.ι N (valP a.base2k N (phase sIn a))
+            + Ks.ι N (polyAdd
+                (ksErr (2 ^ (a.base2k * a.size + key.base2k * (key.mat.size - convSize a key)))
+                  (2 ^ (a.base2k * a.size + a.base2k * a.size + key.base2k * (convSize a key - key.mat.size)))
+                  (2 ^ (a.base2k * a.size + key.base2k * (convSize a key - key.mat.size))) E1
+                  (Ks.errL N key.base2k (aDftOf aConv) key EL) (Ks.dropL N key.base2k skOut (aDftOf aConv) key) E3)
+                (polyScale (-(2 ^ (a.base2k * a.size + a.base2k * a.size + key.base2k * (key.mat.size - convSize a key))))
+                  (truncL N key.base2k (min (convSize a key) (key.mat.rows * key.dsize)) (min (convSize a key) key.mat.size)
+                    sIn key.mat.colsIn aConv)))
+            + (2 : Ks.R N) ^ (a.base2k * a.size + a.base2k * a.size + key.base2k * max key.mat.size (convSize a key)) * Q ∧
+        normInf (polyAdd
+                (ksErr (2 ^ (a.base2k * a.size + key.base2k * (key.mat.size - convSize a key)))
+                  (2 ^ (a.base2k * a.size + a.base2k * a.size + key.base2k * (convSize a key - key.mat.size)))
+                  (2 ^ (a.base2k * a.size + key.base2k * (convSize a key - key.mat.size))) E1
+                  (Ks.errL N key.base2k (aDftOf aConv) key EL) (Ks.dropL N key.base2k skOut (aDftOf aConv) key) E3)
+                (polyScale (-(2 ^ (a.base2k * a.size + a.base2k * a.size + key.base2k * (key.mat.size - convSize a key))))
+                  (truncL N key.base2k (min (convSize a key) (key.mat.rows * key.dsize)) (min (convSize a key) key.mat.size)
+                    sIn key.mat.colsIn aConv)))
+          ≤ 2 ^ (a.base2k * a.size + key.base2k * (key.mat.size - convSize a key)) *
+              ((1 + snorm (min a.rank sIn.length) sIn) * C02.normTol (key.base2k * convSize a key) (a.base2k * a.size))
+            + 2 ^ (a.base2k * a.size + a.base2k * a.size + key.base2k * (convSize a key - key.mat.size)) *
+                gadgetBound N key.base2k (aDftOf aConv) key EL
+            + 2 ^ (a.base2k * a.size + a.base2k * a.size + key.base2k * (convSize a key - key.mat.size)) *
+                dropBound N key.base2k skOut (aDftOf aConv) key
+            + 2 ^ (a.base2k * a.size + key.base2k * (convSize a key - key.mat.size)) *
+              ((1 + snorm (min a.rank skOut.length) skOut) * C02.normTol (a.base2k * a.size) (key.base2k * key.mat.size))
+            + 2 ^ (a.base2k * a.size + a.base2k * a.size + key.base2k * (key.mat.size - convSize a key)) *
+                truncBound key.base2k (min (convSize a key) (key.mat.rows * key.dsize)) (min (convSize a key) key.mat.size)
+                  sIn key.mat.colsIn (convSize a key) (Hin + 2 ^ key.base2k) :=
+  KsDec.glwe_keyswitch_assign_decrypts_general big128 N a key sIn skOut EL KL Hin Dm hN ha hrank hrout hc0 hD hM hS hbi1 hbi hbk1 hbk hIn0 hIn hInB hDm0 hm hadm hs hEL hKL hkey
+
+/-- the crate's parameter sets are admissible, by `decide`: FFT64 `N = 4096`, rank 1, `dsize = 1`, `dnum = 3`, `b = 17`; FFT64 `N = 1024`,
+rank 2, `dsize = 2`, `dnum = 2`, `b = 12`; NTT120 `N = 4096`, `b = 52`, `dnum = 8` on the `i128` accumulator — and `b = 52` is NOT
+admissible on the `i64` accumulator -/
+example : KsDec.ksAdmShape 64 1 1 3 4096 17 (2 ^ 16) (2 ^ 16) ∧ KsDec.ksAdmShape 64 2 2 2 1024 12 (2 ^ 11) (2 ^ 11) ∧
+    KsDec.ksAdmShape 128 1 1 8 4096 52 (2 ^ 51) (2 ^ 51) ∧ ¬ KsDec.ksAdmShape 64 1 1 8 4096 52 (2 ^ 51) (2 ^ 51) := by decide
+/-- the truncation regime is inhabited: a one-row key, a two-limb input (`dnum·dsize = 1 < 2 = a.size`); the dropped limb is `truncL = [3]`
+(the full closed instance of `glwe_keyswitch_decrypts_general` is in Lemmas/KsHeadRoom.lean) -/
+example : KsDec.exKeyT.mat.rows * KsDec.exKeyT.dsize < KsDec.convSize KsDec.exCtT KsDec.exKeyT ∧
+    KsDec.truncL 1 4 1 2 [[1]] 1 KsDec.exCtT = [3] ∧ ∃ res, Ks.keyswitch false 3 2 0 KsDec.exCtT KsDec.exKeyT = .ok res :=
+  ⟨by decide, by decide, _, rfl⟩
+end KsHeadRoomSec
+
+section FusedAnySec
+open KsDec Hal Core Core.Ops C02L AutoMul
+variable {M : Type*} [AddCommGroup M]
+
+/-- since d3c2e96 the executed product does not depend on the previous content of `res_dft`, every `dsize ≥ 1`, as an equality of BUFFERS -/
+theorem product_dft0_irrelevant (r₁ r₂ a : Buf) (key : Ks.Key) (hD : 1 ≤ key.dsize) (h1 : r₁.WF) (h2 : r₂.WF)
+    (hs1 : r₁.size = key.mat.size) (hs2 : r₂.size = key.mat.size)
+    (hm1 : r₁.maxSize = key.mat.size) (hm2 : r₂.maxSize = key.mat.size)
+    (hc1 : r₁.cols = key.mat.colsOut) (hc2 : r₂.cols = key.mat.colsOut)
+    (hn1 : r₁.n = a.n) (hn2 : r₂.n = a.n) :
+    Ks.gglweProductDft r₁ a key = Ks.gglweProductDft r₂ a key :=
+  KsDec.product_dft0_irrelevant r₁ r₂ a key hD h1 h2 hs1 hs2 hm1 hm2 hc1 hc2 hn1 hn2
+
+/-- hence `glwe_keyswitch_internal` does not either -/
+theorem keyswitch_internal_dft0_irrelevant (big128 : Bool) (d₁ d₂ : Buf) (a : Ks.Ct) (key : Ks.Key) (hD : 1 ≤ key.dsize)
+    (h1 : d₁.WF) (h2 : d₂.WF) (hs1 : d₁.size = key.mat.size) (hs2 : d₂.size = key.mat.size)
+    (hm1 : d₁.maxSize = key.mat.size) (hm2 : d₂.maxSize = key.mat.size)
+    (hc1 : d₁.cols = key.mat.colsOut) (hc2 : d₂.cols = key.mat.colsOut) (hn1 : d₁.n = a.n) (hn2 : d₂.n = a.n) :
+    Ks.keyswitchInternal big128 d₁ a key = Ks.keyswitchInternal big128 d₂ a key :=
+  KsDec.keyswitchInternal_dft0_irrelevant big128 d₁ d₂ a key hD h1 h2 hs1 hs2 hm1 hm2 hc1 hc2 hn1 hn2
+
+/-- **`product_determined` wired in**: `glwe_automorphism_{add,sub,sub_negate}{,_assign}` return the same ciphertext for ANY well-formed scratch content `dft0` of the shape `take_vec_znx_dft` gives as for the zeroed one -/
+theorem automorphism_fused_dft0_irrelevant (f : Ks.Fused) (big128 : Bool) (N : Nat) (dft0 : Buf) (rb rs rr : Nat) (a : Ks.Ct) (key : Ks.Key)
+    (hD : 1 ≤ key.dsize) (hc0 : 0 < key.mat.colsOut) (han : a.n = N)
+    (hwf : dft0.WF) (hn : dft0.n = N) (hc : dft0.cols = rr + 1) (hs : dft0.size = key.mat.size) (hm : dft0.maxSize = key.mat.size) :
+    Ks.automorphismFused f big128 dft0 rb rs rr a key = Ks.automorphismFused f big128 (Ks.zeroBuf N (rr + 1) key.size) rb rs rr a key :=
+  KsDec.automorphismFused_dft0_irrelevant f big128 N dft0 rb rs rr a key hD hc0 han hwf hn hc hs hm
+
+/-- `glwe_automorphism_fused_decrypts` for arbitrary `res_dft` content -/
+theorem glwe_automorphism_fused_decrypts_any (f : Ks.Fused) (big128 : Bool) (N bout sout rout : Nat) (a : Ks.Ct) (key : Ks.Key) (dft0 : Buf)
+    (sk : List Poly) (gInv : Int) (EL KL : ℕ → ℕ → Poly) (Hin Hp : Int)
+    (hN : 0 < N) (hg : GalOk key.p N) (hsk : Ks.AllLen N sk) (hinv : ∀ s ∈ sk, σ key.p (σ gInv s) = s)
+    (ha : GWF N a) (hrank : a.rank = key.rankIn) (hrout : rout = key.rankOut) (hra : a.rank = rout) (hc0 : 0 < key.mat.colsOut)
+    (hD : 1 ≤ key.dsize) (hM : ∀ j q, (key.mat.entry j q).length = N) (hS : key.mat.rows * key.dsize ≤ key.mat.size)
+    (hbi1 : 1 ≤ a.base2k) (hbi : a.base2k ≤ 62) (hbk1 : 1 ≤ key.base2k) (hbk : key.base2k ≤ 62) (hbo1 : 1 ≤ bout) (hbo : bout ≤ 62)
+    (hIn0 : 0 ≤ Hin) (hIn : Hin + 8 ≤ 2 ^ 62) (hInB : ∀ c ∈ a.cols, ∀ l ∈ c, ∀ x ∈ l, |x| ≤ Hin)
+    (hHp0 : 0 ≤ Hp) (hAcc : Hp + 2 * (Hin + 2 ^ key.base2k) + 8 ≤ 2 ^ (bitsOf big128 - 2))
+    (hprod : ∀ aConv, Ks.convIn a key = .ok aConv → ∀ i, i < rout + 1 → ∀ l ∈ (prodOf rout aConv key).act i, ∀ x ∈ l, |x| ≤ Hp)
+    (hs : key.mat.colsIn ≤ sk.length)
+    (hEL : ∀ i r, (EL i r).length = N) (hKL : ∀ i r, (KL i r).length = N)
+    (hkey : ∀ i, i < key.mat.colsIn → ∀ r, r < key.mat.rows →
+      Gadget.val (Ks.radix N key.base2k) key.mat.size (Ks.keyPhase N (sk.map (σ gInv)) key.mat i r) =
+        Ks.ι N (sk.getD i []) * Ks.radix N key.base2k ^ (key.mat.size - (r + 1) * key.dsize) + Ks.ι N (EL i r)
+          + Ks.radix N key.base2k ^ key.mat.size * Ks.ι N (KL i r))
+    (hcov1 : convSize a key ≤ key.mat.size) (hcov2 : convSize a key ≤ key.mat.rows * key.dsize)
+    (hdwf : dft0.WF) (hdn : dft0.n = N) (hdc : dft0.cols = rout + 1) (hds : dft0.size = key.mat.size) (hdm : dft0.maxSize = key.mat.size) :
+    ∃ res aConv, Ks.automorphismFused f big128 dft0 bout sout rout a key = .ok res ∧
+      Ks.convIn a key = .ok aConv ∧ GWF N res ∧ res.base2k = bout ∧ res.size = sout ∧ res.rank = rout ∧
+      ∃ (E1 E3 : Poly) (Q : Ks.R N), E1.length = N ∧ E3.length = N ∧
+        normInf E1 ≤ (1 + snorm (min a.rank sk.length) sk) * C02.normTol (key.base2k * convSize a key) (a.base2k * a.size) ∧
+        normInf E3 ≤ (1 + snorm (min rout sk.length) sk) * C02.normTol (bout * sout) (key.base2k * key.mat.size) ∧
+        (2 : Ks.R N) ^ (a.base2k * a.size + key.base2k * key.mat.size) * Ks.ι N (valP bout N (phase sk res))
+          = (sgA f : Ks.R N) *
+              ((2 : Ks.R N) ^ (bout * sout + key.base2k * key.mat.size) * Ks.ι N (σ key.p (valP a.base2k N (phase sk a)))
+                + Ks.ι N (σ key.p (ksErr (2 ^ (bout * sout + key.base2k * (key.mat.size - convSize a key)))
+                    (2 ^ (a.base2k * a.size + bout * sout)) 0 E1 (Ks.errL N key.base2k (aDftOf aConv) key EL)
+                    (Ks.dropL N key.base2k (sk.map (σ gInv)) (aDftOf aConv) key) (zeroP N))))
+            + (sgB f : Ks.R N) *
+              ((2 : Ks.R N) ^ (bout * sout + key.base2k * key.mat.size) * Ks.ι N (valP a.base2k N (phase sk a))
+                + Ks.ι N (polyScale (2 ^ (bout * sout + key.base2k * (key.mat.size - convSize a key))) E1))
+            + Ks.ι N (polyScale (2 ^ (a.base2k * a.size)) E3)
+            + (2 : Ks.R N) ^ (a.base2k * a.size + bout * sout + key.base2k * key.mat.size) * Q ∧
+        normInf (σ key.p (ksErr (2 ^ (bout * sout + key.base2k * (key.mat.size - convSize a key)))
+                    (2 ^ (a.base2k * a.size + bout * sout)) 0 E1 (Ks.errL N key.base2k (aDftOf aConv) key EL)
+                    (Ks.dropL N key.base2k (sk.map (σ gInv)) (aDftOf aConv) key) (zeroP N)))
+          ≤ 2 ^ (bout * sout + key.base2k * (key.mat.size - convSize a key)) *
+              ((1 + snorm (min a.rank sk.length) sk) * C02.normTol (key.base2k * convSize a key) (a.base2k * a.size))
+            + 2 ^ (a.base2k * a.size + bout * sout) * gadgetBound N key.base2k (aDftOf aConv) key EL
+            + 2 ^ (a.base2k * a.size + bout * sout) * dropBound N key.base2k (sk.map (σ gInv)) (aDftOf aConv) key :=
+  KsDec.glwe_automorphism_fused_decrypts_any f big128 N bout sout rout a key dft0 sk gInv EL KL Hin Hp hN hg hsk hinv ha hrank hrout hra hc0 hD hM hS hbi1 hbi hbk1 hbk hbo1 hbo hIn0 hIn hInB hHp0 hAcc hprod hs hEL hKL hkey hcov1 hcov2 hdwf hdn hdc hds hdm
+
+/-- `σ_p(KS(a)) + a`, arbitrary `res_dft` -/
+theorem glwe_automorphism_add_decrypts_any (big128 : Bool) (N bout sout rout : Nat) (a : Ks.Ct) (key : Ks.Key) (dft0 : Buf)
+    (sk : List Poly) (gInv : Int) (EL KL : ℕ → ℕ → Poly) (Hin Hp : Int)
+    (hN : 0 < N) (hg : GalOk key.p N) (hsk : Ks.AllLen N sk) (hinv : ∀ s ∈ sk, σ key.p (σ gInv s) = s)
+    (ha : GWF N a) (hrank : a.rank = key.rankIn) (hrout : rout = key.rankOut) (hra : a.rank = rout) (hc0 : 0 < key.mat.colsOut)
+    (hD : 1 ≤ key.dsize) (hM : ∀ j q, (key.mat.entry j q).length = N) (hS : key.mat.rows * key.dsize ≤ key.mat.size)
+    (hbi1 : 1 ≤ a.base2k) (hbi : a.base2k ≤ 62) (hbk1 : 1 ≤ key.base2k) (hbk : key.base2k ≤ 62) (hbo1 : 1 ≤ bout) (hbo : bout ≤ 62)
+    (hIn0 : 0 ≤ Hin) (hIn : Hin + 8 ≤ 2 ^ 62) (hInB : ∀ c ∈ a.cols, ∀ l ∈ c, ∀ x ∈ l, |x| ≤ Hin)
+    (hHp0 : 0 ≤ Hp) (hAcc : Hp + 2 * (Hin + 2 ^ key.base2k) + 8 ≤ 2 ^ (bitsOf big128 - 2))
+    (hprod : ∀ aConv, Ks.convIn a key = .ok aConv → ∀ i, i < rout + 1 → ∀ l ∈ (prodOf rout aConv key).act i, ∀ x ∈ l, |x| ≤ Hp)
+    (hs : key.mat.colsIn ≤ sk.length)
+    (hEL : ∀ i r, (EL i r).length = N) (hKL : ∀ i r, (KL i r).length = N)
+    (hkey : ∀ i, i < key.mat.colsIn → ∀ r, r < key.mat.rows →
+      Gadget.val (Ks.radix N key.base2k) key.mat.size (Ks.keyPhase N (sk.map (σ gInv)) key.mat i r) =
+        Ks.ι N (sk.getD i []) * Ks.radix N key.base2k ^ (key.mat.size - (r + 1) * key.dsize) + Ks.ι N (EL i r)
+          + Ks.radix N key.base2k ^ key.mat.size * Ks.ι N (KL i r))
+    (hcov1 : convSize a key ≤ key.mat.size) (hcov2 : convSize a key ≤ key.mat.rows * key.dsize)
+    (hdwf : dft0.WF) (hdn : dft0.n = N) (hdc : dft0.cols = rout + 1) (hds : dft0.size = key.mat.size) (hdm : dft0.maxSize = key.mat.size) :
+    ∃ res aConv, Ks.automorphismFused .add big128 dft0 bout sout rout a key = .ok res ∧
+      Ks.convIn a key = .ok aConv ∧ GWF N res ∧ res.base2k = bout ∧ res.size = sout ∧ res.rank = rout ∧
+      ∃ (E1 E3 : Poly) (Q : Ks.R N), E1.length = N ∧ E3.length = N ∧
+        normInf E1 ≤ (1 + snorm (min a.rank sk.length) sk) * C02.normTol (key.base2k * convSize a key) (a.base2k * a.size) ∧
+        normInf E3 ≤ (1 + snorm (min rout sk.length) sk) * C02.normTol (bout * sout) (key.base2k * key.mat.size) ∧
+        (2 : Ks.R N) ^ (a.base2k * a.size + key.base2k * key.mat.size) * Ks.ι N (valP bout N (phase sk res))
+          = ((sgA .add : ℤ) : Ks.R N) *
+              ((2 : Ks.R N) ^ (bout * sout + key.base2k * key.mat.size) * Ks.ι N (σ key.p (valP a.base2k N (phase sk a)))
+                + Ks.ι N (σ key.p (ksErr (2 ^ (bout * sout + key.base2k * (key.mat.size - convSize a key)))
+                    (2 ^ (a.base2k * a.size + bout * sout)) 0 E1 (Ks.errL N key.base2k (aDftOf aConv) key EL)
+                    (Ks.dropL N key.base2k (sk.map (σ gInv)) (aDftOf aConv) key) (zeroP N))))
+            + ((sgB .add : ℤ) : Ks.R N) *
+              ((2 : Ks.R N) ^ (bout * sout + key.base2k * key.mat.size) * Ks.ι N (valP a.base2k N (phase sk a))
+                + Ks.ι N (polyScale (2 ^ (bout * sout + key.base2k * (key.mat.size - convSize a key))) E1))
+            + Ks.ι N (polyScale (2 ^ (a.base2k * a.size)) E3)
+            + (2 : Ks.R N) ^ (a.base2k * a.size + bout * sout + key.base2k * key.mat.size) * Q ∧
+        normInf (σ key.p (ksErr (2 ^ (bout * sout + key.base2k * (key.mat.size - convSize a key)))
+                    (2 ^ (a.base2k * a.size + bout * sout)) 0 E1 (Ks.errL N key.base2k (aDftOf aConv) key EL)
+                    (Ks.dropL N key.base2k (sk.map (σ gInv)) (aDftOf aConv) key) (zeroP N)))
+          ≤ 2 ^ (bout * sout + key.base2k * (key.mat.size - convSize a key)) *
+              ((1 + snorm (min a.rank sk.length) sk) * C02.normTol (key.base2k * convSize a key) (a.base2k * a.size))
+            + 2 ^ (a.base2k * a.size + bout * sout) * gadgetBound N key.base2k (aDftOf aConv) key EL
+            + 2 ^ (a.base2k * a.size + bout * sout) * dropBound N key.base2k (sk.map (σ gInv)) (aDftOf aConv) key :=
+  KsDec.glwe_automorphism_add_decrypts_any big128 N bout sout rout a key dft0 sk gInv EL KL Hin Hp hN hg hsk hinv ha hrank hrout hra hc0 hD hM hS hbi1 hbi hbk1 hbk hbo1 hbo hIn0 hIn hInB hHp0 hAcc hprod hs hEL hKL hkey hcov1 hcov2 hdwf hdn hdc hds hdm
+
+/-- `σ_p(KS(a)) − a`, arbitrary `res_dft` -/
+theorem glwe_automorphism_sub_decrypts_any (big128 : Bool) (N bout sout rout : Nat) (a : Ks.Ct) (key : Ks.Key) (dft0 : Buf)
+    (sk : List Poly) (gInv : Int) (EL KL : ℕ → ℕ → Poly) (Hin Hp : Int)
+    (hN : 0 < N) (hg : GalOk key.p N) (hsk : Ks.AllLen N sk) (hinv : ∀ s ∈ sk, σ key.p (σ gInv s) = s)
+    (ha : GWF N a) (hrank : a.rank = key.rankIn) (hrout : rout = key.rankOut) (hra : a.rank = rout) (hc0 : 0 < key.mat.colsOut)
+    (hD : 1 ≤ key.dsize) (hM : ∀ j q, (key.mat.entry j q).length = N) (hS : key.mat.rows * key.dsize ≤ key.mat.size)
+    (hbi1 : 1 ≤ a.base2k) (hbi : a.base2k ≤ 62) (hbk1 : 1 ≤ key.base2k) (hbk : key.base2k ≤ 62) (hbo1 : 1 ≤ bout) (hbo : bout ≤ 62)
+    (hIn0 : 0 ≤ Hin) (hIn : Hin + 8 ≤ 2 ^ 62) (hInB : ∀ c ∈ a.cols, ∀ l ∈ c, ∀ x ∈ l, |x| ≤ Hin)
+    (hHp0 : 0 ≤ Hp) (hAcc : Hp + 2 * (Hin + 2 ^ key.base2k) + 8 ≤ 2 ^ (bitsOf big128 - 2))
+    (hprod : ∀ aConv, Ks.convIn a key = .ok aConv → ∀ i, i < rout + 1 → ∀ l ∈ (prodOf rout aConv key).act i, ∀ x ∈ l, |x| ≤ Hp)
+    (hs : key.mat.colsIn ≤ sk.length)
+    (hEL : ∀ i r, (EL i r).length = N) (hKL : ∀ i r, (KL i r).length = N)
+    (hkey : ∀ i, i < key.mat.colsIn → ∀ r, r < key.mat.rows →
+      Gadget.val (Ks.radix N key.base2k) key.mat.size (Ks.keyPhase N (sk.map (σ gInv)) key.mat i r) =
+        Ks.ι N (sk.getD i []) * Ks.radix N key.base2k ^ (key.mat.size - (r + 1) * key.dsize) + Ks.ι N (EL i r)
+          + Ks.radix N key.base2k ^ key.mat.size * Ks.ι N (KL i r))
+    (hcov1 : convSize a key ≤ key.mat.size) (hcov2 : convSize a key ≤ key.mat.rows * key.dsize)
+    (hdwf : dft0.WF) (hdn : dft0.n = N) (hdc : dft0.cols = rout + 1) (hds : dft0.size = key.mat.size) (hdm : dft0.maxSize = key.mat.size) :
+    ∃ res aConv, Ks.automorphismFused .sub big128 dft0 bout sout rout a key = .ok res ∧
+      Ks.convIn a key = .ok aConv ∧ GWF N res ∧ res.base2k = bout ∧ res.size = sout ∧ res.rank = rout ∧
+      ∃ (E1 E3 : Poly) (Q : Ks.R N), E1.length = N ∧ E3.length = N ∧
+        normInf E1 ≤ (1 + snorm (min a.rank sk.length) sk) * C02.normTol (key.base2k * convSize a key) (a.base2k * a.size) ∧
+        normInf E3 ≤ (1 + snorm (min rout sk.length) sk) * C02.normTol (bout * sout) (key.base2k * key.mat.size) ∧
+        (2 : Ks.R N) ^ (a.base2k * a.size + key.base2k * key.mat.size) * Ks.ι N (valP bout N (phase sk res))
+          = ((sgA .sub : ℤ) : Ks.R N) *
+              ((2 : Ks.R N) ^ (bout * sout + key.base2k * key.mat.size) * Ks.ι N (σ key.p (valP a.base2k N (phase sk a)))
+                + Ks.ι N (σ key.p (ksErr (2 ^ (bout * sout + key.base2k * (key.mat.size - convSize a key)))
+                    (2 ^ (a.base2k * a.size + bout * sout)) 0 E1 (Ks.errL N key.base2k (aDftOf aConv) key EL)
+                    (Ks.dropL N key.base2k (sk.map (σ gInv)) (aDftOf aConv) key) (zeroP N))))
+            + ((sgB .sub : ℤ) : Ks.R N) *
+              ((2 : Ks.R N) ^ (bout * sout + key.base2k * key.mat.size) * Ks.ι N (valP a.base2k N (phase sk a))
+                + Ks.ι N (polyScale (2 ^ (bout * sout + key.base2k * (key.mat.size - convSize a key))) E1))
+            + Ks.ι N (polyScale (2 ^ (a.base2k * a.size)) E3)
+            + (2 : Ks.R N) ^ (a.base2k * a.size + bout * sout + key.base2k * key.mat.size) * Q ∧
+        normInf (σ key.p (ksErr (2 ^ (bout * sout + key.base2k * (key.mat.size - convSize a key)))
+                    (2 ^ (a.base2k * a.size + bout * sout)) 0 E1 (Ks.errL N key.base2k (aDftOf aConv) key EL)
+                    (Ks.dropL N key.base2k (sk.map (σ gInv)) (aDftOf aConv) key) (zeroP N)))
+          ≤ 2 ^ (bout * sout + key.base2k * (key.mat.size - convSize a key)) *
+              ((1 + snorm (min a.rank sk.length) sk) * C02.normTol (key.base2k * convSize a key) (a.base2k * a.size))
+            + 2 ^ (a.base2k * a.size + bout * sout) * gadgetBound N key.base2k (aDftOf aConv) key EL
+            + 2 ^ (a.base2k * a.size + bout * sout) * dropBound N key.base2k (sk.map (σ gInv)) (aDftOf aConv) key :=
+  KsDec.glwe_automorphism_sub_decrypts_any big128 N bout sout rout a key dft0 sk gInv EL KL Hin Hp hN hg hsk hinv ha hrank hrout hra hc0 hD hM hS hbi1 hbi hbk1 hbk hbo1 hbo hIn0 hIn hInB hHp0 hAcc hprod hs hEL hKL hkey hcov1 hcov2 hdwf hdn hdc hds hdm
+
+/-- `a − σ_p(KS(a))`, arbitrary `res_dft` -/
+theorem glwe_automorphism_sub_negate_decrypts_any (big128 : Bool) (N bout sout rout : Nat) (a : Ks.Ct) (key : Ks.Key) (dft0 : Buf)
+    (sk : List Poly) (gInv : Int) (EL KL : ℕ → ℕ → Poly) (Hin Hp : Int)
+    (hN : 0 < N) (hg : GalOk key.p N) (hsk : Ks.AllLen N sk) (hinv : ∀ s ∈ sk, σ key.p (σ gInv s) = s)
+    (ha : GWF N a) (hrank : a.rank = key.rankIn) (hrout : rout = key.rankOut) (hra : a.rank = rout) (hc0 : 0 < key.mat.colsOut)
+    (hD : 1 ≤ key.dsize) (hM : ∀ j q, (key.mat.entry j q).length = N) (hS : key.mat.rows * key.dsize ≤ key.mat.size)
+    (hbi1 : 1 ≤ a.base2k) (hbi : a.base2k ≤ 62) (hbk1 : 1 ≤ key.base2k) (hbk : key.base2k ≤ 62) (hbo1 : 1 ≤ bout) (hbo : bout ≤ 62)
+    (hIn0 : 0 ≤ Hin) (hIn : Hin + 8 ≤ 2 ^ 62) (hInB : ∀ c ∈ a.cols, ∀ l ∈ c, ∀ x ∈ l, |x| ≤ Hin)
+    (hHp0 : 0 ≤ Hp) (hAcc : Hp + 2 * (Hin + 2 ^ key.base2k) + 8 ≤ 2 ^ (bitsOf big128 - 2))
+    (hprod : ∀ aConv, Ks.convIn a key = .ok aConv → ∀ i, i < rout + 1 → ∀ l ∈ (prodOf rout aConv key).act i, ∀ x ∈ l, |x| ≤ Hp)
+    (hs : key.mat.colsIn ≤ sk.length)
+    (hEL : ∀ i r, (EL i r).length = N) (hKL : ∀ i r, (KL i r).length = N)
+    (hkey : ∀ i, i < key.mat.colsIn → ∀ r, r < key.mat.rows →
+      Gadget.val (Ks.radix N key.base2k) key.mat.size (Ks.keyPhase N (sk.map (σ gInv)) key.mat i r) =
+        Ks.ι N (sk.getD i []) * Ks.radix N key.base2k ^ (key.mat.size - (r + 1) * key.dsize) + Ks.ι N (EL i r)
+          + Ks.radix N key.base2k ^ key.mat.size * Ks.ι N (KL i r))
+    (hcov1 : convSize a key ≤ key.mat.size) (hcov2 : convSize a key ≤ key.mat.rows * key.dsize)
+    (hdwf : dft0.WF) (hdn : dft0.n = N) (hdc : dft0.cols = rout + 1) (hds : dft0.size = key.mat.size) (hdm : dft0.maxSize = key.mat.size) :
+    ∃ res aConv, Ks.automorphismFused .subNegate big128 dft0 bout sout rout a key = .ok res ∧
+      Ks.convIn a key = .ok aConv ∧ GWF N res ∧ res.base2k = bout ∧ res.size = sout ∧ res.rank = rout ∧
+      ∃ (E1 E3 : Poly) (Q : Ks.R N), E1.length = N ∧ E3.length = N ∧
+        normInf E1 ≤ (1 + snorm (min a.rank sk.length) sk) * C02.normTol (key.base2k * convSize a key) (a.base2k * a.size) ∧
+        normInf E3 ≤ (1 + snorm (min rout sk.length) sk) * C02.normTol (bout * sout) (key.base2k * key.mat.size) ∧
+        (2 : Ks.R N) ^ (a.base2k * a.size + key.base2k * key.mat.size) * Ks.ι N (valP bout N (phase sk res))
+          = ((sgA .subNegate : ℤ) : Ks.R N) *
+              ((2 : Ks.R N) ^ (bout * sout + key.base2k * key.mat.size) * Ks.ι N (σ key.p (valP a.base2k N (phase sk a)))
+                + Ks.ι N (σ key.p (ksErr (2 ^ (bout * sout + key.base2k * (key.mat.size - convSize a key)))
+                    (2 ^ (a.base2k * a.size + bout * sout)) 0 E1 (Ks.errL N key.base2k (aDftOf aConv) key EL)
+                    (Ks.dropL N key.base2k (sk.map (σ gInv)) (aDftOf aConv) key) (zeroP N))))
+            + ((sgB .subNegate : ℤ) : Ks.R N) *
+              ((2 : Ks.R N) ^ (bout * sout + key.base2k * key.mat.size) * Ks.ι N (valP a.base2k N (phase sk a))
+                + Ks.ι N (polyScale (2 ^ (bout * sout + key.base2k * (key.mat.size - convSize a key))) E1))
+            + Ks.ι N (polyScale (2 ^ (a.base2k * a.size)) E3)
+            + (2 : Ks.R N) ^ (a.base2k * a.size + bout * sout + key.base2k * key.mat.size) * Q ∧
+        normInf (σ key.p (ksErr (2 ^ (bout * sout + key.base2k * (key.mat.size - convSize a key)))
+                    (2 ^ (a.base2k * a.size + bout * sout)) 0 E1 (Ks.errL N key.base2k (aDftOf aConv) key EL)
+                    (Ks.dropL N key.base2k (sk.map (σ gInv)) (aDftOf aConv) key) (zeroP N)))
+          ≤ 2 ^ (bout * sout + key.base2k * (key.mat.size - convSize a key)) *
+              ((1 + snorm (min a.rank sk.length) sk) * C02.normTol (key.base2k * convSize a key) (a.base2k * a.size))
+            + 2 ^ (a.base2k * a.size + bout * sout) * gadgetBound N key.base2k (aDftOf aConv) key EL
+            + 2 ^ (a.base2k * a.size + bout * sout) * dropBound N key.base2k (sk.map (σ gInv)) (aDftOf aConv) key :=
+  KsDec.glwe_automorphism_sub_negate_decrypts_any big128 N bout sout rout a key dft0 sk gInv EL KL Hin Hp hN hg hsk hinv ha hrank hrout hra hc0 hD hM hS hbi1 hbi hbk1 hbk hbo1 hbo hIn0 hIn hInB hHp0 hAcc hprod hs hEL hKL hkey hcov1 hcov2 hdwf hdn hdc hds hdm
+
+/-- in-place forms, arbitrary `res_dft` -/
+theorem glwe_automorphism_fused_assign_decrypts_any (f : Ks.Fused) (big128 : Bool) (N : Nat) (a : Ks.Ct) (key : Ks.Key) (dft0 : Buf)
+    (sk : List Poly) (gInv : Int) (EL KL : ℕ → ℕ → Poly) (Hin Hp : Int)
+    (hN : 0 < N) (hg : GalOk key.p N) (hsk : Ks.AllLen N sk) (hinv : ∀ s ∈ sk, σ key.p (σ gInv s) = s)
+    (ha : GWF N a) (hrank : a.rank = key.rankIn) (hrout : a.rank = key.rankOut) (hc0 : 0 < key.mat.colsOut)
+    (hD : 1 ≤ key.dsize) (hM : ∀ j q, (key.mat.entry j q).length = N) (hS : key.mat.rows * key.dsize ≤ key.mat.size)
+    (hbi1 : 1 ≤ a.base2k) (hbi : a.base2k ≤ 62) (hbk1 : 1 ≤ key.base2k) (hbk : key.base2k ≤ 62)
+    (hIn0 : 0 ≤ Hin) (hIn : Hin + 8 ≤ 2 ^ 62) (hInB : ∀ c ∈ a.cols, ∀ l ∈ c, ∀ x ∈ l, |x| ≤ Hin)
+    (hHp0 : 0 ≤ Hp) (hAcc : Hp + 2 * (Hin + 2 ^ key.base2k) + 8 ≤ 2 ^ (bitsOf big128 - 2))
+    (hprod : ∀ aConv, Ks.convIn a key = .ok aConv → ∀ i, i < a.rank + 1 → ∀ l ∈ (prodOf a.rank aConv key).act i, ∀ x ∈ l, |x| ≤ Hp)
+    (hs : key.mat.colsIn ≤ sk.length)
+    (hEL : ∀ i r, (EL i r).length = N) (hKL : ∀ i r, (KL i r).length = N)
+    (hkey : ∀ i, i < key.mat.colsIn → ∀ r, r < key.mat.rows →
+      Gadget.val (Ks.radix N key.base2k) key.mat.size (Ks.keyPhase N (sk.map (σ gInv)) key.mat i r) =
+        Ks.ι N (sk.getD i []) * Ks.radix N key.base2k ^ (key.mat.size - (r + 1) * key.dsize) + Ks.ι N (EL i r)
+          + Ks.radix N key.base2k ^ key.mat.size * Ks.ι N (KL i r))
+    (hcov1 : convSize a key ≤ key.mat.size) (hcov2 : convSize a key ≤ key.mat.rows * key.dsize)
+    (hdwf : dft0.WF) (hdn : dft0.n = N) (hdc : dft0.cols = a.rank + 1) (hds : dft0.size = key.mat.size) (hdm : dft0.maxSize = key.mat.size) :
+    ∃ res aConv, Ks.automorphismFused f big128 dft0 a.base2k a.size a.rank a key = .ok res ∧
+      Ks.convIn a key = .ok aConv ∧ GWF N res ∧ res.base2k = a.base2k ∧ res.size = a.size ∧ res.rank = a.rank ∧
+      ∃ (E1 E3 : Poly) (Q : Ks.R N), E1.length = N ∧ E3.length = N ∧
+        normInf E1 ≤ (1 + snorm (min a.rank sk.length) sk) * C02.normTol (key.base2k * convSize a key) (a.base2k * a.size) ∧
+        normInf E3 ≤ (1 + snorm (min a.rank sk.length) sk) * C02.normTol (a.base2k * a.size) (key.base2k * key.mat.size) ∧
+        (2 : Ks.R N) ^ (a.base2k * a.size + key.base2k * key.mat.size) * Ks.ι N (valP a.base2k N (phase sk res))
+          = (sgA f : Ks.R N) *
+              ((2 : Ks.R N) ^ (a.base2k * a.size + key.base2k * key.mat.size) * Ks.ι N (σ key.p (valP a.base2k N (phase sk a)))
+                + Ks.ι N (σ key.p (ksErr (2 ^ (a.base2k * a.size + key.base2k * (key.mat.size - convSize a key)))
+                    (2 ^ (a.base2k * a.size + a.base2k * a.size)) 0 E1 (Ks.errL N key.base2k (aDftOf aConv) key EL)
+                    (Ks.dropL N key.base2k (sk.map (σ gInv)) (aDftOf aConv) key) (zeroP N))))
+            + (sgB f : Ks.R N) *
+              ((2 : Ks.R N) ^ (a.base2k * a.size + key.base2k * key.mat.size) * Ks.ι N (valP a.base2k N (phase sk a))
+                + Ks.ι N (polyScale (2 ^ (a.base2k * a.size + key.base2k * (key.mat.size - convSize a key))) E1))
+            + Ks.ι N (polyScale (2 ^ (a.base2k * a.size)) E3)
+            + (2 : Ks.R N) ^ (a.base2k * a.size + a.base2k * a.size + key.base2k * key.mat.size) * Q ∧
+        normInf (σ key.p (ksErr (2 ^ (a.base2k * a.size + key.base2k * (key.mat.size - convSize a key)))
+                    (2 ^ (a.base2k * a.size + a.base2k * a.size)) 0 E1 (Ks.errL N key.base2k (aDftOf aConv) key EL)
+                    (Ks.dropL N key.base2k (sk.map (σ gInv)) (aDftOf aConv) key) (zeroP N)))
+          ≤ 2 ^ (a.base2k * a.size + key.base2k * (key.mat.size - convSize a key)) *
+              ((1 + snorm (min a.rank sk.length) sk) * C02.normTol (key.base2k * convSize a key) (a.base2k * a.size))
+            + 2 ^ (a.base2k * a.size + a.base2k * a.size) * gadgetBound N key.base2k (aDftOf aConv) key EL
+            + 2 ^ (a.base2k * a.size + a.base2k * a.size) * dropBound N key.base2k (sk.map (σ gInv)) (aDftOf aConv) key :=
+  KsDec.glwe_automorphism_fused_assign_decrypts_any f big128 N a key dft0 sk gInv EL KL Hin Hp hN hg hsk hinv ha hrank hrout hc0 hD hM hS hbi1 hbi hbk1 hbk hIn0 hIn hInB hHp0 hAcc hprod hs hEL hKL hkey hcov1 hcov2 hdwf hdn hdc hds hdm
+
+/-- the former defect witness (garbage in the limb the first pass skips, `dsize = 3`): same result as with the zeroed scratch, by the theorem -/
+example (f : Ks.Fused) (big128 : Bool) :
+    Ks.automorphismFused f big128 KsDec.dirtyR1 3 2 1 KsDec.exCt KsDec.exKeyR1 =
+      Ks.automorphismFused f big128 (Ks.zeroBuf 1 (1 + 1) KsDec.exKeyR1.size) 3 2 1 KsDec.exCt KsDec.exKeyR1 :=
+  automorphism_fused_dft0_irrelevant f big128 1 KsDec.dirtyR1 3 2 1 KsDec.exCt KsDec.exKeyR1 (by decide) (by decide) rfl KsDec.dirtyR1_WF
+    rfl rfl rfl rfl
+example : Ks.automorphismFused .add false KsDec.dirtyR1 3 2 1 KsDec.exCt KsDec.exKeyR1 = .ok (Ks.mkCt 3 1 [[[3], [-4]], [[1], [-4]]]) := by
+  decide +kernel
+end FusedAnySec
+
+section TraceJumpSec
+open TraceJump AutoMul Hal
+variable {M : Type*} [AddCommGroup M]
+
+/-- **the trace over the levels `j … K−1` maps `R` into `2^{K−j}·R`** (more precisely into `2^{K−j}·ℤ[X^{2^j}]`): monomial by monomial, `σ_{g_i}(X^t) = X^t` for `i ≥ K − v₂(t)`, `= −X^t` for `i = K−1−v₂(t)` (`v₂(g_i − 1) = i+1`: `5^{2^{i−1}} ≡ 1 + 2^{i+1} mod 2^{i+2}`) -/
+theorem trace_suffix (K j n : ℕ) (h : j + n = K) (x : Ks.R (2 ^ K)) :
+    ∃ z, InSub (2 ^ K) (2 ^ n) z ∧ traceOp (2 ^ K) (List.range' j n) x = 2 ^ n • z :=
+  TraceJump.trace_suffix K j n h x
+
+/-- divisibility form -/
+theorem trace_suffix_dvd (K j : ℕ) (hj : j ≤ K) (x : Ks.R (2 ^ K)) :
+    ∃ y, traceOp (2 ^ K) (List.range' j (K - j)) x = 2 ^ (K - j) • y :=
+  TraceJump.trace_suffix_dvd K j hj x
+
+/-- the full trace lands in `2^K·ℤ` -/
+theorem trace_full_int (K : ℕ) (x : Ks.R (2 ^ K)) :
+    ∃ c : ℤ, traceOp (2 ^ K) (List.range' 0 K) x = 2 ^ K • (c : Ks.R (2 ^ K)) :=
+  TraceJump.trace_full_int K x
+
+/-- **the executed trace is sound modulo 1**: from the per-level relations (`glwe_rsh 1`: `2φ' = φ + e + 2Q·k`; fused add: `φ⁺ = φ' + σφ' + E + Q·k'`) the wraps `Q·k` of every level are mapped into `2^n·Q·R` by the remaining levels (`trace_suffix`), hence `2^n·φ_K = T(φ_j) + Err + 2^n·Q·z` -/
+theorem trace_compose_ring (K j n : ℕ) (h : j + n = K) (Q : ℤ) (φ φ' e E k k' : ℕ → Ks.R (2 ^ K))
+    (h1 : ∀ i, j ≤ i → i < K → 2 • φ' i = φ i + e i + (2 * Q) • k i)
+    (h2 : ∀ i, j ≤ i → i < K → φ (i + 1) = φ' i + sig (2 ^ K) (lvl (2 ^ K) i) (φ' i) + E i + Q • k' i) :
+    ∃ kk, 2 ^ n • φ K = traceOp (2 ^ K) (List.range' j n) (φ j)
+        + traceErr (2 ^ K) (fun i => step (2 ^ K) i (e i) + 2 • E i) j n + (2 ^ n * Q) • kk :=
+  TraceJump.trace_compose_ring K j n h Q φ φ' e E k k' h1 h2
+
+/-- with the error as a coefficient list and its norm: `‖Err‖_∞ ≤ 2^n·Σ_levels (a_i + b_i)` — after dividing by `2^n`: the sum over the levels of the `rsh` unit and the automorphism noise -/
+theorem trace_compose (K j n : ℕ) (h : j + n = K) (Q : ℤ) (gs : ℕ → ℤ) (φ φ' k k' : ℕ → Ks.R (2 ^ K))
+    (eL EL : ℕ → Poly) (a b : ℕ → ℤ)
+    (hg : ∀ i, j ≤ i → i < K → IsLvl (2 ^ K) (gs i) i)
+    (hel : ∀ i, (eL i).length = 2 ^ K) (hEl : ∀ i, (EL i).length = 2 ^ K)
+    (he : ∀ i, j ≤ i → i < K → normInf (eL i) ≤ a i) (hE : ∀ i, j ≤ i → i < K → normInf (EL i) ≤ b i)
+    (h1 : ∀ i, j ≤ i → i < K → 2 • φ' i = φ i + Ks.ι (2 ^ K) (eL i) + (2 * Q) • k i)
+    (h2 : ∀ i, j ≤ i → i < K →
+      φ (i + 1) = φ' i + sig (2 ^ K) (lvl (2 ^ K) i) (φ' i) + Ks.ι (2 ^ K) (EL i) + Q • k' i) :
+    ∃ (kk : Ks.R (2 ^ K)) (ErrL : Poly), ErrL.length = 2 ^ K ∧
+      normInf ErrL ≤ 2 ^ n * ∑ t ∈ Finset.range n, (a (j + t) + b (j + t)) ∧
+      2 ^ n • φ K = traceOp (2 ^ K) (List.range' j n) (φ j) + Ks.ι (2 ^ K) ErrL + (2 ^ n * Q) • kk :=
+  TraceJump.trace_compose K j n h Q gs φ φ' k k' eL EL a b hg hel hEl he hE h1 h2
+
+/-- the executable's `traceGalois` produces exactly these Galois elements -/
+theorem trace_galois_is_level (K i : ℕ) (hK : K + 1 ≤ 64) (g : ℤ) (h : Ks.traceGalois (2 ^ K) i = .ok g) :
+    IsLvl (2 ^ K) g i :=
+  TraceJump.traceGalois_isLvl K i hK g h
+
+/-- `N = 4`: the full trace of any `x` is `4·z` with `z ∈ ℤ`; the level-1 factor kills `X`, doubles `X²` -/
+example (x : Ks.R (2 ^ 2)) : ∃ z, TraceJump.InSub (2 ^ 2) (2 ^ 2) z ∧ TraceJump.traceOp (2 ^ 2) [0, 1] x = 2 ^ 2 • z :=
+  trace_suffix 2 0 2 rfl x
+example : TraceJump.step (2 ^ 2) 1 (TraceJump.rt (2 ^ 2)) = 0 ∧
+    TraceJump.step (2 ^ 2) 1 (TraceJump.rt (2 ^ 2) ^ 2) = 2 • TraceJump.rt (2 ^ 2) ^ 2 := ⟨TraceJump.ex_step1_X, TraceJump.ex_step1_X2⟩
+example (g : ℤ) (h : Ks.traceGalois (2 ^ 10) 3 = .ok g) : TraceJump.IsLvl (2 ^ 10) g 3 :=
+  trace_galois_is_level 10 3 (by norm_num) g h
+end TraceJumpSec
+
+section GgswDecryptSec
+open KsDec Hal Core Core.Ops C02L AutoMul
+variable {M : Type*} [AddCommGroup M]
+
+/-- `ExpandOk` (shape of the product, no wrap of the body addition) derived for BOTH accumulator widths from digit bounds -/
+theorem expand_ok_of_bounds (N : Nat) (big128 : Bool) (a0 : Col) (aDft : List Col) (t : ToGGSWKey) (c : Nat) (Hp Ha : Int)
+    (hd : 1 ≤ t.dsize) (hn : t.n = N) (hM : ∀ j q, ((t.at c).toPMat.entry j q).length = N) (hc : c < t.rank)
+    (ha0 : LimbsN N a0) (hH : Hp + Ha < 2 ^ (bitsOf big128 - 1))
+    (hprod : ∀ l ∈ (expandProd N aDft t c).getD (c + 1) [], ∀ x ∈ l, |x| ≤ Hp)
+    (hbody : ∀ l ∈ a0, ∀ x ∈ l, |x| ≤ Ha) : ExpandOk N big128 a0 aDft t c :=
+  KsDec.expandOk_of_bounds N big128 a0 aDft t c Hp Ha hd hn hM hc ha0 hH hprod hbody
+
+/-- the row value of the expansion is the C02 phase value of the column-0 cell (same radix, covered regime) -/
+theorem ggsw_row_value_same (N : Nat) (hN : 0 < N) (y : Ks.Ct) (t : ToGGSWKey) (sk : List Poly) (hy : GWF N y) (hrank : y.rank = t.rank)
+    (hd : 1 ≤ t.dsize) (hsk : t.rank ≤ sk.length) (h1 : y.size ≤ t.size) (h2 : y.size ≤ t.dnum * t.dsize) :
+    rowVal N ((2 : Ks.R N) ^ t.base2k) (y.cols.getD 0 []) (maskOf t y) t (fun i => Ks.ι N (sk.getD i []))
+      = ((2 : Ks.R N) ^ t.base2k) ^ (t.size - y.size) * Ks.ι N (valP t.base2k N (phase sk y)) :=
+  KsDec.rowVal_same N hN y t sk hy hrank hd hsk h1 h2
+
+/-- normalisation of an expansion accumulator to a cell, lifted to phases (C08 discharged) -/
+theorem ggsw_acc_norm_phase (big128 : Bool) (N rb rs ab S : Nat) (H : Int) (L cell : List Col) (hN : 0 < N)
+    (hrb1 : 1 ≤ rb) (hrb : rb ≤ 62) (hab1 : 1 ≤ ab) (hab : ab ≤ 62) (hH0 : 0 ≤ H) (hH : H + 8 ≤ 2 ^ (bitsOf big128 - 2))
+    (hne : L ≠ []) (hwf : ∀ c ∈ L, ColWF N S c) (hb : ∀ c ∈ L, ∀ l ∈ c, ∀ x ∈ l, |x| ≤ H)
+    (hcell : L.mapM (fun x => bigNormalizeOff big128 N rb rs 0 x ab) = some cell) :
+    cell.length = L.length ∧ (∀ c ∈ cell, ColWF N rs c) ∧ (∀ c ∈ cell, ∀ l ∈ c, ∀ x ∈ l, |x| ≤ 2 ^ rb - 1) ∧
+      ∀ s : List Poly, ∃ E Q : Poly, E.length = N ∧ Q.length = N ∧
+        normInf E ≤ (1 + snorm (min (L.length - 1) s.length) s) * C02.normTol (rb * rs) (ab * S) ∧
+        (2 : Ks.R N) ^ (ab * S) * Ks.ι N (valP rb N (phase s (Ks.mkCt rb N cell)))
+          = (2 : Ks.R N) ^ (rb * rs) *
+              (∑ l ∈ Finset.range S, Ks.ι N (Ks.phaseRow s (L.map (fun col => limbOr0 N col l))) * ((2 : Ks.R N) ^ ab) ^ (S - 1 - l))
+            + Ks.ι N E + (2 : Ks.R N) ^ (rb * rs + ab * S) * Ks.ι N Q :=
+  KsDec.acc_norm_phase big128 N rb rs ab S H L cell hN hrb1 hrb hab1 hab hH0 hH hne hwf hb hcell
+
+/-- **`ggsw_keyswitch_decrypts`, per cell**: cell `(r, c)` of the result decrypts under `skOut` to `σ_c ·` (phase of the operand's cell `(r,0)` under `skIn`) + explicit error (`σ_c`·key-switch error + expansion error + normalisation), `σ_0 = 1`, `σ_c = s_{c−1}` -/
+theorem ggsw_keyswitch_decrypts (N : Nat) (big128 : Bool) (rs rd rds ab ads : Nat) (aCol0 : List Ks.Ct) (key : Ks.Key) (t : ToGGSWKey)
+    (cells : List (List Col)) (sIn skOut : List Poly) (EL KL : ℕ → ℕ → Poly) (ET : ℕ → ℕ → ℕ → Ks.R N) (Hin Hp HpT : Int)
+    (hN : 0 < N) (hrout : t.rank = key.rankOut) (hc0 : 0 < key.mat.colsOut)
+    (hD : 1 ≤ key.dsize) (hMk : ∀ j q, (key.mat.entry j q).length = N) (hSk : key.mat.rows * key.dsize ≤ key.mat.size)
+    (hbk1 : 1 ≤ key.base2k) (hbk : key.base2k ≤ 62) (hs : key.mat.colsIn ≤ sIn.length)
+    (hEL : ∀ i r, (EL i r).length = N) (hKL : ∀ i r, (KL i r).length = N)
+    (hkey : ∀ i, i < key.mat.colsIn → ∀ r, r < key.mat.rows →
+      Gadget.val (Ks.radix N key.base2k) key.mat.size (Ks.keyPhase N skOut key.mat i r) =
+        Ks.ι N (sIn.getD i []) * Ks.radix N key.base2k ^ (key.mat.size - (r + 1) * key.dsize) + Ks.ι N (EL i r)
+          + Ks.radix N key.base2k ^ key.mat.size * Ks.ι N (KL i r))
+    (hd : 1 ≤ t.dsize) (hn : t.n = N) (hS : t.dnum * t.dsize ≤ t.size) (hrank : t.rank ≤ skOut.length)
+    (hMt : ∀ c, c < t.rank → ∀ j q, ((t.at c).toPMat.entry j q).length = N) (hb1 : 1 ≤ t.base2k) (hb : t.base2k ≤ 62)
+    (hkeyT : ∀ c, c < t.rank → ∀ i, i < t.rank → ∀ r, r < t.dnum →
+      Gadget.val ((2 : Ks.R N) ^ t.base2k) t.size (Ks.keyPhase N skOut (t.at c).toPMat i r)
+        = Ks.ι N (skOut.getD c []) * Ks.ι N (skOut.getD i []) * ((2 : Ks.R N) ^ t.base2k) ^ (t.size - (r + 1) * t.dsize) + ET c i r)
+    (hcov1 : rs ≤ t.size) (hcov2 : rs ≤ t.dnum * t.dsize)
+    (hIn0 : 0 ≤ Hin) (hIn : Hin + 8 ≤ 2 ^ 62) (hHp0 : 0 ≤ Hp) (hAcc : Hp + (Hin + 2 ^ key.base2k) + 8 ≤ 2 ^ (bitsOf big128 - 2))
+    (hHpT0 : 0 ≤ HpT) (hAccT : HpT + 2 ^ t.base2k + 8 ≤ 2 ^ (bitsOf big128 - 2))
+    (hrows : ∀ r x, r < rd → aCol0[r]? = some x → KsRowOk N key.rankOut key Hin Hp x)
+    (hprodT : ∀ r x y, r < rd → aCol0[r]? = some x → Ks.keyswitch big128 t.base2k rs key.rankOut x key = .ok y →
+      ∀ c, c < t.rank → ∀ col ∈ expandProd N (maskOf t y) t c, ∀ l ∈ col, ∀ v ∈ l, |v| ≤ HpT)
+    (h : Ks.ggswKeyswitch big128 N t.base2k rs rd rds ab ads aCol0 key t = .ok cells) :
+    cells.length = rd * (t.rank + 1) ∧
+      ∀ r, r < rd → ∃ x y aConv, aCol0[r]? = some x ∧ Ks.keyswitch big128 t.base2k rs key.rankOut x key = .ok y ∧
+        Ks.convIn x key = .ok aConv ∧ cells[r * (t.rank + 1)]? = some y.cols ∧
+        GWF N y ∧ y.base2k = t.base2k ∧ y.size = rs ∧ y.rank = t.rank ∧
+        ∃ (E1 E3 : Poly) (Q : Ks.R N), E1.length = N ∧ E3.length = N ∧
+          normInf E1 ≤ (1 + snorm (min x.rank sIn.length) sIn) * C02.normTol (key.base2k * convSize x key) (x.base2k * x.size) ∧
+          normInf E3 ≤ (1 + snorm (min key.rankOut skOut.length) skOut) * C02.normTol (t.base2k * rs) (key.base2k * key.mat.size) ∧
+          normInf (ksErrOf N t.base2k rs x aConv key skOut EL E1 E3) ≤ ksErrBound N t.base2k rs key.rankOut x aConv key sIn skOut EL ∧
+          (2 : Ks.R N) ^ (x.base2k * x.size + key.base2k * key.mat.size) * Ks.ι N (valP t.base2k N (phase skOut y))
+            = (2 : Ks.R N) ^ (t.base2k * rs + key.base2k * key.mat.size) * Ks.ι N (valP x.base2k N (phase sIn x))
+              + Ks.ι N (ksErrOf N t.base2k rs x aConv key skOut EL E1 E3)
+              + (2 : Ks.R N) ^ (x.base2k * x.size + key.base2k * key.mat.size + t.base2k * rs) * Q ∧
+          ∀ c, c < t.rank → ∃ cell, cells[r * (t.rank + 1) + (c + 1)]? = some cell ∧ cell.length = t.rank + 1 ∧
+            (∀ col ∈ cell, ColWF N rs col) ∧ (∀ col ∈ cell, ∀ l ∈ col, ∀ v ∈ l, |v| ≤ 2 ^ t.base2k - 1) ∧
+            ∃ E3c Q3c : Poly, E3c.length = N ∧ Q3c.length = N ∧
+              normInf E3c ≤ (1 + snorm (min t.rank skOut.length) skOut) * C02.normTol (t.base2k * rs) (t.base2k * t.size) ∧
+              (2 : Ks.R N) ^ (x.base2k * x.size + key.base2k * key.mat.size + t.base2k * t.size) *
+                  Ks.ι N (valP t.base2k N (phase skOut (Ks.mkCt t.base2k N cell)))
+                = (2 : Ks.R N) ^ (t.base2k * rs + key.base2k * key.mat.size + t.base2k * t.size) *
+                    (Ks.ι N (skOut.getD c []) * Ks.ι N (valP x.base2k N (phase sIn x)))
+                  + ((2 : Ks.R N) ^ (t.base2k * t.size) * (Ks.ι N (skOut.getD c []) * Ks.ι N (ksErrOf N t.base2k rs x aConv key skOut EL E1 E3))
+                    + (2 : Ks.R N) ^ (x.base2k * x.size + key.base2k * key.mat.size + t.base2k * rs) *
+                        expandErr N skOut (maskOf t y) t c ((2 : Ks.R N) ^ t.base2k) (ET c)
+                    + (2 : Ks.R N) ^ (x.base2k * x.size + key.base2k * key.mat.size) * Ks.ι N E3c)
+                  + (2 : Ks.R N) ^ (x.base2k * x.size + key.base2k * key.mat.size + t.base2k * rs + t.base2k * t.size) *
+                      (Ks.ι N (skOut.getD c []) * Q + Ks.ι N Q3c) :=
+  KsDec.ggsw_keyswitch_decrypts N big128 rs rd rds ab ads aCol0 key t cells sIn skOut EL KL ET Hin Hp HpT hN hrout hc0 hD hMk hSk hbk1 hbk hs hEL hKL hkey hd hn hS hrank hMt hb1 hb hkeyT hcov1 hcov2 hIn0 hIn hHp0 hAcc hHpT0 hAccT hrows hprodT h
+
+/-- same for `ggsw_automorphism` (`σ_p` of the operand's phase) -/
+theorem ggsw_automorphism_decrypts (N : Nat) (big128 : Bool) (rs rd rds ab ads : Nat) (aCol0 : List Ks.Ct) (key : Ks.Key) (t : ToGGSWKey)
+    (cells : List (List Col)) (sk : List Poly) (gInv : Int) (EL KL : ℕ → ℕ → Poly) (ET : ℕ → ℕ → ℕ → Ks.R N) (Hin Hp HpT : Int)
+    (hN : 0 < N) (hg : GalOk key.p N) (hskl : Ks.AllLen N sk) (hinv : ∀ s ∈ sk, σ key.p (σ gInv s) = s)
+    (hrout : t.rank = key.rankOut) (hc0 : 0 < key.mat.colsOut)
+    (hD : 1 ≤ key.dsize) (hMk : ∀ j q, (key.mat.entry j q).length = N) (hSk : key.mat.rows * key.dsize ≤ key.mat.size)
+    (hbk1 : 1 ≤ key.base2k) (hbk : key.base2k ≤ 62) (hs : key.mat.colsIn ≤ sk.length)
+    (hEL : ∀ i r, (EL i r).length = N) (hKL : ∀ i r, (KL i r).length = N)
+    (hkey : ∀ i, i < key.mat.colsIn → ∀ r, r < key.mat.rows →
+      Gadget.val (Ks.radix N key.base2k) key.mat.size (Ks.keyPhase N (sk.map (σ gInv)) key.mat i r) =
+        Ks.ι N (sk.getD i []) * Ks.radix N key.base2k ^ (key.mat.size - (r + 1) * key.dsize) + Ks.ι N (EL i r)
+          + Ks.radix N key.base2k ^ key.mat.size * Ks.ι N (KL i r))
+    (hd : 1 ≤ t.dsize) (hn : t.n = N) (hS : t.dnum * t.dsize ≤ t.size) (hrank : t.rank ≤ sk.length)
+    (hMt : ∀ c, c < t.rank → ∀ j q, ((t.at c).toPMat.entry j q).length = N) (hb1 : 1 ≤ t.base2k) (hb : t.base2k ≤ 62)
+    (hkeyT : ∀ c, c < t.rank → ∀ i, i < t.rank → ∀ r, r < t.dnum →
+      Gadget.val ((2 : Ks.R N) ^ t.base2k) t.size (Ks.keyPhase N sk (t.at c).toPMat i r)
+        = Ks.ι N (sk.getD c []) * Ks.ι N (sk.getD i []) * ((2 : Ks.R N) ^ t.base2k) ^ (t.size - (r + 1) * t.dsize) + ET c i r)
+    (hcov1 : rs ≤ t.size) (hcov2 : rs ≤ t.dnum * t.dsize)
+    (hIn0 : 0 ≤ Hin) (hIn : Hin + 8 ≤ 2 ^ 62) (hHp0 : 0 ≤ Hp) (hAcc : Hp + (Hin + 2 ^ key.base2k) + 8 ≤ 2 ^ (bitsOf big128 - 2))
+    (hHpT0 : 0 ≤ HpT) (hAccT : HpT + 2 ^ t.base2k + 8 ≤ 2 ^ (bitsOf big128 - 2))
+    (hrows : ∀ r x, r < rd → aCol0[r]? = some x → KsRowOk N key.rankOut key Hin Hp x)
+    (hprodT : ∀ r x y, r < rd → aCol0[r]? = some x → Ks.automorphism big128 t.base2k rs key.rankOut x key = .ok y →
+      ∀ c, c < t.rank → ∀ col ∈ expandProd N (maskOf t y) t c, ∀ l ∈ col, ∀ v ∈ l, |v| ≤ HpT)
+    (h : Ks.ggswAutomorphism big128 N t.base2k rs rd rds ab ads aCol0 key t = .ok cells) :
+    cells.length = rd * (t.rank + 1) ∧
+      ∀ r, r < rd → ∃ x y aConv, aCol0[r]? = some x ∧ Ks.automorphism big128 t.base2k rs key.rankOut x key = .ok y ∧
+        Ks.convIn x key = .ok aConv ∧ cells[r * (t.rank + 1)]? = some y.cols ∧
+        GWF N y ∧ y.base2k = t.base2k ∧ y.size = rs ∧ y.rank = t.rank ∧
+        ∃ (E1 E3 : Poly) (Q : Ks.R N), E1.length = N ∧ E3.length = N ∧
+          normInf E1 ≤ (1 + snorm (min x.rank sk.length) sk) * C02.normTol (key.base2k * convSize x key) (x.base2k * x.size) ∧
+          normInf E3 ≤ (1 + snorm (min key.rankOut (sk.map (σ gInv)).length) (sk.map (σ gInv))) *
+            C02.normTol (t.base2k * rs) (key.base2k * key.mat.size) ∧
+          normInf (σ key.p (ksErrOf N t.base2k rs x aConv key (sk.map (σ gInv)) EL E1 E3))
+            ≤ ksErrBound N t.base2k rs key.rankOut x aConv key sk (sk.map (σ gInv)) EL ∧
+          (2 : Ks.R N) ^ (x.base2k * x.size + key.base2k * key.mat.size) * Ks.ι N (valP t.base2k N (phase sk y))
+            = (2 : Ks.R N) ^ (t.base2k * rs + key.base2k * key.mat.size) * Ks.ι N (σ key.p (valP x.base2k N (phase sk x)))
+              + Ks.ι N (σ key.p (ksErrOf N t.base2k rs x aConv key (sk.map (σ gInv)) EL E1 E3))
+              + (2 : Ks.R N) ^ (x.base2k * x.size + key.base2k * key.mat.size + t.base2k * rs) * Q ∧
+          ∀ c, c < t.rank → ∃ cell, cells[r * (t.rank + 1) + (c + 1)]? = some cell ∧ cell.length = t.rank + 1 ∧
+            (∀ col ∈ cell, ColWF N rs col) ∧ (∀ col ∈ cell, ∀ l ∈ col, ∀ v ∈ l, |v| ≤ 2 ^ t.base2k - 1) ∧
+            ∃ E3c Q3c : Poly, E3c.length = N ∧ Q3c.length = N ∧
+              normInf E3c ≤ (1 + snorm (min t.rank sk.length) sk) * C02.normTol (t.base2k * rs) (t.base2k * t.size) ∧
+              (2 : Ks.R N) ^ (x.base2k * x.size + key.base2k * key.mat.size + t.base2k * t.size) *
+                  Ks.ι N (valP t.base2k N (phase sk (Ks.mkCt t.base2k N cell)))
+                = (2 : Ks.R N) ^ (t.base2k * rs + key.base2k * key.mat.size + t.base2k * t.size) *
+                    (Ks.ι N (sk.getD c []) * Ks.ι N (σ key.p (valP x.base2k N (phase sk x))))
+                  + ((2 : Ks.R N) ^ (t.base2k * t.size) *
+                        (Ks.ι N (sk.getD c []) * Ks.ι N (σ key.p (ksErrOf N t.base2k rs x aConv key (sk.map (σ gInv)) EL E1 E3)))
+                    + (2 : Ks.R N) ^ (x.base2k * x.size + key.base2k * key.mat.size + t.base2k * rs) *
+                        expandErr N sk (maskOf t y) t c ((2 : Ks.R N) ^ t.base2k) (ET c)
+                    + (2 : Ks.R N) ^ (x.base2k * x.size + key.base2k * key.mat.size) * Ks.ι N E3c)
+                  + (2 : Ks.R N) ^ (x.base2k * x.size + key.base2k * key.mat.size + t.base2k * rs + t.base2k * t.size) *
+                      (Ks.ι N (sk.getD c []) * Q + Ks.ι N Q3c) :=
+  KsDec.ggsw_automorphism_decrypts N big128 rs rd rds ab ads aCol0 key t cells sk gInv EL KL ET Hin Hp HpT hN hg hskl hinv hrout hc0 hD hMk hSk hbk1 hbk hs hEL hKL hkey hd hn hS hrank hMt hb1 hb hkeyT hcov1 hcov2 hIn0 hIn hHp0 hAcc hHpT0 hAccT hrows hprodT h
+
+/-- in-place form -/
+theorem ggsw_keyswitch_assign_decrypts (N : Nat) (big128 : Bool) (x0 : Ks.Ct) (xs : List Ks.Ct) (key : Ks.Key) (t : ToGGSWKey)
+    (cells : List (List Col)) (sIn skOut : List Poly) (EL KL : ℕ → ℕ → Poly) (ET : ℕ → ℕ → ℕ → Ks.R N) (Hin Hp HpT : Int)
+    (hN : 0 < N) (hrout : t.rank = key.rankOut) (hc0 : 0 < key.mat.colsOut)
+    (hD : 1 ≤ key.dsize) (hMk : ∀ j q, (key.mat.entry j q).length = N) (hSk : key.mat.rows * key.dsize ≤ key.mat.size)
+    (hbk1 : 1 ≤ key.base2k) (hbk : key.base2k ≤ 62) (hs : key.mat.colsIn ≤ sIn.length)
+    (hEL : ∀ i r, (EL i r).length = N) (hKL : ∀ i r, (KL i r).length = N)
+    (hkey : ∀ i, i < key.mat.colsIn → ∀ r, r < key.mat.rows →
+      Gadget.val (Ks.radix N key.base2k) key.mat.size (Ks.keyPhase N skOut key.mat i r) =
+        Ks.ι N (sIn.getD i []) * Ks.radix N key.base2k ^ (key.mat.size - (r + 1) * key.dsize) + Ks.ι N (EL i r)
+          + Ks.radix N key.base2k ^ key.mat.size * Ks.ι N (KL i r))
+    (hd : 1 ≤ t.dsize) (hn : t.n = N) (hS : t.dnum * t.dsize ≤ t.size) (hrank : t.rank ≤ skOut.length)
+    (hMt : ∀ c, c < t.rank → ∀ j q, ((t.at c).toPMat.entry j q).length = N) (hb1 : 1 ≤ t.base2k) (hb : t.base2k ≤ 62)
+    (hkeyT : ∀ c, c < t.rank → ∀ i, i < t.rank → ∀ r, r < t.dnum →
+      Gadget.val ((2 : Ks.R N) ^ t.base2k) t.size (Ks.keyPhase N skOut (t.at c).toPMat i r)
+        = Ks.ι N (skOut.getD c []) * Ks.ι N (skOut.getD i []) * ((2 : Ks.R N) ^ t.base2k) ^ (t.size - (r + 1) * t.dsize) + ET c i r)
+    (hcov1 : x0.size ≤ t.size) (hcov2 : x0.size ≤ t.dnum * t.dsize)
+    (hIn0 : 0 ≤ Hin) (hIn : Hin + 8 ≤ 2 ^ 62) (hHp0 : 0 ≤ Hp) (hAcc : Hp + (Hin + 2 ^ key.base2k) + 8 ≤ 2 ^ (bitsOf big128 - 2))
+    (hHpT0 : 0 ≤ HpT) (hAccT : HpT + 2 ^ t.base2k + 8 ≤ 2 ^ (bitsOf big128 - 2))
+    (hrows : ∀ (r : Nat) (x : Ks.Ct), (x0 :: xs)[r]? = some x →
+      KsRowOk N x.rank key Hin Hp x ∧ x.rank = key.rankOut ∧ x.base2k = t.base2k ∧ x.size = x0.size)
+    (hprodT : ∀ (r : Nat) (x y : Ks.Ct), (x0 :: xs)[r]? = some x → Ks.keyswitch big128 x.base2k x.size x.rank x key = .ok y →
+      ∀ c, c < t.rank → ∀ col ∈ expandProd N (maskOf t y) t c, ∀ l ∈ col, ∀ v ∈ l, |v| ≤ HpT)
+    (h : Ks.ggswKeyswitchAssign big128 N (x0 :: xs) key t = .ok cells) :
+    cells.length = (x0 :: xs).length * (t.rank + 1) ∧
+      ∀ (r : Nat) (x : Ks.Ct), (x0 :: xs)[r]? = some x → ∃ y aConv, Ks.keyswitch big128 x.base2k x.size x.rank x key = .ok y ∧
+        Ks.convIn x key = .ok aConv ∧ cells[r * (t.rank + 1)]? = some y.cols ∧
+        GWF N y ∧ y.base2k = t.base2k ∧ y.size = x0.size ∧ y.rank = t.rank ∧
+        ∃ (E1 E3 : Poly) (Q : Ks.R N), E1.length = N ∧ E3.length = N ∧
+          normInf (ksErrOf N x.base2k x.size x aConv key skOut EL E1 E3) ≤ ksErrBound N x.base2k x.size x.rank x aConv key sIn skOut EL ∧
+          (2 : Ks.R N) ^ (t.base2k * x0.size + key.base2k * key.mat.size) * Ks.ι N (valP t.base2k N (phase skOut y))
+            = (2 : Ks.R N) ^ (t.base2k * x0.size + key.base2k * key.mat.size) * Ks.ι N (valP t.base2k N (phase sIn x))
+              + Ks.ι N (ksErrOf N x.base2k x.size x aConv key skOut EL E1 E3)
+              + (2 : Ks.R N) ^ (t.base2k * x0.size + key.base2k * key.mat.size + t.base2k * x0.size) * Q ∧
+          ∀ c, c < t.rank → ∃ cell, cells[r * (t.rank + 1) + (c + 1)]? = some cell ∧ cell.length = t.rank + 1 ∧
+            (∀ col ∈ cell, ColWF N x0.size col) ∧ (∀ col ∈ cell, ∀ l ∈ col, ∀ v ∈ l, |v| ≤ 2 ^ t.base2k - 1) ∧
+            ∃ E3c Q3c : Poly, E3c.length = N ∧ Q3c.length = N ∧
+              normInf E3c ≤ (1 + snorm (min t.rank skOut.length) skOut) * C02.normTol (t.base2k * x0.size) (t.base2k * t.size) ∧
+              (2 : Ks.R N) ^ (t.base2k * x0.size + key.base2k * key.mat.size + t.base2k * t.size) *
+                  Ks.ι N (valP t.base2k N (phase skOut (Ks.mkCt t.base2k N cell)))
+                = (2 : Ks.R N) ^ (t.base2k * x0.size + key.base2k * key.mat.size + t.base2k * t.size) *
+                    (Ks.ι N (skOut.getD c []) * Ks.ι N (valP t.base2k N (phase sIn x)))
+                  + ((2 : Ks.R N) ^ (t.base2k * t.size) *
+                        (Ks.ι N (skOut.getD c []) * Ks.ι N (ksErrOf N x.base2k x.size x aConv key skOut EL E1 E3))
+                    + (2 : Ks.R N) ^ (t.base2k * x0.size + key.base2k * key.mat.size + t.base2k * x0.size) *
+                        expandErr N skOut (maskOf t y) t c ((2 : Ks.R N) ^ t.base2k) (ET c)
+                    + (2 : Ks.R N) ^ (t.base2k * x0.size + key.base2k * key.mat.size) * Ks.ι N E3c)
+                  + (2 : Ks.R N) ^ (t.base2k * x0.size + key.base2k * key.mat.size + t.base2k * x0.size + t.base2k * t.size) *
+                      (Ks.ι N (skOut.getD c []) * Q + Ks.ι N Q3c) :=
+  KsDec.ggsw_keyswitch_assign_decrypts N big128 x0 xs key t cells sIn skOut EL KL ET Hin Hp HpT hN hrout hc0 hD hMk hSk hbk1 hbk hs hEL hKL hkey hd hn hS hrank hMt hb1 hb hkeyT hcov1 hcov2 hIn0 hIn hHp0 hAcc hHpT0 hAccT hrows hprodT h
+
+/-- **GGSW → key switch → GGSW**: if the operand's column-0 cells encrypt `m·2^{−(r+1)·dsize·b}` then every cell `(r,c)` of the result encrypts `m·σ_c·2^{−(r+1)·dsize·b}` + noise — the well-formedness statement that C04's external product takes as input -/
+theorem ggsw_keyswitch_wellformed (N : Nat) (big128 : Bool) (rs rd rds ab ads : Nat) (aCol0 : List Ks.Ct) (key : Ks.Key) (t : ToGGSWKey)
+    (cells : List (List Col)) (sIn skOut : List Poly) (EL KL : ℕ → ℕ → Poly) (ET : ℕ → ℕ → ℕ → Ks.R N) (Hin Hp HpT : Int)
+    (m : Ks.R N) (eIn : ℕ → Ks.R N)
+    (hN : 0 < N) (hrout : t.rank = key.rankOut) (hc0 : 0 < key.mat.colsOut)
+    (hD : 1 ≤ key.dsize) (hMk : ∀ j q, (key.mat.entry j q).length = N) (hSk : key.mat.rows * key.dsize ≤ key.mat.size)
+    (hbk1 : 1 ≤ key.base2k) (hbk : key.base2k ≤ 62) (hs : key.mat.colsIn ≤ sIn.length)
+    (hEL : ∀ i r, (EL i r).length = N) (hKL : ∀ i r, (KL i r).length = N)
+    (hkey : ∀ i, i < key.mat.colsIn → ∀ r, r < key.mat.rows →
+      Gadget.val (Ks.radix N key.base2k) key.mat.size (Ks.keyPhase N skOut key.mat i r) =
+        Ks.ι N (sIn.getD i []) * Ks.radix N key.base2k ^ (key.mat.size - (r + 1) * key.dsize) + Ks.ι N (EL i r)
+          + Ks.radix N key.base2k ^ key.mat.size * Ks.ι N (KL i r))
+    (hd : 1 ≤ t.dsize) (hn : t.n = N) (hS : t.dnum * t.dsize ≤ t.size) (hrank : t.rank ≤ skOut.length)
+    (hMt : ∀ c, c < t.rank → ∀ j q, ((t.at c).toPMat.entry j q).length = N) (hb1 : 1 ≤ t.base2k) (hb : t.base2k ≤ 62)
+    (hkeyT : ∀ c, c < t.rank → ∀ i, i < t.rank → ∀ r, r < t.dnum →
+      Gadget.val ((2 : Ks.R N) ^ t.base2k) t.size (Ks.keyPhase N skOut (t.at c).toPMat i r)
+        = Ks.ι N (skOut.getD c []) * Ks.ι N (skOut.getD i []) * ((2 : Ks.R N) ^ t.base2k) ^ (t.size - (r + 1) * t.dsize) + ET c i r)
+    (hcov1 : rs ≤ t.size) (hcov2 : rs ≤ t.dnum * t.dsize)
+    (hIn0 : 0 ≤ Hin) (hIn : Hin + 8 ≤ 2 ^ 62) (hHp0 : 0 ≤ Hp) (hAcc : Hp + (Hin + 2 ^ key.base2k) + 8 ≤ 2 ^ (bitsOf big128 - 2))
+    (hHpT0 : 0 ≤ HpT) (hAccT : HpT + 2 ^ t.base2k + 8 ≤ 2 ^ (bitsOf big128 - 2))
+    (hrows : ∀ r x, r < rd → aCol0[r]? = some x → KsRowOk N key.rankOut key Hin Hp x)
+    (hprodT : ∀ r x y, r < rd → aCol0[r]? = some x → Ks.keyswitch big128 t.base2k rs key.rankOut x key = .ok y →
+      ∀ c, c < t.rank → ∀ col ∈ expandProd N (maskOf t y) t c, ∀ l ∈ col, ∀ v ∈ l, |v| ≤ HpT)
+    (hop : ∀ r x, r < rd → aCol0[r]? = some x → x.base2k = t.base2k ∧ (r + 1) * ads ≤ x.size ∧
+      Ks.ι N (valP t.base2k N (phase sIn x)) = m * ((2 : Ks.R N) ^ t.base2k) ^ (x.size - (r + 1) * ads) + eIn r)
+    (hdsr : rd * ads ≤ rs)
+    (h : Ks.ggswKeyswitch big128 N t.base2k rs rd rds ab ads aCol0 key t = .ok cells) :
+    cells.length = rd * (t.rank + 1) ∧
+      ∀ r, r < rd → ∃ x y aConv, aCol0[r]? = some x ∧ Ks.keyswitch big128 t.base2k rs key.rankOut x key = .ok y ∧
+        Ks.convIn x key = .ok aConv ∧ cells[r * (t.rank + 1)]? = some y.cols ∧ GWF N y ∧ y.size = rs ∧ y.rank = t.rank ∧
+        ∃ (E1 E3 : Poly) (Q : Ks.R N),
+          normInf (ksErrOf N t.base2k rs x aConv key skOut EL E1 E3) ≤ ksErrBound N t.base2k rs key.rankOut x aConv key sIn skOut EL ∧
+          (2 : Ks.R N) ^ (t.base2k * x.size + key.base2k * key.mat.size) * Ks.ι N (valP t.base2k N (phase skOut y))
+            = (2 : Ks.R N) ^ (t.base2k * x.size + key.base2k * key.mat.size) *
+                (m * 1 * ((2 : Ks.R N) ^ t.base2k) ^ (rs - (r + 1) * ads))
+              + ((2 : Ks.R N) ^ (t.base2k * rs + key.base2k * key.mat.size) * eIn r
+                  + Ks.ι N (ksErrOf N t.base2k rs x aConv key skOut EL E1 E3))
+              + (2 : Ks.R N) ^ (t.base2k * x.size + key.base2k * key.mat.size) * (((2 : Ks.R N) ^ t.base2k) ^ rs * Q) ∧
+          ∀ c, c < t.rank → ∃ cell, cells[r * (t.rank + 1) + (c + 1)]? = some cell ∧ cell.length = t.rank + 1 ∧
+            (∀ col ∈ cell, ColWF N rs col) ∧ (∀ col ∈ cell, ∀ l ∈ col, ∀ v ∈ l, |v| ≤ 2 ^ t.base2k - 1) ∧
+            ∃ E3c Q3c : Poly, E3c.length = N ∧ Q3c.length = N ∧
+              normInf E3c ≤ (1 + snorm (min t.rank skOut.length) skOut) * C02.normTol (t.base2k * rs) (t.base2k * t.size) ∧
+              (2 : Ks.R N) ^ (t.base2k * x.size + key.base2k * key.mat.size + t.base2k * t.size) *
+                  Ks.ι N (valP t.base2k N (phase skOut (Ks.mkCt t.base2k N cell)))
+                = (2 : Ks.R N) ^ (t.base2k * x.size + key.base2k * key.mat.size + t.base2k * t.size) *
+                    (m * Ks.ι N (skOut.getD c []) * ((2 : Ks.R N) ^ t.base2k) ^ (rs - (r + 1) * ads))
+                  + ((2 : Ks.R N) ^ (t.base2k * rs + key.base2k * key.mat.size + t.base2k * t.size) * (Ks.ι N (skOut.getD c []) * eIn r)
+                    + ((2 : Ks.R N) ^ (t.base2k * t.size) * (Ks.ι N (skOut.getD c []) * Ks.ι N (ksErrOf N t.base2k rs x aConv key skOut EL E1 E3))
+                      + (2 : Ks.R N) ^ (t.base2k * x.size + key.base2k * key.mat.size + t.base2k * rs) *
+                          expandErr N skOut (maskOf t y) t c ((2 : Ks.R N) ^ t.base2k) (ET c)
+                      + (2 : Ks.R N) ^ (t.base2k * x.size + key.base2k * key.mat.size) * Ks.ι N E3c))
+                  + (2 : Ks.R N) ^ (t.base2k * x.size + key.base2k * key.mat.size + t.base2k * t.size) *
+                      (((2 : Ks.R N) ^ t.base2k) ^ rs * (Ks.ι N (skOut.getD c []) * Q + Ks.ι N Q3c)) :=
+  KsDec.ggsw_keyswitch_wellformed N big128 rs rd rds ab ads aCol0 key t cells sIn skOut EL KL ET Hin Hp HpT m eIn hN hrout hc0 hD hMk hSk hbk1 hbk hs hEL hKL hkey hd hn hS hrank hMt hb1 hb hkeyT hcov1 hcov2 hIn0 hIn hHp0 hAcc hHpT0 hAccT hrows hprodT hop hdsr h
+
+/-- same with `σ_p(m)` -/
+theorem ggsw_automorphism_wellformed (N : Nat) (big128 : Bool) (rs rd rds ab ads : Nat) (aCol0 : List Ks.Ct) (key : Ks.Key) (t : ToGGSWKey)
+    (cells : List (List Col)) (sk : List Poly) (gInv : Int) (EL KL : ℕ → ℕ → Poly) (ET : ℕ → ℕ → ℕ → Ks.R N) (Hin Hp HpT : Int)
+    (m : Ks.R N) (eIn : ℕ → Ks.R N)
+    (hN : 0 < N) (hg : GalOk key.p N) (hskl : Ks.AllLen N sk) (hinv : ∀ s ∈ sk, σ key.p (σ gInv s) = s)
+    (hrout : t.rank = key.rankOut) (hc0 : 0 < key.mat.colsOut)
+    (hD : 1 ≤ key.dsize) (hMk : ∀ j q, (key.mat.entry j q).length = N) (hSk : key.mat.rows * key.dsize ≤ key.mat.size)
+    (hbk1 : 1 ≤ key.base2k) (hbk : key.base2k ≤ 62) (hs : key.mat.colsIn ≤ sk.length)
+    (hEL : ∀ i r, (EL i r).length = N) (hKL : ∀ i r, (KL i r).length = N)
+    (hkey : ∀ i, i < key.mat.colsIn → ∀ r, r < key.mat.rows →
+      Gadget.val (Ks.radix N key.base2k) key.mat.size (Ks.keyPhase N (sk.map (σ gInv)) key.mat i r) =
+        Ks.ι N (sk.getD i []) * Ks.radix N key.base2k ^ (key.mat.size - (r + 1) * key.dsize) + Ks.ι N (EL i r)
+          + Ks.radix N key.base2k ^ key.mat.size * Ks.ι N (KL i r))
+    (hd : 1 ≤ t.dsize) (hn : t.n = N) (hS : t.dnum * t.dsize ≤ t.size) (hrank : t.rank ≤ sk.length)
+    (hMt : ∀ c, c < t.rank → ∀ j q, ((t.at c).toPMat.entry j q).length = N) (hb1 : 1 ≤ t.base2k) (hb : t.base2k ≤ 62)
+    (hkeyT : ∀ c, c < t.rank → ∀ i, i < t.rank → ∀ r, r < t.dnum →
+      Gadget.val ((2 : Ks.R N) ^ t.base2k) t.size (Ks.keyPhase N sk (t.at c).toPMat i r)
+        = Ks.ι N (sk.getD c []) * Ks.ι N (sk.getD i []) * ((2 : Ks.R N) ^ t.base2k) ^ (t.size - (r + 1) * t.dsize) + ET c i r)
+    (hcov1 : rs ≤ t.size) (hcov2 : rs ≤ t.dnum * t.dsize)
+    (hIn0 : 0 ≤ Hin) (hIn : Hin + 8 ≤ 2 ^ 62) (hHp0 : 0 ≤ Hp) (hAcc : Hp + (Hin + 2 ^ key.base2k) + 8 ≤ 2 ^ (bitsOf big128 - 2))
+    (hHpT0 : 0 ≤ HpT) (hAccT : HpT + 2 ^ t.base2k + 8 ≤ 2 ^ (bitsOf big128 - 2))
+    (hrows : ∀ r x, r < rd → aCol0[r]? = some x → KsRowOk N key.rankOut key Hin Hp x)
+    (hprodT : ∀ r x y, r < rd → aCol0[r]? = some x → Ks.automorphism big128 t.base2k rs key.rankOut x key = .ok y →
+      ∀ c, c < t.rank → ∀ col ∈ expandProd N (maskOf t y) t c, ∀ l ∈ col, ∀ v ∈ l, |v| ≤ HpT)
+    (hop : ∀ r x, r < rd → aCol0[r]? = some x → x.base2k = t.base2k ∧ (r + 1) * ads ≤ x.size ∧
+      Ks.ι N (valP t.base2k N (phase sk x)) = m * ((2 : Ks.R N) ^ t.base2k) ^ (x.size - (r + 1) * ads) + eIn r)
+    (hdsr : rd * ads ≤ rs)
+    (h : Ks.ggswAutomorphism big128 N t.base2k rs rd rds ab ads aCol0 key t = .ok cells) :
+    cells.length = rd * (t.rank + 1) ∧
+      ∀ r, r < rd → ∃ x y aConv, aCol0[r]? = some x ∧ Ks.automorphism big128 t.base2k rs key.rankOut x key = .ok y ∧
+        Ks.convIn x key = .ok aConv ∧ cells[r * (t.rank + 1)]? = some y.cols ∧ GWF N y ∧ y.size = rs ∧ y.rank = t.rank ∧
+        ∃ (E1 E3 : Poly) (Q : Ks.R N),
+          normInf (σ key.p (ksErrOf N t.base2k rs x aConv key (sk.map (σ gInv)) EL E1 E3))
+            ≤ ksErrBound N t.base2k rs key.rankOut x aConv key sk (sk.map (σ gInv)) EL ∧
+          (2 : Ks.R N) ^ (t.base2k * x.size + key.base2k * key.mat.size) * Ks.ι N (valP t.base2k N (phase sk y))
+            = (2 : Ks.R N) ^ (t.base2k * x.size + key.base2k * key.mat.size) *
+                (gal N key.p hN hg m * 1 * ((2 : Ks.R N) ^ t.base2k) ^ (rs - (r + 1) * ads))
+              + ((2 : Ks.R N) ^ (t.base2k * rs + key.base2k * key.mat.size) * gal N key.p hN hg (eIn r)
+                  + Ks.ι N (σ key.p (ksErrOf N t.base2k rs x aConv key (sk.map (σ gInv)) EL E1 E3)))
+              + (2 : Ks.R N) ^ (t.base2k * x.size + key.base2k * key.mat.size) * (((2 : Ks.R N) ^ t.base2k) ^ rs * Q) ∧
+          ∀ c, c < t.rank → ∃ cell, cells[r * (t.rank + 1) + (c + 1)]? = some cell ∧ cell.length = t.rank + 1 ∧
+            (∀ col ∈ cell, ColWF N rs col) ∧ (∀ col ∈ cell, ∀ l ∈ col, ∀ v ∈ l, |v| ≤ 2 ^ t.base2k - 1) ∧
+            ∃ E3c Q3c : Poly, E3c.length = N ∧ Q3c.length = N ∧
+              normInf E3c ≤ (1 + snorm (min t.rank sk.length) sk) * C02.normTol (t.base2k * rs) (t.base2k * t.size) ∧
+              (2 : Ks.R N) ^ (t.base2k * x.size + key.base2k * key.mat.size + t.base2k * t.size) *
+                  Ks.ι N (valP t.base2k N (phase sk (Ks.mkCt t.base2k N cell)))
+                = (2 : Ks.R N) ^ (t.base2k * x.size + key.base2k * key.mat.size + t.base2k * t.size) *
+                    (gal N key.p hN hg m * Ks.ι N (sk.getD c []) * ((2 : Ks.R N) ^ t.base2k) ^ (rs - (r + 1) * ads))
+                  + ((2 : Ks.R N) ^ (t.base2k * rs + key.base2k * key.mat.size + t.base2k * t.size) *
+                        (Ks.ι N (sk.getD c []) * gal N key.p hN hg (eIn r))
+                    + ((2 : Ks.R N) ^ (t.base2k * t.size) *
+                          (Ks.ι N (sk.getD c []) * Ks.ι N (σ key.p (ksErrOf N t.base2k rs x aConv key (sk.map (σ gInv)) EL E1 E3)))
+                      + (2 : Ks.R N) ^ (t.base2k * x.size + key.base2k * key.mat.size + t.base2k * rs) *
+                          expandErr N sk (maskOf t y) t c ((2 : Ks.R N) ^ t.base2k) (ET c)
+                      + (2 : Ks.R N) ^ (t.base2k * x.size + key.base2k * key.mat.size) * Ks.ι N E3c))
+                  + (2 : Ks.R N) ^ (t.base2k * x.size + key.base2k * key.mat.size + t.base2k * t.size) *
+                      (((2 : Ks.R N) ^ t.base2k) ^ rs * (Ks.ι N (sk.getD c []) * Q + Ks.ι N Q3c)) :=
+  KsDec.ggsw_automorphism_wellformed N big128 rs rd rds ab ads aCol0 key t cells sk gInv EL KL ET Hin Hp HpT m eIn hN hg hskl hinv hrout hc0 hD hMk hSk hbk1 hbk hs hEL hKL hkey hd hn hS hrank hMt hb1 hb hkeyT hcov1 hcov2 hIn0 hIn hHp0 hAcc hHpT0 hAccT hrows hprodT hop hdsr h
+
+/-- the link to C04: `Gadget.val (keyPhase …)` of a prepared matrix is the phase value of the corresponding cell -/
+theorem key_phase_is_cell_phase (N : Nat) (hN : 0 < N) (b S : Nat) (sk : List Poly) (m : PMat) (i r : Nat) (hn : m.n = N)
+    (hc : 0 < m.colsOut) (hlen : (m.data.getD (r * m.colsIn + i) []).length = m.colsOut)
+    (hwf : ∀ c ∈ m.data.getD (r * m.colsIn + i) [], ColWF N S c) :
+    Gadget.val ((2 : Ks.R N) ^ b) S (Ks.keyPhase N sk m i r)
+      = Ks.ι N (valP b N (phase sk (Ks.mkCt b N (m.data.getD (r * m.colsIn + i) [])))) :=
+  KsDec.keyPhase_val_eq_cell_phase N hN b S sk m i r hn hc hlen hwf
+
+/-- the executed `ggsw_keyswitch` of a one-row GGSW on both accumulator widths (the closed instance of `ggsw_keyswitch_wellformed` with
+every hypothesis discharged is in Lemmas/GgswDecrypt.lean) -/
+example (big128 : Bool) : Ks.ggswKeyswitch big128 1 Ks.exT'.base2k 2 1 1 4 1 [KsDec.exGX] KsDec.exGKs Ks.exT'
+    = .ok [[[[3], [0]], [[1], [0]]], [[[0], [0]], [[4], [0]]]] := by
+  cases big128 <;> decide +kernel
+end GgswDecryptSec
+
+section NoisyPackSec
+open Hal Core Ks Pack
+variable {M : Type*} [AddCommGroup M]
+
+/-- **one executed merge with noise** (three branches): `Pack.merge` of the operand phases up to `mergeBound B i` = max over the branches of (2 `rsh` units + 2 normalisations + automorphism noise) -/
+theorem merge_step_noisy (c : Pack.Contract M) (ν : M → ℚ) (hν : SizeFn' c ν) (ph : Ct → M) (N : Nat)
+    (big128 : Bool) (keyOf : Nat → Key) (B : NoiseB) (H : NoisyOps c ν ph N big128 keyOf B) (i : Nat)
+    (ht : c.t i = ((2 ^ (log2Nat N - i - 1) : Nat) : Int))
+    (a b : Option Ct) (sh r : Ct) (h : mergeStep big128 N i (keyOf i) a b sh = .ok (some r)) :
+    ∃ e, ph r = Pack.merge c i (optPh ph a) (optPh ph b) + e ∧ ν e ≤ mergeBound B i :=
+  Ks.mergeStep_noisy c ν hν ph N big128 keyOf B H i ht a b sh r h
+
+/-- **the executed level loop with noise**, by induction: `Pack.after` + error `≤ levelErr B L`, `levelErr (L+1) = 2·levelErr L + mergeBound L` (= `Σ_{i<L} 2^{L−1−i}·mergeBound i`) -/
+theorem pack_levels_noisy (c : Pack.Contract M) (ν : M → ℚ) (hν : SizeFn' c ν) (ph : Ct → M) (N : Nat)
+    (big128 : Bool) (keyOf : Nat → Key) (B : NoiseB) (H : NoisyOps c ν ph N big128 keyOf B)
+    (keys : List Key) (K : Nat) (hK : log2Nat N = K) (L : Nat) (hL : L ≤ K)
+    (ht : ∀ i, i < L → c.t i = ((2 ^ (K - i - 1) : Nat) : Int))
+    (hkey : ∀ i, i < L → levelKey N keys i = .ok (keyOf i))
+    (m m' : SlotMap) (hm : ∀ j, 2 ^ K ≤ j → m.get j = none)
+    (h : packLevels big128 N keys (List.range L) m = .ok m') :
+    (∀ j, j < 2 ^ (K - L) → ∃ err, phMap ph m' j = Pack.after c (fun i => 2 ^ (K - 1 - i)) (phMap ph m) L j + err ∧
+      ν err ≤ levelErr B L) ∧
+    (∀ j, 2 ^ (K - L) ≤ j → m'.get j = none) :=
+  Ks.packLevels_noisy c ν hν ph N big128 keyOf B H keys K hK L hL ht hkey m m' hm h
+
+/-- the executed `glwe_trace` wrapper with noise -/
+theorem trace_noisy (c : Pack.Contract M) (ν : M → ℚ) (hν : SizeFn c ν) (ph phK phOut : Ct → M) (big128 : Bool)
+    (keys : List Key) (keyBase2k skip rb rs K : Nat) (Br : ℚ) (Ba : Nat → ℚ) (Bin Bout : ℚ)
+    (hrsh : ∀ x y, glweRsh 1 x = .ok y → ∃ e, phK y = c.half (phK x) + e ∧ ν e ≤ Br)
+    (hauto : ∀ i x key p y, traceGalois x.n i = .ok p → keys.find? (fun k => k.p == p) = some key →
+      automorphismFused .add big128 (zeroBuf x.n (x.rank + 1) key.size) x.base2k x.size x.rank x key = .ok y →
+      (y.n = x.n ∧ ∃ e, phK y = phK x + c.sig i (phK x) + e ∧ ν e ≤ Ba i))
+    (hn : ∀ x y, glweRsh 1 x = .ok y → y.n = x.n)
+    (hinC : ∀ b s x, ∃ e, phK (glweCopy b s x) = ph x + e ∧ ν e ≤ Bin)
+    (hinN : ∀ b s x y, glweNormalize b s x = .ok y → ∃ e, phK y = ph x + e ∧ ν e ≤ Bin)
+    (houtC : ∀ b s x, ∃ e, phOut (glweCopy b s x) = phK x + e ∧ ν e ≤ Bout)
+    (houtN : ∀ b s x y, glweNormalize b s x = .ok y → ∃ e, phOut y = phK x + e ∧ ν e ≤ Bout)
+    (x r : Ct) (hxn : log2Nat x.n = K) (h : trace big128 keyBase2k keys skip rb rs x = .ok r) :
+    ∃ err, phOut r = traceAbs c (List.range' skip (K - skip)) (ph x) + err ∧
+      ν err ≤ Bin + traceErrBound Br Ba (List.range' skip (K - skip)) + Bout :=
+  Ks.trace_noisy c ν hν ph phK phOut big128 keys keyBase2k skip rb rs K Br Ba Bin Bout hrsh hauto hn hinC hinN houtC houtN x r hxn h
+
+/-- the executed `glwe_pack` with noise: trace of the level tree + `levelErr + traceErrBound` -/
+theorem pack_executed_noisy (c : Pack.Contract M) (ν : M → ℚ) (hν : SizeFn' c ν) (ph phOut : Ct → M) (N : Nat)
+    (big128 : Bool) (keyOf : Nat → Key) (B : NoiseB) (H : NoisyOps c ν ph N big128 keyOf B)
+    (keyBase2k : Nat) (keys : List Key) (rb rs : Nat) (K : Nat)
+    (hK : log2Nat N = K) (hN : N = 2 ^ K) (logGapOut : Nat)
+    (ht : ∀ i, i < K - logGapOut → c.t i = ((2 ^ (K - i - 1) : Nat) : Int))
+    (hkey : ∀ i, i < K - logGapOut → levelKey N keys i = .ok (keyOf i))
+    (Bt : ℚ)
+    (htrace : ∀ x r, trace big128 keyBase2k keys (K - logGapOut) rb rs x = .ok r →
+      ∃ e, phOut r = traceAbs c (List.range' (K - logGapOut) (K - (K - logGapOut))) (ph x) + e ∧ ν e ≤ Bt)
+    (a : SlotMap) (res : Ct) (h : pack big128 N keyBase2k keys rb rs a logGapOut = .ok res) :
+    ∃ err, phOut res = traceAbs c (List.range' (K - logGapOut) (K - (K - logGapOut)))
+        (Pack.after c (fun i => 2 ^ (K - 1 - i)) (phMap ph a) (K - logGapOut) 0) + err ∧
+      ν err ≤ levelErr B (K - logGapOut) + Bt :=
+  Ks.pack_executed_noisy c ν hν ph phOut N big128 keyOf B H keyBase2k keys rb rs K hK hN logGapOut ht hkey Bt htrace a res h
+
+/-- **`pack_executed_value_noise`** — for EVERY subset of slots the executed `glwe_pack` result has phase `Σ_{m∈S} X^{J_m}·u_{J_m} + err`, `ν err ≤ levelErr B L + traceErrBound (levels L…K−1)` -/
+theorem pack_executed_value_noise (c : Pack.Contract M) (ν : M → ℚ) (hν : SizeFn' c ν) (ph phOut : Ct → M) (N : Nat)
+    (big128 : Bool) (keyOf : Nat → Key) (B : NoiseB) (H : NoisyOps c ν ph N big128 keyOf B)
+    (keyBase2k : Nat) (keys : List Key) (rb rs : Nat) (K : Nat)
+    (hK : log2Nat N = K) (hN : N = 2 ^ K) (logGapOut : Nat)
+    (ht : ∀ i, i < K - logGapOut → c.t i = ((2 ^ (K - i - 1) : Nat) : Int))
+    (hkey : ∀ i, i < K - logGapOut → levelKey N keys i = .ok (keyOf i))
+    (Bt : ℚ)
+    (htrace : ∀ x r, trace big128 keyBase2k keys (K - logGapOut) rb rs x = .ok r →
+      ∃ e, phOut r = traceAbs c (List.range' (K - logGapOut) (K - (K - logGapOut))) (ph x) + e ∧ ν e ≤ Bt)
+    (a : SlotMap) (res : Ct) (h : pack big128 N keyBase2k keys rb rs a logGapOut = .ok res)
+    (u w : Nat → M) (hf : ∀ J, phMap ph a J = u J + w J)
+    (hu : ∀ J i, i < K → c.sig i (u J) = u J)
+    (hw : ∀ J, traceAbs c (List.range K) (w J) = 0)
+    (S : Finset Nat) (hS : S ⊆ Finset.range (2 ^ (K - logGapOut)))
+    (habs : ∀ m ∈ Finset.range (2 ^ (K - logGapOut)), m ∉ S →
+      u (Pack.idxOff (fun i => 2 ^ (K - 1 - i)) (K - logGapOut) m) = 0) :
+    ∃ err, phOut res = (∑ m ∈ S, c.rot (Pack.idxOff (fun i => 2 ^ (K - 1 - i)) (K - logGapOut) m : ℤ)
+        (u (Pack.idxOff (fun i => 2 ^ (K - 1 - i)) (K - logGapOut) m))) + err ∧
+      ν err ≤ levelErr B (K - logGapOut) + Bt :=
+  Ks.pack_executed_value_noise c ν hν ph phOut N big128 keyOf B H keyBase2k keys rb rs K hK hN logGapOut ht hkey Bt htrace a res h u w hf hu hw S hS habs
+
+/-- same through the `glwe_trace` wrapper with its own conversion bounds -/
+theorem pack_executed_value_noise_trace (c : Pack.Contract M) (ν : M → ℚ) (hν : SizeFn' c ν) (ph phK phOut : Ct → M) (N : Nat)
+    (big128 : Bool) (keyOf : Nat → Key) (B : NoiseB) (H : NoisyOps c ν ph N big128 keyOf B)
+    (keyBase2k : Nat) (keys : List Key) (rb rs : Nat) (K : Nat)
+    (hK : log2Nat N = K) (hN : N = 2 ^ K) (logGapOut : Nat)
+    (ht : ∀ i, i < K - logGapOut → c.t i = ((2 ^ (K - i - 1) : Nat) : Int))
+    (hkey : ∀ i, i < K - logGapOut → levelKey N keys i = .ok (keyOf i))
+    (Br : ℚ) (Ba : Nat → ℚ) (Bin Bout : ℚ)
+    (hrsh : ∀ x y, glweRsh 1 x = .ok y → ∃ e, phK y = c.half (phK x) + e ∧ ν e ≤ Br)
+    (hauto : ∀ i x key p y, traceGalois x.n i = .ok p → keys.find? (fun k => k.p == p) = some key →
+      automorphismFused .add big128 (zeroBuf x.n (x.rank + 1) key.size) x.base2k x.size x.rank x key = .ok y →
+      (y.n = x.n ∧ ∃ e, phK y = phK x + c.sig i (phK x) + e ∧ ν e ≤ Ba i))
+    (hn : ∀ x y, glweRsh 1 x = .ok y → y.n = x.n)
+    (hinC : ∀ b s x, ∃ e, phK (glweCopy b s x) = ph x + e ∧ ν e ≤ Bin)
+    (hinN : ∀ b s x y, glweNormalize b s x = .ok y → ∃ e, phK y = ph x + e ∧ ν e ≤ Bin)
+    (houtC : ∀ b s x, ∃ e, phOut (glweCopy b s x) = phK x + e ∧ ν e ≤ Bout)
+    (houtN : ∀ b s x y, glweNormalize b s x = .ok y → ∃ e, phOut y = phK x + e ∧ ν e ≤ Bout)
+    (a : SlotMap)
+    (hshape : ∀ m x, packLevels big128 N keys (List.range (K - logGapOut)) a = .ok m → m.get 0 = some x →
+      log2Nat x.n = K)
+    (res : Ct) (h : pack big128 N keyBase2k keys rb rs a logGapOut = .ok res)
+    (u w : Nat → M) (hf : ∀ J, phMap ph a J = u J + w J)
+    (hu : ∀ J i, i < K → c.sig i (u J) = u J)
+    (hw : ∀ J, traceAbs c (List.range K) (w J) = 0)
+    (S : Finset Nat) (hS : S ⊆ Finset.range (2 ^ (K - logGapOut)))
+    (habs : ∀ m ∈ Finset.range (2 ^ (K - logGapOut)), m ∉ S →
+      u (Pack.idxOff (fun i => 2 ^ (K - 1 - i)) (K - logGapOut) m) = 0) :
+    ∃ err, phOut res = (∑ m ∈ S, c.rot (Pack.idxOff (fun i => 2 ^ (K - 1 - i)) (K - logGapOut) m : ℤ)
+        (u (Pack.idxOff (fun i => 2 ^ (K - 1 - i)) (K - logGapOut) m))) + err ∧
+      ν err ≤ levelErr B (K - logGapOut) +
+        (Bin + traceErrBound Br Ba (List.range' (K - logGapOut) (K - (K - logGapOut))) + Bout) :=
+  Ks.pack_executed_value_noise' c ν hν ph phK phOut N big128 keyOf B H keyBase2k keys rb rs K hK hN logGapOut ht hkey Br Ba Bin Bout hrsh hauto hn hinC hinN houtC houtN a hshape res h u w hf hu hw S hS habs
+
+/-- **the empty flush**: when every arrival is absent the packer returns the freshly allocated zero accumulator -/
+theorem packer_run_absent (big128 : Bool) (N : Nat) (keys : List Key) (accBase2k accSize rank lb : Nat)
+    (inputs : Nat → Option Ct) (res r : Ct) (hnone : ∀ k, k < N / 2 ^ lb → inputs k = none)
+    (h : packerRun big128 N keys accBase2k accSize rank lb inputs res = .ok r) :
+    Core.Ops.glweCopy N res (allocCt N accBase2k accSize rank) = .ok r ∨
+      Core.Ops.glweNormalize N res (allocCt N accBase2k accSize rank) = .ok r :=
+  Ks.packerRun_absent big128 N keys accBase2k accSize rank lb inputs res r hnone h
+
+/-- `packerRun_phase` WITHOUT the 'at least one arrival' hypothesis (contract field `ph 0-ciphertext = 0`) -/
+theorem packer_run_phase_total (c : Pack.Contract M) (ph phOut : Ct → M) (N : Nat) (big128 : Bool) (keyOf : Nat → Key)
+    (H : IdealOps c ph N big128 keyOf) (keys : List Key) (K : Nat) (hK : log2Nat N = K) (hN : N = 2 ^ K) (lb m : Nat)
+    (hm : lb + m = K)
+    (ht : ∀ i, i < K → c.t i = ((2 ^ (K - i - 1) : Nat) : Int))
+    (hkey : ∀ i, i < K → levelKey N keys i = .ok (keyOf i))
+    (hcopy : ∀ r x y, Core.Ops.glweCopy N r x = .ok y → ph y = ph x)
+    (hnorm : ∀ r x y, Core.Ops.glweNormalize N r x = .ok y → ph y = ph x)
+    (hcopyOut : ∀ r x y, Core.Ops.glweCopy N r x = .ok y → phOut y = ph x)
+    (hnormOut : ∀ r x y, Core.Ops.glweNormalize N r x = .ok y → phOut y = ph x)
+    (accBase2k accSize rank : Nat) (hzero : ph (allocCt N accBase2k accSize rank) = 0)
+    (inputs : Nat → Option Ct) (res r : Ct)
+    (h : packerRun big128 N keys accBase2k accSize rank lb inputs res = .ok r) :
+    phOut r = Pack.packerVal c lb (fun k => optPh ph (inputs k)) m :=
+  Ks.packerRun_phase_total c ph phOut N big128 keyOf H keys K hK hN lb m hm ht hkey hcopy hnorm hcopyOut hnormOut accBase2k accSize rank hzero inputs res r h
+
+/-- the streaming packer with noise (binary-counter invariant with the error bound `pErr`) -/
+theorem packer_run_noisy (c : Pack.Contract M) (ν : M → ℚ) (hν : SizeFn' c ν) (ph phOut : Ct → M) (N : Nat)
+    (big128 : Bool) (keyOf : Nat → Key) (B : NoiseB) (H : NoisyOps c ν ph N big128 keyOf B)
+    (keys : List Key) (K : Nat) (hK : log2Nat N = K) (hN : N = 2 ^ K) (lb m : Nat)
+    (hm : lb + m = K)
+    (ht : ∀ i, i < K → c.t i = ((2 ^ (K - i - 1) : Nat) : Int))
+    (hkey : ∀ i, i < K → levelKey N keys i = .ok (keyOf i))
+    (Bc Bout : ℚ) (hBc : 0 ≤ Bc)
+    (hcopy : ∀ r x y, Core.Ops.glweCopy N r x = .ok y → ∃ e, ph y = ph x + e ∧ ν e ≤ Bc)
+    (hnorm : ∀ r x y, Core.Ops.glweNormalize N r x = .ok y → ∃ e, ph y = ph x + e ∧ ν e ≤ Bc)
+    (hcopyOut : ∀ r x y, Core.Ops.glweCopy N r x = .ok y → ∃ e, phOut y = ph x + e ∧ ν e ≤ Bout)
+    (hnormOut : ∀ r x y, Core.Ops.glweNormalize N r x = .ok y → ∃ e, phOut y = ph x + e ∧ ν e ≤ Bout)
+    (accBase2k accSize rank : Nat) (hzero : ph (allocCt N accBase2k accSize rank) = 0)
+    (inputs : Nat → Option Ct) (res r : Ct)
+    (h : packerRun big128 N keys accBase2k accSize rank lb inputs res = .ok r) :
+    ∃ err, phOut r = Pack.packerVal c lb (fun k => optPh ph (inputs k)) m + err ∧ ν err ≤ pErr B Bc lb m + Bout :=
+  Ks.packerRun_noisy c ν hν ph phOut N big128 keyOf B H keys K hK hN lb m hm ht hkey Bc Bout hBc hcopy hnorm hcopyOut hnormOut accBase2k accSize rank hzero inputs res r h
+
+/-- **the streaming `GLWEPacker` with noise, every subset of arrivals (the empty one included)** -/
+theorem packer_executed_value_noise (c : Pack.Contract M) (ν : M → ℚ) (hν : SizeFn' c ν) (ph phOut : Ct → M) (N : Nat)
+    (big128 : Bool) (keyOf : Nat → Key) (B : NoiseB) (H : NoisyOps c ν ph N big128 keyOf B)
+    (keys : List Key) (K : Nat) (hK : log2Nat N = K) (hN : N = 2 ^ K) (lb m : Nat)
+    (hm : lb + m = K)
+    (ht : ∀ i, i < K → c.t i = ((2 ^ (K - i - 1) : Nat) : Int))
+    (hkey : ∀ i, i < K → levelKey N keys i = .ok (keyOf i))
+    (Bc Bout : ℚ) (hBc : 0 ≤ Bc)
+    (hcopy : ∀ r x y, Core.Ops.glweCopy N r x = .ok y → ∃ e, ph y = ph x + e ∧ ν e ≤ Bc)
+    (hnorm : ∀ r x y, Core.Ops.glweNormalize N r x = .ok y → ∃ e, ph y = ph x + e ∧ ν e ≤ Bc)
+    (hcopyOut : ∀ r x y, Core.Ops.glweCopy N r x = .ok y → ∃ e, phOut y = ph x + e ∧ ν e ≤ Bout)
+    (hnormOut : ∀ r x y, Core.Ops.glweNormalize N r x = .ok y → ∃ e, phOut y = ph x + e ∧ ν e ≤ Bout)
+    (accBase2k accSize rank : Nat) (hzero : ph (allocCt N accBase2k accSize rank) = 0)
+    (inputs : Nat → Option Ct) (res r : Ct)
+    (h : packerRun big128 N keys accBase2k accSize rank lb inputs res = .ok r)
+    (u : Nat → M) (hQ : ∀ k, Pack.Q (Pack.shift c lb) m (optPh ph (inputs k)) = u k)
+    (S : Finset Nat) (hS : S ⊆ Finset.range (2 ^ m)) (habs : ∀ k ∈ Finset.range (2 ^ m), k ∉ S → u k = 0) :
+    ∃ err, phOut r = (∑ k ∈ S, c.rot (Pack.revOff c lb m k) (u k)) + err ∧ ν err ≤ pErr B Bc lb m + Bout :=
+  Ks.packer_executed_value_noise c ν hν ph phOut N big128 keyOf B H keys K hK hN lb m hm ht hkey Bc Bout hBc hcopy hnorm hcopyOut hnormOut accBase2k accSize rank hzero inputs res r h u hQ S hS habs
+
+/-- the sup-norm of `ℚ[X]/(X²+1)` is a `SizeFn'`; non-integer noise records evaluate: `rsh` error `1/2`, normalisation `1/4`,
+automorphisms `3` ⇒ one merge `≤ 9/2`, two levels `≤ 27/2` (the theorems instantiated on this instance with a non-zero noise record
+are `example`s of Lemmas/NoisyPack.lean) -/
+example : Ks.SizeFn' Pack.model Ks.supNorm := Ks.sizeFn'_model_sup
+example : Ks.levelErr ⟨1 / 2, 1 / 4, fun _ => 3, fun _ => 3, fun _ => 3⟩ 2 = 27 / 2 := by
+  norm_num [Ks.levelErr, Ks.mergeBound, Ks.bothBound, Ks.loBound, Ks.hiBound]
+end NoisyPackSec
+
+section AdmCorollariesSec
+open KsDec Hal Core Core.Ops C02L AutoMul LweIdx
+variable {M : Type*} [AddCommGroup M]
+
+/-- `glwe_automorphism_decrypts`, head-room derived (`ksAdmissible`) -/
+theorem glwe_automorphism_decrypts_adm (big128 : Bool) (N bout sout rout : Nat) (a : Ks.Ct) (key : Ks.Key) (sk : List Poly) (gInv : Int)
+    (EL KL : ℕ → ℕ → Poly) (Hin Dm : Int)
+    (hN : 0 < N) (hg : GalOk key.p N) (hsk : Ks.AllLen N sk) (hinv : ∀ s ∈ sk, σ key.p (σ gInv s) = s)
+    (ha : GWF N a) (hrank : a.rank = key.rankIn) (hrout : rout = key.rankOut) (hc0 : 0 < key.mat.colsOut)
+    (hD : 1 ≤ key.dsize) (hM : ∀ j q, (key.mat.entry j q).length = N) (hS : key.mat.rows * key.dsize ≤ key.mat.size)
+    (hbi1 : 1 ≤ a.base2k) (hbi : a.base2k ≤ 62) (hbk1 : 1 ≤ key.base2k) (hbk : key.base2k ≤ 62) (hbo1 : 1 ≤ bout) (hbo : bout ≤ 62)
+    (hIn0 : 0 ≤ Hin) (hIn : Hin + 8 ≤ 2 ^ 62) (hInB : ∀ c ∈ a.cols, ∀ l ∈ c, ∀ x ∈ l, |x| ≤ Hin)
+    (hDm0 : 0 ≤ Dm) (hDmB : ∀ j q, normInf (key.mat.entry j q) ≤ Dm) (hadm : ksAdmissible big128 key N Hin Dm)
+    (hs : key.mat.colsIn ≤ sk.length)
+    (hEL : ∀ i r, (EL i r).length = N) (hKL : ∀ i r, (KL i r).length = N)
+    (hkey : ∀ i, i < key.mat.colsIn → ∀ r, r < key.mat.rows →
+      Gadget.val (Ks.radix N key.base2k) key.mat.size (Ks.keyPhase N (sk.map (σ gInv)) key.mat i r) =
+        Ks.ι N (sk.getD i []) * Ks.radix N key.base2k ^ (key.mat.size - (r + 1) * key.dsize) + Ks.ι N (EL i r)
+          + Ks.radix N key.base2k ^ key.mat.size * Ks.ι N (KL i r))
+    (hcov1 : convSize a key ≤ key.mat.size) (hcov2 : convSize a key ≤ key.mat.rows * key.dsize) :
+    ∃ res aConv, Ks.automorphism big128 bout sout rout a key = .ok res ∧ Ks.convIn a key = .ok aConv ∧
+      GWF N res ∧ res.base2k = bout ∧ res.size = sout ∧ res.rank = rout ∧
+      ∃ (E1 E3 : Poly) (Q : Ks.R N), E1.length = N ∧ E3.length = N ∧
+        normInf E1 ≤ (1 + snorm (min a.rank sk.length) sk) * C02.normTol (key.base2k * convSize a key) (a.base2k * a.size) ∧
+        normInf E3 ≤ (1 + snorm (min rout (sk.map (σ gInv)).length) (sk.map (σ gInv))) *
+          C02.normTol (bout * sout) (key.base2k * key.mat.size) ∧
+        (2 : Ks.R N) ^ (a.base2k * a.size + key.base2k * key.mat.size) * Ks.ι N (valP bout N (phase sk res))
+          = (2 : Ks.R N) ^ (bout * sout + key.base2k * key.mat.size) * Ks.ι N (σ key.p (valP a.base2k N (phase sk a)))
+            + Ks.ι N (σ key.p (ksErr (2 ^ (bout * sout + key.base2k * (key.mat.size - convSize a key))) (2 ^ (a.base2k * a.size + bout * sout))
+                (2 ^ (a.base2k * a.size)) E1 (Ks.errL N key.base2k (aDftOf aConv) key EL)
+                (Ks.dropL N key.base2k (sk.map (σ gInv)) (aDftOf aConv) key) E3))
+            + (2 : Ks.R N) ^ (a.base2k * a.size + bout * sout + key.base2k * key.mat.size) * Q ∧
+        normInf (σ key.p (ksErr (2 ^ (bout * sout + key.base2k * (key.mat.size - convSize a key))) (2 ^ (a.base2k * a.size + bout * sout))
+                (2 ^ (a.base2k * a.size)) E1 (Ks.errL N key.base2k (aDftOf aConv) key EL)
+                (Ks.dropL N key.base2k (sk.map (σ gInv)) (aDftOf aConv) key) E3))
+          ≤ 2 ^ (bout * sout + key.base2k * (key.mat.size - convSize a key)) *
+              ((1 + snorm (min a.rank sk.length) sk) * C02.normTol (key.base2k * convSize a key) (a.base2k * a.size))
+            + 2 ^ (a.base2k * a.size + bout * sout) * gadgetBound N key.base2k (aDftOf aConv) key EL
+            + 2 ^ (a.base2k * a.size + bout * sout) * dropBound N key.base2k (sk.map (σ gInv)) (aDftOf aConv) key
+            + 2 ^ (a.base2k * a.size) *
+              ((1 + snorm (min rout (sk.map (σ gInv)).length) (sk.map (σ gInv))) *
+                C02.normTol (bout * sout) (key.base2k * key.mat.size)) :=
+  KsDec.glwe_automorphism_decrypts_adm big128 N bout sout rout a key sk gInv EL KL Hin Dm hN hg hsk hinv ha hrank hrout hc0 hD hM hS hbi1 hbi hbk1 hbk hbo1 hbo hIn0 hIn hInB hDm0 hDmB hadm hs hEL hKL hkey hcov1 hcov2
+
+/-- in-place form -/
+theorem glwe_automorphism_assign_decrypts_adm (big128 : Bool) (N : Nat) (a : Ks.Ct) (key : Ks.Key) (sk : List Poly) (gInv : Int)
+    (EL KL : ℕ → ℕ → Poly) (Hin Dm : Int)
+    (hN : 0 < N) (hg : GalOk key.p N) (hsk : Ks.AllLen N sk) (hinv : ∀ s ∈ sk, σ key.p (σ gInv s) = s)
+    (ha : GWF N a) (hrank : a.rank = key.rankIn) (hrout : a.rank = key.rankOut) (hc0 : 0 < key.mat.colsOut)
+    (hD : 1 ≤ key.dsize) (hM : ∀ j q, (key.mat.entry j q).length = N) (hS : key.mat.rows * key.dsize ≤ key.mat.size)
+    (hbi1 : 1 ≤ a.base2k) (hbi : a.base2k ≤ 62) (hbk1 : 1 ≤ key.base2k) (hbk : key.base2k ≤ 62)
+    (hIn0 : 0 ≤ Hin) (hIn : Hin + 8 ≤ 2 ^ 62) (hInB : ∀ c ∈ a.cols, ∀ l ∈ c, ∀ x ∈ l, |x| ≤ Hin)
+    (hDm0 : 0 ≤ Dm) (hDmB : ∀ j q, normInf (key.mat.entry j q) ≤ Dm) (hadm : ksAdmissible big128 key N Hin Dm)
+    (hs : key.mat.colsIn ≤ sk.length)
+    (hEL : ∀ i r, (EL i r).length = N) (hKL : ∀ i r, (KL i r).length = N)
+    (hkey : ∀ i, i < key.mat.colsIn → ∀ r, r < key.mat.rows →
+      Gadget.val (Ks.radix N key.base2k) key.mat.size (Ks.keyPhase N (sk.map (σ gInv)) key.mat i r) =
+        Ks.ι N (sk.getD i []) * Ks.radix N key.base2k ^ (key.mat.size - (r + 1) * key.dsize) + Ks.ι N (EL i r)
+          + Ks.radix N key.base2k ^ key.mat.size * Ks.ι N (KL i r))
+    (hcov1 : convSize a key ≤ key.mat.size) (hcov2 : convSize a key ≤ key.mat.rows * key.dsize) :
+    ∃ res aConv, Ks.automorphism big128 a.base2k a.size a.rank a key = .ok res ∧ Ks.convIn a key = .ok aConv ∧
+      GWF N res ∧ res.base2k = a.base2k ∧ res.size = a.size ∧ res.rank = a.rank ∧
+      ∃ (E1 E3 : Poly) (Q : Ks.R N), E1.length = N ∧ E3.length = N ∧
+        normInf E1 ≤ (1 + snorm (min a.rank sk.length) sk) * C02.normTol (key.base2k * convSize a key) (a.base2k * a.size) ∧
+        normInf E3 ≤ (1 + snorm (min a.rank (sk.map (σ gInv)).length) (sk.map (σ gInv))) *
+          C02.normTol (a.base2k * a.size) (key.base2k * key.mat.size) ∧
+        (2 : Ks.R N) ^ (a.base2k * a.size + key.base2k * key.mat.size) * Ks.ι N (valP a.base2k N (phase sk res))
+          = (2 : Ks.R N) ^ (a.base2k * a.size + key.base2k * key.mat.size) * Ks.ι N (σ key.p (valP a.base2k N (phase sk a)))
+            + Ks.ι N (σ key.p (ksErr (2 ^ (a.base2k * a.size + key.base2k * (key.mat.size - convSize a key))) (2 ^ (a.base2k * a.size + a.base2k * a.size))
+                (2 ^ (a.base2k * a.size)) E1 (Ks.errL N key.base2k (aDftOf aConv) key EL)
+                (Ks.dropL N key.base2k (sk.map (σ gInv)) (aDftOf aConv) key) E3))
+            + (2 : Ks.R N) ^ (a.base2k * a.size + a.base2k * a.size + key.base2k * key.mat.size) * Q ∧
+        normInf (σ key.p (ksErr (2 ^ (a.base2k * a.size + key.base2k * (key.mat.size - convSize a key))) (2 ^ (a.base2k * a.size + a.base2k * a.size))
+                (2 ^ (a.base2k * a.size)) E1 (Ks.errL N key.base2k (aDftOf aConv) key EL)
+                (Ks.dropL N key.base2k (sk.map (σ gInv)) (aDftOf aConv) key) E3))
+          ≤ 2 ^ (a.base2k * a.size + key.base2k * (key.mat.size - convSize a key)) *
+              ((1 + snorm (min a.rank sk.length) sk) * C02.normTol (key.base2k * convSize a key) (a.base2k * a.size))
+            + 2 ^ (a.base2k * a.size + a.base2k * a.size) * gadgetBound N key.base2k (aDftOf aConv) key EL
+            + 2 ^ (a.base2k * a.size + a.base2k * a.size) * dropBound N key.base2k (sk.map (σ gInv)) (aDftOf aConv) key
+            + 2 ^ (a.base2k * a.size) *
+              ((1 + snorm (min a.rank (sk.map (σ gInv)).length) (sk.map (σ gInv))) *
+                C02.normTol (a.base2k * a.size) (key.base2k * key.mat.size)) :=
+  KsDec.glwe_automorphism_assign_decrypts_adm big128 N a key sk gInv EL KL Hin Dm hN hg hsk hinv ha hrank hrout hc0 hD hM hS hbi1 hbi hbk1 hbk hIn0 hIn hInB hDm0 hDmB hadm hs hEL hKL hkey hcov1 hcov2
+
+/-- **the fused forms, arbitrary `res_dft`, head-room derived**: the only numeric hypothesis is the decidable `fusedAdmissible` (`prodBound + 2·(Hin+2^b) + 8 ≤ 2^(bits−2)`) -/
+theorem glwe_automorphism_fused_decrypts_any_adm (f : Ks.Fused) (big128 : Bool) (N bout sout rout : Nat) (a : Ks.Ct) (key : Ks.Key) (dft0 : Buf)
+    (sk : List Poly) (gInv : Int) (EL KL : ℕ → ℕ → Poly) (Hin Dm : Int)
+    (hN : 0 < N) (hg : GalOk key.p N) (hsk : Ks.AllLen N sk) (hinv : ∀ s ∈ sk, σ key.p (σ gInv s) = s)
+    (ha : GWF N a) (hrank : a.rank = key.rankIn) (hrout : rout = key.rankOut) (hra : a.rank = rout) (hc0 : 0 < key.mat.colsOut)
+    (hD : 1 ≤ key.dsize) (hM : ∀ j q, (key.mat.entry j q).length = N) (hS : key.mat.rows * key.dsize ≤ key.mat.size)
+    (hbi1 : 1 ≤ a.base2k) (hbi : a.base2k ≤ 62) (hbk1 : 1 ≤ key.base2k) (hbk : key.base2k ≤ 62) (hbo1 : 1 ≤ bout) (hbo : bout ≤ 62)
+    (hIn0 : 0 ≤ Hin) (hIn : Hin + 8 ≤ 2 ^ 62) (hInB : ∀ c ∈ a.cols, ∀ l ∈ c, ∀ x ∈ l, |x| ≤ Hin)
+    (hDm0 : 0 ≤ Dm) (hDmB : ∀ j q, normInf (key.mat.entry j q) ≤ Dm) (hadm : fusedAdmissible big128 key N Hin Dm)
+    (hs : key.mat.colsIn ≤ sk.length)
+    (hEL : ∀ i r, (EL i r).length = N) (hKL : ∀ i r, (KL i r).length = N)
+    (hkey : ∀ i, i < key.mat.colsIn → ∀ r, r < key.mat.rows →
+      Gadget.val (Ks.radix N key.base2k) key.mat.size (Ks.keyPhase N (sk.map (σ gInv)) key.mat i r) =
+        Ks.ι N (sk.getD i []) * Ks.radix N key.base2k ^ (key.mat.size - (r + 1) * key.dsize) + Ks.ι N (EL i r)
+          + Ks.radix N key.base2k ^ key.mat.size * Ks.ι N (KL i r))
+    (hcov1 : convSize a key ≤ key.mat.size) (hcov2 : convSize a key ≤ key.mat.rows * key.dsize)
+    (hdwf : dft0.WF) (hdn : dft0.n = N) (hdc : dft0.cols = rout + 1) (hds : dft0.size = key.mat.size) (hdm : dft0.maxSize = key.mat.size) :
+    ∃ res aConv, Ks.automorphismFused f big128 dft0 bout sout rout a key = .ok res ∧
+      Ks.convIn a key = .ok aConv ∧ GWF N res ∧ res.base2k = bout ∧ res.size = sout ∧ res.rank = rout ∧
+      ∃ (E1 E3 : Poly) (Q : Ks.R N), E1.length = N ∧ E3.length = N ∧
+        normInf E1 ≤ (1 + snorm (min a.rank sk.length) sk) * C02.normTol (key.base2k * convSize a key) (a.base2k * a.size) ∧
+        normInf E3 ≤ (1 + snorm (min rout sk.length) sk) * C02.normTol (bout * sout) (key.base2k * key.mat.size) ∧
+        (2 : Ks.R N) ^ (a.base2k * a.size + key.base2k * key.mat.size) * Ks.ι N (valP bout N (phase sk res))
+          = (sgA f : Ks.R N) *
+              ((2 : Ks.R N) ^ (bout * sout + key.base2k * key.mat.size) * Ks.ι N (σ key.p (valP a.base2k N (phase sk a)))
+                + Ks.ι N (σ key.p (ksErr (2 ^ (bout * sout + key.base2k * (key.mat.size - convSize a key)))
+                    (2 ^ (a.base2k * a.size + bout * sout)) 0 E1 (Ks.errL N key.base2k (aDftOf aConv) key EL)
+                    (Ks.dropL N key.base2k (sk.map (σ gInv)) (aDftOf aConv) key) (zeroP N))))
+            + (sgB f : Ks.R N) *
+              ((2 : Ks.R N) ^ (bout * sout + key.base2k * key.mat.size) * Ks.ι N (valP a.base2k N (phase sk a))
+                + Ks.ι N (polyScale (2 ^ (bout * sout + key.base2k * (key.mat.size - convSize a key))) E1))
+            + Ks.ι N (polyScale (2 ^ (a.base2k * a.size)) E3)
+            + (2 : Ks.R N) ^ (a.base2k * a.size + bout * sout + key.base2k * key.mat.size) * Q ∧
+        normInf (σ key.p (ksErr (2 ^ (bout * sout + key.base2k * (key.mat.size - convSize a key)))
+                    (2 ^ (a.base2k * a.size + bout * sout)) 0 E1 (Ks.errL N key.base2k (aDftOf aConv) key EL)
+                    (Ks.dropL N key.base2k (sk.map (σ gInv)) (aDftOf aConv) key) (zeroP N)))
+          ≤ 2 ^ (bout * sout + key.base2k * (key.mat.size - convSize a key)) *
+              ((1 + snorm (min a.rank sk.length) sk) * C02.normTol (key.base2k * convSize a key) (a.base2k * a.size))
+            + 2 ^ (a.base2k * a.size + bout * sout) * gadgetBound N key.base2k (aDftOf aConv) key EL
+            + 2 ^ (a.base2k * a.size + bout * sout) * dropBound N key.base2k (sk.map (σ gInv)) (aDftOf aConv) key :=
+  KsDec.glwe_automorphism_fused_decrypts_any_adm f big128 N bout sout rout a key dft0 sk gInv EL KL Hin Dm hN hg hsk hinv ha hrank hrout hra hc0 hD hM hS hbi1 hbi hbk1 hbk hbo1 hbo hIn0 hIn hInB hDm0 hDmB hadm hs hEL hKL hkey hcov1 hcov2 hdwf hdn hdc hds hdm
+
+/-- `σ_p(KS(a)) + a` -/
+theorem glwe_automorphism_add_decrypts_any_adm (big128 : Bool) (N bout sout rout : Nat) (a : Ks.Ct) (key : Ks.Key) (dft0 : Buf)
+    (sk : List Poly) (gInv : Int) (EL KL : ℕ → ℕ → Poly) (Hin Dm : Int)
+    (hN : 0 < N) (hg : GalOk key.p N) (hsk : Ks.AllLen N sk) (hinv : ∀ s ∈ sk, σ key.p (σ gInv s) = s)
+    (ha : GWF N a) (hrank : a.rank = key.rankIn) (hrout : rout = key.rankOut) (hra : a.rank = rout) (hc0 : 0 < key.mat.colsOut)
+    (hD : 1 ≤ key.dsize) (hM : ∀ j q, (key.mat.entry j q).length = N) (hS : key.mat.rows * key.dsize ≤ key.mat.size)
+    (hbi1 : 1 ≤ a.base2k) (hbi : a.base2k ≤ 62) (hbk1 : 1 ≤ key.base2k) (hbk : key.base2k ≤ 62) (hbo1 : 1 ≤ bout) (hbo : bout ≤ 62)
+    (hIn0 : 0 ≤ Hin) (hIn : Hin + 8 ≤ 2 ^ 62) (hInB : ∀ c ∈ a.cols, ∀ l ∈ c, ∀ x ∈ l, |x| ≤ Hin)
+    (hDm0 : 0 ≤ Dm) (hDmB : ∀ j q, normInf (key.mat.entry j q) ≤ Dm) (hadm : fusedAdmissible big128 key N Hin Dm)
+    (hs : key.mat.colsIn ≤ sk.length)
+    (hEL : ∀ i r, (EL i r).length = N) (hKL : ∀ i r, (KL i r).length = N)
+    (hkey : ∀ i, i < key.mat.colsIn → ∀ r, r < key.mat.rows →
+      Gadget.val (Ks.radix N key.base2k) key.mat.size (Ks.keyPhase N (sk.map (σ gInv)) key.mat i r) =
+        Ks.ι N (sk.getD i []) * Ks.radix N key.base2k ^ (key.mat.size - (r + 1) * key.dsize) + Ks.ι N (EL i r)
+          + Ks.radix N key.base2k ^ key.mat.size * Ks.ι N (KL i r))
+    (hcov1 : convSize a key ≤ key.mat.size) (hcov2 : convSize a key ≤ key.mat.rows * key.dsize)
+    (hdwf : dft0.WF) (hdn : dft0.n = N) (hdc : dft0.cols = rout + 1) (hds : dft0.size = key.mat.size) (hdm : dft0.maxSize = key.mat.size) :
+    ∃ res aConv, Ks.automorphismFused .add big128 dft0 bout sout rout a key = .ok res ∧
+      Ks.convIn a key = .ok aConv ∧ GWF N res ∧ res.base2k = bout ∧ res.size = sout ∧ res.rank = rout ∧
+      ∃ (E1 E3 : Poly) (Q : Ks.R N), E1.length = N ∧ E3.length = N ∧
+        normInf E1 ≤ (1 + snorm (min a.rank sk.length) sk) * C02.normTol (key.base2k * convSize a key) (a.base2k * a.size) ∧
+        normInf E3 ≤ (1 + snorm (min rout sk.length) sk) * C02.normTol (bout * sout) (key.base2k * key.mat.size) ∧
+        (2 : Ks.R N) ^ (a.base2k * a.size + key.base2k * key.mat.size) * Ks.ι N (valP bout N (phase sk res))
+          = ((sgA .add : ℤ) : Ks.R N) *
+              ((2 : Ks.R N) ^ (bout * sout + key.base2k * key.mat.size) * Ks.ι N (σ key.p (valP a.base2k N (phase sk a)))
+                + Ks.ι N (σ key.p (ksErr (2 ^ (bout * sout + key.base2k * (key.mat.size - convSize a key)))
+                    (2 ^ (a.base2k * a.size + bout * sout)) 0 E1 (Ks.errL N key.base2k (aDftOf aConv) key EL)
+                    (Ks.dropL N key.base2k (sk.map (σ gInv)) (aDftOf aConv) key) (zeroP N))))
+            + ((sgB .add : ℤ) : Ks.R N) *
+              ((2 : Ks.R N) ^ (bout * sout + key.base2k * key.mat.size) * Ks.ι N (valP a.base2k N (phase sk a))
+                + Ks.ι N (polyScale (2 ^ (bout * sout + key.base2k * (key.mat.size - convSize a key))) E1))
+            + Ks.ι N (polyScale (2 ^ (a.base2k * a.size)) E3)
+            + (2 : Ks.R N) ^ (a.base2k * a.size + bout * sout + key.base2k * key.mat.size) * Q ∧
+        normInf (σ key.p (ksErr (2 ^ (bout * sout + key.base2k * (key.mat.size - convSize a key)))
+                    (2 ^ (a.base2k * a.size + bout * sout)) 0 E1 (Ks.errL N key.base2k (aDftOf aConv) key EL)
+                    (Ks.dropL N key.base2k (sk.map (σ gInv)) (aDftOf aConv) key) (zeroP N)))
+          ≤ 2 ^ (bout * sout + key.base2k * (key.mat.size - convSize a key)) *
+              ((1 + snorm (min a.rank sk.length) sk) * C02.normTol (key.base2k * convSize a key) (a.base2k * a.size))
+            + 2 ^ (a.base2k * a.size + bout * sout) * gadgetBound N key.base2k (aDftOf aConv) key EL
+            + 2 ^ (a.base2k * a.size + bout * sout) * dropBound N key.base2k (sk.map (σ gInv)) (aDftOf aConv) key :=
+  KsDec.glwe_automorphism_add_decrypts_any_adm big128 N bout sout rout a key dft0 sk gInv EL KL Hin Dm hN hg hsk hinv ha hrank hrout hra hc0 hD hM hS hbi1 hbi hbk1 hbk hbo1 hbo hIn0 hIn hInB hDm0 hDmB hadm hs hEL hKL hkey hcov1 hcov2 hdwf hdn hdc hds hdm
+
+/-- `σ_p(KS(a)) − a` -/
+theorem glwe_automorphism_sub_decrypts_any_adm (big128 : Bool) (N bout sout rout : Nat) (a : Ks.Ct) (key : Ks.Key) (dft0 : Buf)
+    (sk : List Poly) (gInv : Int) (EL KL : ℕ → ℕ → Poly) (Hin Dm : Int)
+    (hN : 0 < N) (hg : GalOk key.p N) (hsk : Ks.AllLen N sk) (hinv : ∀ s ∈ sk, σ key.p (σ gInv s) = s)
+    (ha : GWF N a) (hrank : a.rank = key.rankIn) (hrout : rout = key.rankOut) (hra : a.rank = rout) (hc0 : 0 < key.mat.colsOut)
+    (hD : 1 ≤ key.dsize) (hM : ∀ j q, (key.mat.entry j q).length = N) (hS : key.mat.rows * key.dsize ≤ key.mat.size)
+    (hbi1 : 1 ≤ a.base2k) (hbi : a.base2k ≤ 62) (hbk1 : 1 ≤ key.base2k) (hbk : key.base2k ≤ 62) (hbo1 : 1 ≤ bout) (hbo : bout ≤ 62)
+    (hIn0 : 0 ≤ Hin) (hIn : Hin + 8 ≤ 2 ^ 62) (hInB : ∀ c ∈ a.cols, ∀ l ∈ c, ∀ x ∈ l, |x| ≤ Hin)
+    (hDm0 : 0 ≤ Dm) (hDmB : ∀ j q, normInf (key.mat.entry j q) ≤ Dm) (hadm : fusedAdmissible big128 key N Hin Dm)
+    (hs : key.mat.colsIn ≤ sk.length)
+    (hEL : ∀ i r, (EL i r).length = N) (hKL : ∀ i r, (KL i r).length = N)
+    (hkey : ∀ i, i < key.mat.colsIn → ∀ r, r < key.mat.rows →
+      Gadget.val (Ks.radix N key.base2k) key.mat.size (Ks.keyPhase N (sk.map (σ gInv)) key.mat i r) =
+        Ks.ι N (sk.getD i []) * Ks.radix N key.base2k ^ (key.mat.size - (r + 1) * key.dsize) + Ks.ι N (EL i r)
+          + Ks.radix N key.base2k ^ key.mat.size * Ks.ι N (KL i r))
+    (hcov1 : convSize a key ≤ key.mat.size) (hcov2 : convSize a key ≤ key.mat.rows * key.dsize)
+    (hdwf : dft0.WF) (hdn : dft0.n = N) (hdc : dft0.cols = rout + 1) (hds : dft0.size = key.mat.size) (hdm : dft0.maxSize = key.mat.size) :
+    ∃ res aConv, Ks.automorphismFused .sub big128 dft0 bout sout rout a key = .ok res ∧
+      Ks.convIn a key = .ok aConv ∧ GWF N res ∧ res.base2k = bout ∧ res.size = sout ∧ res.rank = rout ∧
+      ∃ (E1 E3 : Poly) (Q : Ks.R N), E1.length = N ∧ E3.length = N ∧
+        normInf E1 ≤ (1 + snorm (min a.rank sk.length) sk) * C02.normTol (key.base2k * convSize a key) (a.base2k * a.size) ∧
+        normInf E3 ≤ (1 + snorm (min rout sk.length) sk) * C02.normTol (bout * sout) (key.base2k * key.mat.size) ∧
+        (2 : Ks.R N) ^ (a.base2k * a.size + key.base2k * key.mat.size) * Ks.ι N (valP bout N (phase sk res))
+          = ((sgA .sub : ℤ) : Ks.R N) *
+              ((2 : Ks.R N) ^ (bout * sout + key.base2k * key.mat.size) * Ks.ι N (σ key.p (valP a.base2k N (phase sk a)))
+                + Ks.ι N (σ key.p (ksErr (2 ^ (bout * sout + key.base2k * (key.mat.size - convSize a key)))
+                    (2 ^ (a.base2k * a.size + bout * sout)) 0 E1 (Ks.errL N key.base2k (aDftOf aConv) key EL)
+                    (Ks.dropL N key.base2k (sk.map (σ gInv)) (aDftOf aConv) key) (zeroP N))))
+            + ((sgB .sub : ℤ) : Ks.R N) *
+              ((2 : Ks.R N) ^ (bout * sout + key.base2k * key.mat.size) * Ks.ι N (valP a.base2k N (phase sk a))
+                + Ks.ι N (polyScale (2 ^ (bout * sout + key.base2k * (key.mat.size - convSize a key))) E1))
+            + Ks.ι N (polyScale (2 ^ (a.base2k * a.size)) E3)
+            + (2 : Ks.R N) ^ (a.base2k * a.size + bout * sout + key.base2k * key.mat.size) * Q ∧
+        normInf (σ key.p (ksErr (2 ^ (bout * sout + key.base2k * (key.mat.size - convSize a key)))
+                    (2 ^ (a.base2k * a.size + bout * sout)) 0 E1 (Ks.errL N key.base2k (aDftOf aConv) key EL)
+                    (Ks.dropL N key.base2k (sk.map (σ gInv)) (aDftOf aConv) key) (zeroP N)))
+          ≤ 2 ^ (bout * sout + key.base2k * (key.mat.size - convSize a key)) *
+              ((1 + snorm (min a.rank sk.length) sk) * C02.normTol (key.base2k * convSize a key) (a.base2k * a.size))
+            + 2 ^ (a.base2k * a.size + bout * sout) * gadgetBound N key.base2k (aDftOf aConv) key EL
+            + 2 ^ (a.base2k * a.size + bout * sout) * dropBound N key.base2k (sk.map (σ gInv)) (aDftOf aConv) key :=
+  KsDec.glwe_automorphism_sub_decrypts_any_adm big128 N bout sout rout a key dft0 sk gInv EL KL Hin Dm hN hg hsk hinv ha hrank hrout hra hc0 hD hM hS hbi1 hbi hbk1 hbk hbo1 hbo hIn0 hIn hInB hDm0 hDmB hadm hs hEL hKL hkey hcov1 hcov2 hdwf hdn hdc hds hdm
+
+/-- `a − σ_p(KS(a))` -/
+theorem glwe_automorphism_sub_negate_decrypts_any_adm (big128 : Bool) (N bout sout rout : Nat) (a : Ks.Ct) (key : Ks.Key) (dft0 : Buf)
+    (sk : List Poly) (gInv : Int) (EL KL : ℕ → ℕ → Poly) (Hin Dm : Int)
+    (hN : 0 < N) (hg : GalOk key.p N) (hsk : Ks.AllLen N sk) (hinv : ∀ s ∈ sk, σ key.p (σ gInv s) = s)
+    (ha : GWF N a) (hrank : a.rank = key.rankIn) (hrout : rout = key.rankOut) (hra : a.rank = rout) (hc0 : 0 < key.mat.colsOut)
+    (hD : 1 ≤ key.dsize) (hM : ∀ j q, (key.mat.entry j q).length = N) (hS : key.mat.rows * key.dsize ≤ key.mat.size)
+    (hbi1 : 1 ≤ a.base2k) (hbi : a.base2k ≤ 62) (hbk1 : 1 ≤ key.base2k) (hbk : key.base2k ≤ 62) (hbo1 : 1 ≤ bout) (hbo : bout ≤ 62)
+    (hIn0 : 0 ≤ Hin) (hIn : Hin + 8 ≤ 2 ^ 62) (hInB : ∀ c ∈ a.cols, ∀ l ∈ c, ∀ x ∈ l, |x| ≤ Hin)
+    (hDm0 : 0 ≤ Dm) (hDmB : ∀ j q, normInf (key.mat.entry j q) ≤ Dm) (hadm : fusedAdmissible big128 key N Hin Dm)
+    (hs : key.mat.colsIn ≤ sk.length)
+    (hEL : ∀ i r, (EL i r).length = N) (hKL : ∀ i r, (KL i r).length = N)
+    (hkey : ∀ i, i < key.mat.colsIn → ∀ r, r < key.mat.rows →
+      Gadget.val (Ks.radix N key.base2k) key.mat.size (Ks.keyPhase N (sk.map (σ gInv)) key.mat i r) =
+        Ks.ι N (sk.getD i []) * Ks.radix N key.base2k ^ (key.mat.size - (r + 1) * key.dsize) + Ks.ι N (EL i r)
+          + Ks.radix N key.base2k ^ key.mat.size * Ks.ι N (KL i r))
+    (hcov1 : convSize a key ≤ key.mat.size) (hcov2 : convSize a key ≤ key.mat.rows * key.dsize)
+    (hdwf : dft0.WF) (hdn : dft0.n = N) (hdc : dft0.cols = rout + 1) (hds : dft0.size = key.mat.size) (hdm : dft0.maxSize = key.mat.size) :
+    ∃ res aConv, Ks.automorphismFused .subNegate big128 dft0 bout sout rout a key = .ok res ∧
+      Ks.convIn a key = .ok aConv ∧ GWF N res ∧ res.base2k = bout ∧ res.size = sout ∧ res.rank = rout ∧
+      ∃ (E1 E3 : Poly) (Q : Ks.R N), E1.length = N ∧ E3.length = N ∧
+        normInf E1 ≤ (1 + snorm (min a.rank sk.length) sk) * C02.normTol (key.base2k * convSize a key) (a.base2k * a.size) ∧
+        normInf E3 ≤ (1 + snorm (min rout sk.length) sk) * C02.normTol (bout * sout) (key.base2k * key.mat.size) ∧
+        (2 : Ks.R N) ^ (a.base2k * a.size + key.base2k * key.mat.size) * Ks.ι N (valP bout N (phase sk res))
+          = ((sgA .subNegate : ℤ) : Ks.R N) *
+              ((2 : Ks.R N) ^ (bout * sout + key.base2k * key.mat.size) * Ks.ι N (σ key.p (valP a.base2k N (phase sk a)))
+                + Ks.ι N (σ key.p (ksErr (2 ^ (bout * sout + key.base2k * (key.mat.size - convSize a key)))
+                    (2 ^ (a.base2k * a.size + bout * sout)) 0 E1 (Ks.errL N key.base2k (aDftOf aConv) key EL)
+                    (Ks.dropL N key.base2k (sk.map (σ gInv)) (aDftOf aConv) key) (zeroP N))))
+            + ((sgB .subNegate : ℤ) : Ks.R N) *
+              ((2 : Ks.R N) ^ (bout * sout + key.base2k * key.mat.size) * Ks.ι N (valP a.base2k N (phase sk a))
+                + Ks.ι N (polyScale (2 ^ (bout * sout + key.base2k * (key.mat.size - convSize a key))) E1))
+            + Ks.ι N (polyScale (2 ^ (a.base2k * a.size)) E3)
+            + (2 : Ks.R N) ^ (a.base2k * a.size + bout * sout + key.base2k * key.mat.size) * Q ∧
+        normInf (σ key.p (ksErr (2 ^ (bout * sout + key.base2k * (key.mat.size - convSize a key)))
+                    (2 ^ (a.base2k * a.size + bout * sout)) 0 E1 (Ks.errL N key.base2k (aDftOf aConv) key EL)
+                    (Ks.dropL N key.base2k (sk.map (σ gInv)) (aDftOf aConv) key) (zeroP N)))
+          ≤ 2 ^ (bout * sout + key.base2k * (key.mat.size - convSize a key)) *
+              ((1 + snorm (min a.rank sk.length) sk) * C02.normTol (key.base2k * convSize a key) (a.base2k * a.size))
+            + 2 ^ (a.base2k * a.size + bout * sout) * gadgetBound N key.base2k (aDftOf aConv) key EL
+            + 2 ^ (a.base2k * a.size + bout * sout) * dropBound N key.base2k (sk.map (σ gInv)) (aDftOf aConv) key :=
+  KsDec.glwe_automorphism_sub_negate_decrypts_any_adm big128 N bout sout rout a key dft0 sk gInv EL KL Hin Dm hN hg hsk hinv ha hrank hrout hra hc0 hD hM hS hbi1 hbi hbk1 hbk hbo1 hbo hIn0 hIn hInB hDm0 hDmB hadm hs hEL hKL hkey hcov1 hcov2 hdwf hdn hdc hds hdm
+
+/-- in-place forms -/
+theorem glwe_automorphism_fused_assign_decrypts_any_adm (f : Ks.Fused) (big128 : Bool) (N : Nat) (a : Ks.Ct) (key : Ks.Key) (dft0 : Buf)
+    (sk : List Poly) (gInv : Int) (EL KL : ℕ → ℕ → Poly) (Hin Dm : Int)
+    (hN : 0 < N) (hg : GalOk key.p N) (hsk : Ks.AllLen N sk) (hinv : ∀ s ∈ sk, σ key.p (σ gInv s) = s)
+    (ha : GWF N a) (hrank : a.rank = key.rankIn) (hrout : a.rank = key.rankOut) (hc0 : 0 < key.mat.colsOut)
+    (hD : 1 ≤ key.dsize) (hM : ∀ j q, (key.mat.entry j q).length = N) (hS : key.mat.rows * key.dsize ≤ key.mat.size)
+    (hbi1 : 1 ≤ a.base2k) (hbi : a.base2k ≤ 62) (hbk1 : 1 ≤ key.base2k) (hbk : key.base2k ≤ 62)
+    (hIn0 : 0 ≤ Hin) (hIn : Hin + 8 ≤ 2 ^ 62) (hInB : ∀ c ∈ a.cols, ∀ l ∈ c, ∀ x ∈ l, |x| ≤ Hin)
+    (hDm0 : 0 ≤ Dm) (hDmB : ∀ j q, normInf (key.mat.entry j q) ≤ Dm) (hadm : fusedAdmissible big128 key N Hin Dm)
+    (hs : key.mat.colsIn ≤ sk.length)
+    (hEL : ∀ i r, (EL i r).length = N) (hKL : ∀ i r, (KL i r).length = N)
+    (hkey : ∀ i, i < key.mat.colsIn → ∀ r, r < key.mat.rows →
+      Gadget.val (Ks.radix N key.base2k) key.mat.size (Ks.keyPhase N (sk.map (σ gInv)) key.mat i r) =
+        Ks.ι N (sk.getD i []) * Ks.radix N key.base2k ^ (key.mat.size - (r + 1) * key.dsize) + Ks.ι N (EL i r)
+          + Ks.radix N key.base2k ^ key.mat.size * Ks.ι N (KL i r))
+    (hcov1 : convSize a key ≤ key.mat.size) (hcov2 : convSize a key ≤ key.mat.rows * key.dsize)
+    (hdwf : dft0.WF) (hdn : dft0.n = N) (hdc : dft0.cols = a.rank + 1) (hds : dft0.size = key.mat.size) (hdm : dft0.maxSize = key.mat.size) :
+    ∃ res aConv, Ks.automorphismFused f big128 dft0 a.base2k a.size a.rank a key = .ok res ∧
+      Ks.convIn a key = .ok aConv ∧ GWF N res ∧ res.base2k = a.base2k ∧ res.size = a.size ∧ res.rank = a.rank ∧
+      ∃ (E1 E3 : Poly) (Q : Ks.R N), E1.length = N ∧ E3.length = N ∧
+        normInf E1 ≤ (1 + snorm (min a.rank sk.length) sk) * C02.normTol (key.base2k * convSize a key) (a.base2k * a.size) ∧
+        normInf E3 ≤ (1 + snorm (min a.rank sk.length) sk) * C02.normTol (a.base2k * a.size) (key.base2k * key.mat.size) ∧
+        (2 : Ks.R N) ^ (a.base2k * a.size + key.base2k * key.mat.size) * Ks.ι N (valP a.base2k N (phase sk res))
+          = (sgA f : Ks.R N) *
+              ((2 : Ks.R N) ^ (a.base2k * a.size + key.base2k * key.mat.size) * Ks.ι N (σ key.p (valP a.base2k N (phase sk a)))
+                + Ks.ι N (σ key.p (ksErr (2 ^ (a.base2k * a.size + key.base2k * (key.mat.size - convSize a key)))
+                    (2 ^ (a.base2k * a.size + a.base2k * a.size)) 0 E1 (Ks.errL N key.base2k (aDftOf aConv) key EL)
+                    (Ks.dropL N key.base2k (sk.map (σ gInv)) (aDftOf aConv) key) (zeroP N))))
+            + (sgB f : Ks.R N) *
+              ((2 : Ks.R N) ^ (a.base2k * a.size + key.base2k * key.mat.size) * Ks.ι N (valP a.base2k N (phase sk a))
+                + Ks.ι N (polyScale (2 ^ (a.base2k * a.size + key.base2k * (key.mat.size - convSize a key))) E1))
+            + Ks.ι N (polyScale (2 ^ (a.base2k * a.size)) E3)
+            + (2 : Ks.R N) ^ (a.base2k * a.size + a.base2k * a.size + key.base2k * key.mat.size) * Q ∧
+        normInf (σ key.p (ksErr (2 ^ (a.base2k * a.size + key.base2k * (key.mat.size - convSize a key)))
+                    (2 ^ (a.base2k * a.size + a.base2k * a.size)) 0 E1 (Ks.errL N key.base2k (aDftOf aConv) key EL)
+                    (Ks.dropL N key.base2k (sk.map (σ gInv)) (aDftOf aConv) key) (zeroP N)))
+          ≤ 2 ^ (a.base2k * a.size + key.base2k * (key.mat.size - convSize a key)) *
+              ((1 + snorm (min a.rank sk.length) sk) * C02.normTol (key.base2k * convSize a key) (a.base2k * a.size))
+            + 2 ^ (a.base2k * a.size + a.base2k * a.size) * gadgetBound N key.base2k (aDftOf aConv) key EL
+            + 2 ^ (a.base2k * a.size + a.base2k * a.size) * dropBound N key.base2k (sk.map (σ gInv)) (aDftOf aConv) key :=
+  KsDec.glwe_automorphism_fused_assign_decrypts_any_adm f big128 N a key dft0 sk gInv EL KL Hin Dm hN hg hsk hinv ha hrank hrout hc0 hD hM hS hbi1 hbi hbk1 hbk hIn0 hIn hInB hDm0 hDmB hadm hs hEL hKL hkey hcov1 hcov2 hdwf hdn hdc hds hdm
+
+/-- coefficient form under `KsSideAdm` (= `KsSide` with the product-buffer fields replaced by `Dm` + `ksAdmissible`) -/
+theorem glwe_keyswitch_decrypts_coeff_adm (big128 : Bool) (N bout sout rout : Nat) (a : Ks.Ct) (key : Ks.Key) (sIn skOut : List Poly)
+    (EL KL : ℕ → ℕ → Poly) (Hin Dm : Int) (h : KsSideAdm big128 N bout sout rout a key sIn skOut EL KL Hin Dm)
+    (ha : GWF N a) (hInB : ∀ c ∈ a.cols, ∀ l ∈ c, ∀ x ∈ l, |x| ≤ Hin) :
+    ∃ res aConv, Ks.keyswitch big128 bout sout rout a key = .ok res ∧ Ks.convIn a key = .ok aConv ∧
+      GWF N res ∧ res.base2k = bout ∧ res.size = sout ∧ res.rank = rout ∧
+      ∀ t, t < N → ∃ e q : Int,
+        2 ^ (a.base2k * a.size + key.base2k * key.mat.size) * valCoeff bout (phase skOut res) t
+          = 2 ^ (bout * sout + key.base2k * key.mat.size) * valCoeff a.base2k (phase sIn a) t + e
+            + 2 ^ (a.base2k * a.size + bout * sout + key.base2k * key.mat.size) * q ∧
+        |e| ≤ ksBound N bout sout rout a aConv key sIn skOut EL :=
+  KsDec.glwe_keyswitch_decrypts_coeff_adm big128 N bout sout rout a key sIn skOut EL KL Hin Dm h ha hInB
+
+/-- `lwe_keyswitch_decrypts`, head-room derived -/
+theorem lwe_keyswitch_decrypts_adm (big128 : Bool) (n bout sout nOut : Nat) (a : Ks.Lwe) (key : Ks.Key) (sIn sOut : Poly)
+    (EL KL : ℕ → ℕ → Poly) (Hin Dm : Int)
+    (h : KsSideAdm big128 n bout sout 1 (lweEmb n a) key (embSk n sIn) (embSk n sOut) EL KL Hin Dm)
+    (hInB : ∀ limb ∈ a.data, ∀ x ∈ limb, |x| ≤ Hin)
+    (hnIn : a.nLwe ≤ n) (hnOut : nOut ≤ n) (hsIn : sIn.length = a.nLwe) (hsOut : sOut.length = nOut) :
+    ∃ res aConv, Ks.lweKeyswitch big128 n bout sout nOut a key = .ok res ∧ Ks.convIn (lweEmb n a) key = .ok aConv ∧
+      res.base2k = bout ∧ res.nLwe = nOut ∧ res.data.length = sout ∧
+      ∃ e q : Int,
+        2 ^ (a.base2k * a.data.length + key.base2k * key.mat.size) * lwePhaseVal bout res sOut
+          = 2 ^ (bout * sout + key.base2k * key.mat.size) * lwePhaseVal a.base2k a sIn + e
+            + 2 ^ (a.base2k * a.data.length + bout * sout + key.base2k * key.mat.size) * q ∧
+        |e| ≤ ksBound n bout sout 1 (lweEmb n a) aConv key (embSk n sIn) (embSk n sOut) EL :=
+  KsDec.lwe_keyswitch_decrypts_adm big128 n bout sout nOut a key sIn sOut EL KL Hin Dm h hInB hnIn hnOut hsIn hsOut
+
+/-- `glwe_to_lwe_decrypts`, head-room derived -/
+theorem glwe_to_lwe_decrypts_adm (big128 : Bool) (N bout sout nOut : Nat) (a : Ks.Ct) (idx : Nat) (key : Ks.Key) (sIn : List Poly)
+    (sOut : Poly) (EL KL : ℕ → ℕ → Poly) (Hin Dm : Int)
+    (h : KsSideAdm big128 N bout sout 1 (rotIn a idx) key sIn (embSk N sOut) EL KL Hin Dm)
+    (ha : GWF N a) (hInB : ∀ c ∈ a.cols, ∀ l ∈ c, ∀ x ∈ l, |x| ≤ Hin) (hidx : idx < N)
+    (hnOut : nOut ≤ N) (hsOut : sOut.length = nOut) :
+    ∃ res aConv, Ks.lweFromGlwe big128 bout sout nOut a idx key = .ok res ∧ Ks.convIn (rotIn a idx) key = .ok aConv ∧
+      res.base2k = bout ∧ res.nLwe = nOut ∧ res.data.length = sout ∧
+      ∃ e q : Int,
+        2 ^ (a.base2k * a.size + key.base2k * key.mat.size) * lwePhaseVal bout res sOut
+          = 2 ^ (bout * sout + key.base2k * key.mat.size) * valCoeff a.base2k (phase sIn a) idx + e
+            + 2 ^ (a.base2k * a.size + bout * sout + key.base2k * key.mat.size) * q ∧
+        |e| ≤ ksBound N bout sout 1 (rotIn a idx) aConv key sIn (embSk N sOut) EL :=
+  KsDec.glwe_to_lwe_decrypts_adm big128 N bout sout nOut a idx key sIn sOut EL KL Hin Dm h ha hInB hidx hnOut hsOut
+
+/-- `lwe_to_glwe_decrypts`, head-room derived -/
+theorem lwe_to_glwe_decrypts_adm (big128 : Bool) (n bout sout rout : Nat) (a : Ks.Lwe) (key : Ks.Key) (sIn : Poly) (skOut : List Poly)
+    (EL KL : ℕ → ℕ → Poly) (Hin Dm : Int)
+    (h : KsSideAdm big128 n bout sout rout (lweEmb n a) key (embSk n sIn) skOut EL KL Hin Dm)
+    (hInB : ∀ limb ∈ a.data, ∀ x ∈ limb, |x| ≤ Hin) (hnIn : a.nLwe ≤ n) (hsIn : sIn.length = a.nLwe) :
+    ∃ res aConv, Ks.glweFromLwe big128 n bout sout rout a key = .ok res ∧ Ks.convIn (lweEmb n a) key = .ok aConv ∧
+      GWF n res ∧ res.base2k = bout ∧ res.size = sout ∧ res.rank = rout ∧
+      ∃ e q : Int,
+        2 ^ (a.base2k * a.data.length + key.base2k * key.mat.size) * valCoeff bout (phase skOut res) 0
+          = 2 ^ (bout * sout + key.base2k * key.mat.size) * lwePhaseVal a.base2k a sIn + e
+            + 2 ^ (a.base2k * a.data.length + bout * sout + key.base2k * key.mat.size) * q ∧
+        |e| ≤ ksBound n bout sout rout (lweEmb n a) aConv key (embSk n sIn) skOut EL :=
+  KsDec.lwe_to_glwe_decrypts_adm big128 n bout sout rout a key sIn skOut EL KL Hin Dm h hInB hnIn hsIn
+
+/-- the crate's parameter sets are admissible for the fused forms too, by `decide` (closed instances of the `_adm` theorems with every
+hypothesis discharged: Lemmas/AdmCorollaries.lean) -/
+example : KsDec.fusedAdmShape 64 1 1 3 4096 17 (2 ^ 16) (2 ^ 16) ∧ KsDec.fusedAdmShape 64 2 2 2 1024 12 (2 ^ 11) (2 ^ 11) ∧
+    KsDec.fusedAdmShape 128 1 1 8 4096 52 (2 ^ 51) (2 ^ 51) ∧ ¬ KsDec.fusedAdmShape 64 1 1 8 4096 52 (2 ^ 51) (2 ^ 51) := by decide
+end AdmCorollariesSec
+
+section GgswDecrypt2Sec
+open KsDec Hal Core Core.Ops C02L AutoMul
+variable {M : Type*} [AddCommGroup M]
+
+/-- in-place form of `ggsw_automorphism_decrypts` -/
+theorem ggsw_automorphism_assign_decrypts (N : Nat) (big128 : Bool) (x0 : Ks.Ct) (xs : List Ks.Ct) (key : Ks.Key) (t : ToGGSWKey)
+    (cells : List (List Col)) (sk : List Poly) (gInv : Int) (EL KL : ℕ → ℕ → Poly) (ET : ℕ → ℕ → ℕ → Ks.R N) (Hin Hp HpT : Int)
+    (hN : 0 < N) (hg : GalOk key.p N) (hskl : Ks.AllLen N sk) (hinv : ∀ s ∈ sk, σ key.p (σ gInv s) = s)
+    (hrout : t.rank = key.rankOut) (hc0 : 0 < key.mat.colsOut)
+    (hD : 1 ≤ key.dsize) (hMk : ∀ j q, (key.mat.entry j q).length = N) (hSk : key.mat.rows * key.dsize ≤ key.mat.size)
+    (hbk1 : 1 ≤ key.base2k) (hbk : key.base2k ≤ 62) (hs : key.mat.colsIn ≤ sk.length)
+    (hEL : ∀ i r, (EL i r).length = N) (hKL : ∀ i r, (KL i r).length = N)
+    (hkey : ∀ i, i < key.mat.colsIn → ∀ r, r < key.mat.rows →
+      Gadget.val (Ks.radix N key.base2k) key.mat.size (Ks.keyPhase N (sk.map (σ gInv)) key.mat i r) =
+        Ks.ι N (sk.getD i []) * Ks.radix N key.base2k ^ (key.mat.size - (r + 1) * key.dsize) + Ks.ι N (EL i r)
+          + Ks.radix N key.base2k ^ key.mat.size * Ks.ι N (KL i r))
+    (hd : 1 ≤ t.dsize) (hn : t.n = N) (hS : t.dnum * t.dsize ≤ t.size) (hrank : t.rank ≤ sk.length)
+    (hMt : ∀ c, c < t.rank → ∀ j q, ((t.at c).toPMat.entry j q).length = N) (hb1 : 1 ≤ t.base2k) (hb : t.base2k ≤ 62)
+    (hkeyT : ∀ c, c < t.rank → ∀ i, i < t.rank → ∀ r, r < t.dnum →
+      Gadget.val ((2 : Ks.R N) ^ t.base2k) t.size (Ks.keyPhase N sk (t.at c).toPMat i r)
+        = Ks.ι N (sk.getD c []) * Ks.ι N (sk.getD i []) * ((2 : Ks.R N) ^ t.base2k) ^ (t.size - (r + 1) * t.dsize) + ET c i r)
+    (hcov1 : x0.size ≤ t.size) (hcov2 : x0.size ≤ t.dnum * t.dsize)
+    (hIn0 : 0 ≤ Hin) (hIn : Hin + 8 ≤ 2 ^ 62) (hHp0 : 0 ≤ Hp) (hAcc : Hp + (Hin + 2 ^ key.base2k) + 8 ≤ 2 ^ (bitsOf big128 - 2))
+    (hHpT0 : 0 ≤ HpT) (hAccT : HpT + 2 ^ t.base2k + 8 ≤ 2 ^ (bitsOf big128 - 2))
+    (hrows : ∀ (r : Nat) (x : Ks.Ct), (x0 :: xs)[r]? = some x →
+      KsRowOk N x.rank key Hin Hp x ∧ x.rank = key.rankOut ∧ x.base2k = t.base2k ∧ x.size = x0.size)
+    (hprodT : ∀ (r : Nat) (x y : Ks.Ct), (x0 :: xs)[r]? = some x → Ks.automorphism big128 x.base2k x.size x.rank x key = .ok y →
+      ∀ c, c < t.rank → ∀ col ∈ expandProd N (maskOf t y) t c, ∀ l ∈ col, ∀ v ∈ l, |v| ≤ HpT)
+    (h : Ks.ggswAutomorphismAssign big128 N (x0 :: xs) key t = .ok cells) :
+    cells.length = (x0 :: xs).length * (t.rank + 1) ∧
+      ∀ (r : Nat) (x : Ks.Ct), (x0 :: xs)[r]? = some x → ∃ y aConv, Ks.automorphism big128 x.base2k x.size x.rank x key = .ok y ∧
+        Ks.convIn x key = .ok aConv ∧ cells[r * (t.rank + 1)]? = some y.cols ∧
+        GWF N y ∧ y.base2k = t.base2k ∧ y.size = x0.size ∧ y.rank = t.rank ∧
+        ∃ (E1 E3 : Poly) (Q : Ks.R N), E1.length = N ∧ E3.length = N ∧
+          normInf (σ key.p (ksErrOf N x.base2k x.size x aConv key (sk.map (σ gInv)) EL E1 E3))
+            ≤ ksErrBound N x.base2k x.size x.rank x aConv key sk (sk.map (σ gInv)) EL ∧
+          (2 : Ks.R N) ^ (t.base2k * x0.size + key.base2k * key.mat.size) * Ks.ι N (valP t.base2k N (phase sk y))
+            = (2 : Ks.R N) ^ (t.base2k * x0.size + key.base2k * key.mat.size) * Ks.ι N (σ key.p (valP t.base2k N (phase sk x)))
+              + Ks.ι N (σ key.p (ksErrOf N x.base2k x.size x aConv key (sk.map (σ gInv)) EL E1 E3))
+              + (2 : Ks.R N) ^ (t.base2k * x0.size + key.base2k * key.mat.size + t.base2k * x0.size) * Q ∧
+          ∀ c, c < t.rank → ∃ cell, cells[r * (t.rank + 1) + (c + 1)]? = some cell ∧ cell.length = t.rank + 1 ∧
+            (∀ col ∈ cell, ColWF N x0.size col) ∧ (∀ col ∈ cell, ∀ l ∈ col, ∀ v ∈ l, |v| ≤ 2 ^ t.base2k - 1) ∧
+            ∃ E3c Q3c : Poly, E3c.length = N ∧ Q3c.length = N ∧
+              normInf E3c ≤ (1 + snorm (min t.rank sk.length) sk) * C02.normTol (t.base2k * x0.size) (t.base2k * t.size) ∧
+              (2 : Ks.R N) ^ (t.base2k * x0.size + key.base2k * key.mat.size + t.base2k * t.size) *
+                  Ks.ι N (valP t.base2k N (phase sk (Ks.mkCt t.base2k N cell)))
+                = (2 : Ks.R N) ^ (t.base2k * x0.size + key.base2k * key.mat.size + t.base2k * t.size) *
+                    (Ks.ι N (sk.getD c []) * Ks.ι N (σ key.p (valP t.base2k N (phase sk x))))
+                  + ((2 : Ks.R N) ^ (t.base2k * t.size) *
+                        (Ks.ι N (sk.getD c []) * Ks.ι N (σ key.p (ksErrOf N x.base2k x.size x aConv key (sk.map (σ gInv)) EL E1 E3)))
+                    + (2 : Ks.R N) ^ (t.base2k * x0.size + key.base2k * key.mat.size + t.base2k * x0.size) *
+                        expandErr N sk (maskOf t y) t c ((2 : Ks.R N) ^ t.base2k) (ET c)
+                    + (2 : Ks.R N) ^ (t.base2k * x0.size + key.base2k * key.mat.size) * Ks.ι N E3c)
+                  + (2 : Ks.R N) ^ (t.base2k * x0.size + key.base2k * key.mat.size + t.base2k * x0.size + t.base2k * t.size) *
+                      (Ks.ι N (sk.getD c []) * Q + Ks.ι N Q3c) :=
+  KsDec.ggsw_automorphism_assign_decrypts N big128 x0 xs key t cells sk gInv EL KL ET Hin Hp HpT hN hg hskl hinv hrout hc0 hD hMk hSk hbk1 hbk hs hEL hKL hkey hd hn hS hrank hMt hb1 hb hkeyT hcov1 hcov2 hIn0 hIn hHp0 hAcc hHpT0 hAccT hrows hprodT h
+
+/-- `ExpandOk` from digit bounds of the operands (`Da`, tensor-key digits `Dt`, body `Ha`) and the decidable `expandAdmissible`, both accumulator widths -/
+theorem expand_ok_of_digit_bounds (N : Nat) (big128 : Bool) (a0 : Col) (aDft : List Col) (t : ToGGSWKey) (c : Nat) (Da Dt Ha : Int)
+    (hDa : 0 ≤ Da) (hDt : 0 ≤ Dt) (hd : 1 ≤ t.dsize) (hn : t.n = N) (hM : ∀ j q, ((t.at c).toPMat.entry j q).length = N) (hc : c < t.rank)
+    (ha0 : LimbsN N a0) (hadm : expandAdmissible big128 t N Da Dt Ha)
+    (ha : ∀ col ∈ aDft, ∀ p ∈ col, PB' N Da p) (hm : ∀ j q, normInf ((t.at c).toPMat.entry j q) ≤ Dt)
+    (hbody : ∀ l ∈ a0, ∀ x ∈ l, |x| ≤ Ha) : ExpandOk N big128 a0 aDft t c :=
+  KsDec.expandOk_of_digit_bounds N big128 a0 aDft t c Da Dt Ha hDa hDt hd hn hM hc ha0 hadm ha hm hbody
+
+/-- **`ggsw_keyswitch_decrypts`, head-room derived**: `ksAdmissible` for the column-0 key switch, `expandAdmissible` for the expansion -/
+theorem ggsw_keyswitch_decrypts_adm (N : Nat) (big128 : Bool) (rs rd rds ab ads : Nat) (aCol0 : List Ks.Ct) (key : Ks.Key) (t : ToGGSWKey)
+    (cells : List (List Col)) (sIn skOut : List Poly) (EL KL : ℕ → ℕ → Poly) (ET : ℕ → ℕ → ℕ → Ks.R N) (Hin Dm Dt : Int)
+    (hN : 0 < N) (hrout : t.rank = key.rankOut) (hc0 : 0 < key.mat.colsOut)
+    (hD : 1 ≤ key.dsize) (hMk : ∀ j q, (key.mat.entry j q).length = N) (hSk : key.mat.rows * key.dsize ≤ key.mat.size)
+    (hbk1 : 1 ≤ key.base2k) (hbk : key.base2k ≤ 62) (hs : key.mat.colsIn ≤ sIn.length)
+    (hEL : ∀ i r, (EL i r).length = N) (hKL : ∀ i r, (KL i r).length = N)
+    (hkey : ∀ i, i < key.mat.colsIn → ∀ r, r < key.mat.rows →
+      Gadget.val (Ks.radix N key.base2k) key.mat.size (Ks.keyPhase N skOut key.mat i r) =
+        Ks.ι N (sIn.getD i []) * Ks.radix N key.base2k ^ (key.mat.size - (r + 1) * key.dsize) + Ks.ι N (EL i r)
+          + Ks.radix N key.base2k ^ key.mat.size * Ks.ι N (KL i r))
+    (hd : 1 ≤ t.dsize) (hn : t.n = N) (hS : t.dnum * t.dsize ≤ t.size) (hrank : t.rank ≤ skOut.length)
+    (hMt : ∀ c, c < t.rank → ∀ j q, ((t.at c).toPMat.entry j q).length = N) (hb1 : 1 ≤ t.base2k) (hb : t.base2k ≤ 62)
+    (hkeyT : ∀ c, c < t.rank → ∀ i, i < t.rank → ∀ r, r < t.dnum →
+      Gadget.val ((2 : Ks.R N) ^ t.base2k) t.size (Ks.keyPhase N skOut (t.at c).toPMat i r)
+        = Ks.ι N (skOut.getD c []) * Ks.ι N (skOut.getD i []) * ((2 : Ks.R N) ^ t.base2k) ^ (t.size - (r + 1) * t.dsize) + ET c i r)
+    (hcov1 : rs ≤ t.size) (hcov2 : rs ≤ t.dnum * t.dsize)
+    (hIn0 : 0 ≤ Hin) (hIn : Hin + 8 ≤ 2 ^ 62)
+    (hDm0 : 0 ≤ Dm) (hm : ∀ j q, normInf (key.mat.entry j q) ≤ Dm) (hadm : ksAdmissible big128 key N Hin Dm)
+    (hDt0 : 0 ≤ Dt) (hmT : ∀ c, c < t.rank → ∀ j q, normInf ((t.at c).toPMat.entry j q) ≤ Dt)
+    (hadmT : expandAdmissible big128 t N (2 ^ t.base2k) Dt (2 ^ t.base2k))
+    (hrows : ∀ r x, r < rd → aCol0[r]? = some x → KsRowAdm N key Hin x)
+    (h : Ks.ggswKeyswitch big128 N t.base2k rs rd rds ab ads aCol0 key t = .ok cells) :
+    cells.length = rd * (t.rank + 1) ∧
+      ∀ r, r < rd → ∃ x y aConv, aCol0[r]? = some x ∧ Ks.keyswitch big128 t.base2k rs key.rankOut x key = .ok y ∧
+        Ks.convIn x key = .ok aConv ∧ cells[r * (t.rank + 1)]? = some y.cols ∧
+        GWF N y ∧ y.base2k = t.base2k ∧ y.size = rs ∧ y.rank = t.rank ∧
+        ∃ (E1 E3 : Poly) (Q : Ks.R N), E1.length = N ∧ E3.length = N ∧
+          normInf E1 ≤ (1 + snorm (min x.rank sIn.length) sIn) * C02.normTol (key.base2k * convSize x key) (x.base2k * x.size) ∧
+          normInf E3 ≤ (1 + snorm (min key.rankOut skOut.length) skOut) * C02.normTol (t.base2k * rs) (key.base2k * key.mat.size) ∧
+          normInf (ksErrOf N t.base2k rs x aConv key skOut EL E1 E3) ≤ ksErrBound N t.base2k rs key.rankOut x aConv key sIn skOut EL ∧
+          (2 : Ks.R N) ^ (x.base2k * x.size + key.base2k * key.mat.size) * Ks.ι N (valP t.base2k N (phase skOut y))
+            = (2 : Ks.R N) ^ (t.base2k * rs + key.base2k * key.mat.size) * Ks.ι N (valP x.base2k N (phase sIn x))
+              + Ks.ι N (ksErrOf N t.base2k rs x aConv key skOut EL E1 E3)
+              + (2 : Ks.R N) ^ (x.base2k * x.size + key.base2k * key.mat.size + t.base2k * rs) * Q ∧
+          ∀ c, c < t.rank → ∃ cell, cells[r * (t.rank + 1) + (c + 1)]? = some cell ∧ cell.length = t.rank + 1 ∧
+            (∀ col ∈ cell, ColWF N rs col) ∧ (∀ col ∈ cell, ∀ l ∈ col, ∀ v ∈ l, |v| ≤ 2 ^ t.base2k - 1) ∧
+            ∃ E3c Q3c : Poly, E3c.length = N ∧ Q3c.length = N ∧
+              normInf E3c ≤ (1 + snorm (min t.rank skOut.length) skOut) * C02.normTol (t.base2k * rs) (t.base2k * t.size) ∧
+              (2 : Ks.R N) ^ (x.base2k * x.size + key.base2k * key.mat.size + t.base2k * t.size) *
+                  Ks.ι N (valP t.base2k N (phase skOut (Ks.mkCt t.base2k N cell)))
+                = (2 : Ks.R N) ^ (t.base2k * rs + key.base2k * key.mat.size + t.base2k * t.size) *
+                    (Ks.ι N (skOut.getD c []) * Ks.ι N (valP x.base2k N (phase sIn x)))
+                  + ((2 : Ks.R N) ^ (t.base2k * t.size) * (Ks.ι N (skOut.getD c []) * Ks.ι N (ksErrOf N t.base2k rs x aConv key skOut EL E1 E3))
+                    + (2 : Ks.R N) ^ (x.base2k * x.size + key.base2k * key.mat.size + t.base2k * rs) *
+                        expandErr N skOut (maskOf t y) t c ((2 : Ks.R N) ^ t.base2k) (ET c)
+                    + (2 : Ks.R N) ^ (x.base2k * x.size + key.base2k * key.mat.size) * Ks.ι N E3c)
+                  + (2 : Ks.R N) ^ (x.base2k * x.size + key.base2k * key.mat.size + t.base2k * rs + t.base2k * t.size) *
+                      (Ks.ι N (skOut.getD c []) * Q + Ks.ι N Q3c) :=
+  KsDec.ggsw_keyswitch_decrypts_adm N big128 rs rd rds ab ads aCol0 key t cells sIn skOut EL KL ET Hin Dm Dt hN hrout hc0 hD hMk hSk hbk1 hbk hs hEL hKL hkey hd hn hS hrank hMt hb1 hb hkeyT hcov1 hcov2 hIn0 hIn hDm0 hm hadm hDt0 hmT hadmT hrows h
+
+/-- same for `ggsw_automorphism` -/
+theorem ggsw_automorphism_decrypts_adm (N : Nat) (big128 : Bool) (rs rd rds ab ads : Nat) (aCol0 : List Ks.Ct) (key : Ks.Key) (t : ToGGSWKey)
+    (cells : List (List Col)) (sk : List Poly) (gInv : Int) (EL KL : ℕ → ℕ → Poly) (ET : ℕ → ℕ → ℕ → Ks.R N) (Hin Dm Dt : Int)
+    (hN : 0 < N) (hg : GalOk key.p N) (hskl : Ks.AllLen N sk) (hinv : ∀ s ∈ sk, σ key.p (σ gInv s) = s)
+    (hrout : t.rank = key.rankOut) (hc0 : 0 < key.mat.colsOut)
+    (hD : 1 ≤ key.dsize) (hMk : ∀ j q, (key.mat.entry j q).length = N) (hSk : key.mat.rows * key.dsize ≤ key.mat.size)
+    (hbk1 : 1 ≤ key.base2k) (hbk : key.base2k ≤ 62) (hs : key.mat.colsIn ≤ sk.length)
+    (hEL : ∀ i r, (EL i r).length = N) (hKL : ∀ i r, (KL i r).length = N)
+    (hkey : ∀ i, i < key.mat.colsIn → ∀ r, r < key.mat.rows →
+      Gadget.val (Ks.radix N key.base2k) key.mat.size (Ks.keyPhase N (sk.map (σ gInv)) key.mat i r) =
+        Ks.ι N (sk.getD i []) * Ks.radix N key.base2k ^ (key.mat.size - (r + 1) * key.dsize) + Ks.ι N (EL i r)
+          + Ks.radix N key.base2k ^ key.mat.size * Ks.ι N (KL i r))
+    (hd : 1 ≤ t.dsize) (hn : t.n = N) (hS : t.dnum * t.dsize ≤ t.size) (hrank : t.rank ≤ sk.length)
+    (hMt : ∀ c, c < t.rank → ∀ j q, ((t.at c).toPMat.entry j q).length = N) (hb1 : 1 ≤ t.base2k) (hb : t.base2k ≤ 62)
+    (hkeyT : ∀ c, c < t.rank → ∀ i, i < t.rank → ∀ r, r < t.dnum →
+      Gadget.val ((2 : Ks.R N) ^ t.base2k) t.size (Ks.keyPhase N sk (t.at c).toPMat i r)
+        = Ks.ι N (sk.getD c []) * Ks.ι N (sk.getD i []) * ((2 : Ks.R N) ^ t.base2k) ^ (t.size - (r + 1) * t.dsize) + ET c i r)
+    (hcov1 : rs ≤ t.size) (hcov2 : rs ≤ t.dnum * t.dsize)
+    (hIn0 : 0 ≤ Hin) (hIn : Hin + 8 ≤ 2 ^ 62)
+    (hDm0 : 0 ≤ Dm) (hm : ∀ j q, normInf (key.mat.entry j q) ≤ Dm) (hadm : ksAdmissible big128 key N Hin Dm)
+    (hDt0 : 0 ≤ Dt) (hmT : ∀ c, c < t.rank → ∀ j q, normInf ((t.at c).toPMat.entry j q) ≤ Dt)
+    (hadmT : expandAdmissible big128 t N (2 ^ t.base2k) Dt (2 ^ t.base2k))
+    (hrows : ∀ r x, r < rd → aCol0[r]? = some x → KsRowAdm N key Hin x)
+    (h : Ks.ggswAutomorphism big128 N t.base2k rs rd rds ab ads aCol0 key t = .ok cells) :
+    cells.length = rd * (t.rank + 1) ∧
+      ∀ r, r < rd → ∃ x y aConv, aCol0[r]? = some x ∧ Ks.automorphism big128 t.base2k rs key.rankOut x key = .ok y ∧
+        Ks.convIn x key = .ok aConv ∧ cells[r * (t.rank + 1)]? = some y.cols ∧
+        GWF N y ∧ y.base2k = t.base2k ∧ y.size = rs ∧ y.rank = t.rank ∧
+        ∃ (E1 E3 : Poly) (Q : Ks.R N), E1.length = N ∧ E3.length = N ∧
+          normInf E1 ≤ (1 + snorm (min x.rank sk.length) sk) * C02.normTol (key.base2k * convSize x key) (x.base2k * x.size) ∧
+          normInf E3 ≤ (1 + snorm (min key.rankOut (sk.map (σ gInv)).length) (sk.map (σ gInv))) *
+            C02.normTol (t.base2k * rs) (key.base2k * key.mat.size) ∧
+          normInf (σ key.p (ksErrOf N t.base2k rs x aConv key (sk.map (σ gInv)) EL E1 E3))
+            ≤ ksErrBound N t.base2k rs key.rankOut x aConv key sk (sk.map (σ gInv)) EL ∧
+          (2 : Ks.R N) ^ (x.base2k * x.size + key.base2k * key.mat.size) * Ks.ι N (valP t.base2k N (phase sk y))
+            = (2 : Ks.R N) ^ (t.base2k * rs + key.base2k * key.mat.size) * Ks.ι N (σ key.p (valP x.base2k N (phase sk x)))
+              + Ks.ι N (σ key.p (ksErrOf N t.base2k rs x aConv key (sk.map (σ gInv)) EL E1 E3))
+              + (2 : Ks.R N) ^ (x.base2k * x.size + key.base2k * key.mat.size + t.base2k * rs) * Q ∧
+          ∀ c, c < t.rank → ∃ cell, cells[r * (t.rank + 1) + (c + 1)]? = some cell ∧ cell.length = t.rank + 1 ∧
+            (∀ col ∈ cell, ColWF N rs col) ∧ (∀ col ∈ cell, ∀ l ∈ col, ∀ v ∈ l, |v| ≤ 2 ^ t.base2k - 1) ∧
+            ∃ E3c Q3c : Poly, E3c.length = N ∧ Q3c.length = N ∧
+              normInf E3c ≤ (1 + snorm (min t.rank sk.length) sk) * C02.normTol (t.base2k * rs) (t.base2k * t.size) ∧
+              (2 : Ks.R N) ^ (x.base2k * x.size + key.base2k * key.mat.size + t.base2k * t.size) *
+                  Ks.ι N (valP t.base2k N (phase sk (Ks.mkCt t.base2k N cell)))
+                = (2 : Ks.R N) ^ (t.base2k * rs + key.base2k * key.mat.size + t.base2k * t.size) *
+                    (Ks.ι N (sk.getD c []) * Ks.ι N (σ key.p (valP x.base2k N (phase sk x))))
+                  + ((2 : Ks.R N) ^ (t.base2k * t.size) *
+                        (Ks.ι N (sk.getD c []) * Ks.ι N (σ key.p (ksErrOf N t.base2k rs x aConv key (sk.map (σ gInv)) EL E1 E3)))
+                    + (2 : Ks.R N) ^ (x.base2k * x.size + key.base2k * key.mat.size + t.base2k * rs) *
+                        expandErr N sk (maskOf t y) t c ((2 : Ks.R N) ^ t.base2k) (ET c)
+                    + (2 : Ks.R N) ^ (x.base2k * x.size + key.base2k * key.mat.size) * Ks.ι N E3c)
+                  + (2 : Ks.R N) ^ (x.base2k * x.size + key.base2k * key.mat.size + t.base2k * rs + t.base2k * t.size) *
+                      (Ks.ι N (sk.getD c []) * Q + Ks.ι N Q3c) :=
+  KsDec.ggsw_automorphism_decrypts_adm N big128 rs rd rds ab ads aCol0 key t cells sk gInv EL KL ET Hin Dm Dt hN hg hskl hinv hrout hc0 hD hMk hSk hbk1 hbk hs hEL hKL hkey hd hn hS hrank hMt hb1 hb hkeyT hcov1 hcov2 hIn0 hIn hDm0 hm hadm hDt0 hmT hadmT hrows h
+
+/-- in-place -/
+theorem ggsw_keyswitch_assign_decrypts_adm (N : Nat) (big128 : Bool) (x0 : Ks.Ct) (xs : List Ks.Ct) (key : Ks.Key) (t : ToGGSWKey)
+    (cells : List (List Col)) (sIn skOut : List Poly) (EL KL : ℕ → ℕ → Poly) (ET : ℕ → ℕ → ℕ → Ks.R N) (Hin Dm Dt : Int)
+    (hN : 0 < N) (hrout : t.rank = key.rankOut) (hc0 : 0 < key.mat.colsOut)
+    (hD : 1 ≤ key.dsize) (hMk : ∀ j q, (key.mat.entry j q).length = N) (hSk : key.mat.rows * key.dsize ≤ key.mat.size)
+    (hbk1 : 1 ≤ key.base2k) (hbk : key.base2k ≤ 62) (hs : key.mat.colsIn ≤ sIn.length)
+    (hEL : ∀ i r, (EL i r).length = N) (hKL : ∀ i r, (KL i r).length = N)
+    (hkey : ∀ i, i < key.mat.colsIn → ∀ r, r < key.mat.rows →
+      Gadget.val (Ks.radix N key.base2k) key.mat.size (Ks.keyPhase N skOut key.mat i r) =
+        Ks.ι N (sIn.getD i []) * Ks.radix N key.base2k ^ (key.mat.size - (r + 1) * key.dsize) + Ks.ι N (EL i r)
+          + Ks.radix N key.base2k ^ key.mat.size * Ks.ι N (KL i r))
+    (hd : 1 ≤ t.dsize) (hn : t.n = N) (hS : t.dnum * t.dsize ≤ t.size) (hrank : t.rank ≤ skOut.length)
+    (hMt : ∀ c, c < t.rank → ∀ j q, ((t.at c).toPMat.entry j q).length = N) (hb1 : 1 ≤ t.base2k) (hb : t.base2k ≤ 62)
+    (hkeyT : ∀ c, c < t.rank → ∀ i, i < t.rank → ∀ r, r < t.dnum →
+      Gadget.val ((2 : Ks.R N) ^ t.base2k) t.size (Ks.keyPhase N skOut (t.at c).toPMat i r)
+        = Ks.ι N (skOut.getD c []) * Ks.ι N (skOut.getD i []) * ((2 : Ks.R N) ^ t.base2k) ^ (t.size - (r + 1) * t.dsize) + ET c i r)
+    (hcov1 : x0.size ≤ t.size) (hcov2 : x0.size ≤ t.dnum * t.dsize)
+    (hIn0 : 0 ≤ Hin) (hIn : Hin + 8 ≤ 2 ^ 62)
+    (hDm0 : 0 ≤ Dm) (hm : ∀ j q, normInf (key.mat.entry j q) ≤ Dm) (hadm : ksAdmissible big128 key N Hin Dm)
+    (hDt0 : 0 ≤ Dt) (hmT : ∀ c, c < t.rank → ∀ j q, normInf ((t.at c).toPMat.entry j q) ≤ Dt)
+    (hadmT : expandAdmissible big128 t N (2 ^ t.base2k) Dt (2 ^ t.base2k))
+    (hrows : ∀ (r : Nat) (x : Ks.Ct), (x0 :: xs)[r]? = some x →
+      KsRowAdm N key Hin x ∧ x.rank = key.rankOut ∧ x.base2k = t.base2k ∧ x.size = x0.size)
+    (h : Ks.ggswKeyswitchAssign big128 N (x0 :: xs) key t = .ok cells) :
+    cells.length = (x0 :: xs).length * (t.rank + 1) ∧
+      ∀ (r : Nat) (x : Ks.Ct), (x0 :: xs)[r]? = some x → ∃ y aConv, Ks.keyswitch big128 x.base2k x.size x.rank x key = .ok y ∧
+        Ks.convIn x key = .ok aConv ∧ cells[r * (t.rank + 1)]? = some y.cols ∧
+        GWF N y ∧ y.base2k = t.base2k ∧ y.size = x0.size ∧ y.rank = t.rank ∧
+        ∃ (E1 E3 : Poly) (Q : Ks.R N), E1.length = N ∧ E3.length = N ∧
+          normInf (ksErrOf N x.base2k x.size x aConv key skOut EL E1 E3) ≤ ksErrBound N x.base2k x.size x.rank x aConv key sIn skOut EL ∧
+          (2 : Ks.R N) ^ (t.base2k * x0.size + key.base2k * key.mat.size) * Ks.ι N (valP t.base2k N (phase skOut y))
+            = (2 : Ks.R N) ^ (t.base2k * x0.size + key.base2k * key.mat.size) * Ks.ι N (valP t.base2k N (phase sIn x))
+              + Ks.ι N (ksErrOf N x.base2k x.size x aConv key skOut EL E1 E3)
+              + (2 : Ks.R N) ^ (t.base2k * x0.size + key.base2k * key.mat.size + t.base2k * x0.size) * Q ∧
+          ∀ c, c < t.rank → ∃ cell, cells[r * (t.rank + 1) + (c + 1)]? = some cell ∧ cell.length = t.rank + 1 ∧
+            (∀ col ∈ cell, ColWF N x0.size col) ∧ (∀ col ∈ cell, ∀ l ∈ col, ∀ v ∈ l, |v| ≤ 2 ^ t.base2k - 1) ∧
+            ∃ E3c Q3c : Poly, E3c.length = N ∧ Q3c.length = N ∧
+              normInf E3c ≤ (1 + snorm (min t.rank skOut.length) skOut) * C02.normTol (t.base2k * x0.size) (t.base2k * t.size) ∧
+              (2 : Ks.R N) ^ (t.base2k * x0.size + key.base2k * key.mat.size + t.base2k * t.size) *
+                  Ks.ι N (valP t.base2k N (phase skOut (Ks.mkCt t.base2k N cell)))
+                = (2 : Ks.R N) ^ (t.base2k * x0.size + key.base2k * key.mat.size + t.base2k * t.size) *
+                    (Ks.ι N (skOut.getD c []) * Ks.ι N (valP t.base2k N (phase sIn x)))
+                  + ((2 : Ks.R N) ^ (t.base2k * t.size) *
+                        (Ks.ι N (skOut.getD c []) * Ks.ι N (ksErrOf N x.base2k x.size x aConv key skOut EL E1 E3))
+                    + (2 : Ks.R N) ^ (t.base2k * x0.size + key.base2k * key.mat.size + t.base2k * x0.size) *
+                        expandErr N skOut (maskOf t y) t c ((2 : Ks.R N) ^ t.base2k) (ET c)
+                    + (2 : Ks.R N) ^ (t.base2k * x0.size + key.base2k * key.mat.size) * Ks.ι N E3c)
+                  + (2 : Ks.R N) ^ (t.base2k * x0.size + key.base2k * key.mat.size + t.base2k * x0.size + t.base2k * t.size) *
+                      (Ks.ι N (skOut.getD c []) * Q + Ks.ι N Q3c) :=
+  KsDec.ggsw_keyswitch_assign_decrypts_adm N big128 x0 xs key t cells sIn skOut EL KL ET Hin Dm Dt hN hrout hc0 hD hMk hSk hbk1 hbk hs hEL hKL hkey hd hn hS hrank hMt hb1 hb hkeyT hcov1 hcov2 hIn0 hIn hDm0 hm hadm hDt0 hmT hadmT hrows h
+
+/-- in-place -/
+theorem ggsw_automorphism_assign_decrypts_adm (N : Nat) (big128 : Bool) (x0 : Ks.Ct) (xs : List Ks.Ct) (key : Ks.Key) (t : ToGGSWKey)
+    (cells : List (List Col)) (sk : List Poly) (gInv : Int) (EL KL : ℕ → ℕ → Poly) (ET : ℕ → ℕ → ℕ → Ks.R N) (Hin Dm Dt : Int)
+    (hN : 0 < N) (hg : GalOk key.p N) (hskl : Ks.AllLen N sk) (hinv : ∀ s ∈ sk, σ key.p (σ gInv s) = s)
+    (hrout : t.rank = key.rankOut) (hc0 : 0 < key.mat.colsOut)
+    (hD : 1 ≤ key.dsize) (hMk : ∀ j q, (key.mat.entry j q).length = N) (hSk : key.mat.rows * key.dsize ≤ key.mat.size)
+    (hbk1 : 1 ≤ key.base2k) (hbk : key.base2k ≤ 62) (hs : key.mat.colsIn ≤ sk.length)
+    (hEL : ∀ i r, (EL i r).length = N) (hKL : ∀ i r, (KL i r).length = N)
+    (hkey : ∀ i, i < key.mat.colsIn → ∀ r, r < key.mat.rows →
+      Gadget.val (Ks.radix N key.base2k) key.mat.size (Ks.keyPhase N (sk.map (σ gInv)) key.mat i r) =
+        Ks.ι N (sk.getD i []) * Ks.radix N key.base2k ^ (key.mat.size - (r + 1) * key.dsize) + Ks.ι N (EL i r)
+          + Ks.radix N key.base2k ^ key.mat.size * Ks.ι N (KL i r))
+    (hd : 1 ≤ t.dsize) (hn : t.n = N) (hS : t.dnum * t.dsize ≤ t.size) (hrank : t.rank ≤ sk.length)
+    (hMt : ∀ c, c < t.rank → ∀ j q, ((t.at c).toPMat.entry j q).length = N) (hb1 : 1 ≤ t.base2k) (hb : t.base2k ≤ 62)
+    (hkeyT : ∀ c, c < t.rank → ∀ i, i < t.rank → ∀ r, r < t.dnum →
+      Gadget.val ((2 : Ks.R N) ^ t.base2k) t.size (Ks.keyPhase N sk (t.at c).toPMat i r)
+        = Ks.ι N (sk.getD c []) * Ks.ι N (sk.getD i []) * ((2 : Ks.R N) ^ t.base2k) ^ (t.size - (r + 1) * t.dsize) + ET c i r)
+    (hcov1 : x0.size ≤ t.size) (hcov2 : x0.size ≤ t.dnum * t.dsize)
+    (hIn0 : 0 ≤ Hin) (hIn : Hin + 8 ≤ 2 ^ 62)
+    (hDm0 : 0 ≤ Dm) (hm : ∀ j q, normInf (key.mat.entry j q) ≤ Dm) (hadm : ksAdmissible big128 key N Hin Dm)
+    (hDt0 : 0 ≤ Dt) (hmT : ∀ c, c < t.rank → ∀ j q, normInf ((t.at c).toPMat.entry j q) ≤ Dt)
+    (hadmT : expandAdmissible big128 t N (2 ^ t.base2k) Dt (2 ^ t.base2k))
+    (hrows : ∀ (r : Nat) (x : Ks.Ct), (x0 :: xs)[r]? = some x →
+      KsRowAdm N key Hin x ∧ x.rank = key.rankOut ∧ x.base2k = t.base2k ∧ x.size = x0.size)
+    (h : Ks.ggswAutomorphismAssign big128 N (x0 :: xs) key t = .ok cells) :
+    cells.length = (x0 :: xs).length * (t.rank + 1) ∧
+      ∀ (r : Nat) (x : Ks.Ct), (x0 :: xs)[r]? = some x → ∃ y aConv, Ks.automorphism big128 x.base2k x.size x.rank x key = .ok y ∧
+        Ks.convIn x key = .ok aConv ∧ cells[r * (t.rank + 1)]? = some y.cols ∧
+        GWF N y ∧ y.base2k = t.base2k ∧ y.size = x0.size ∧ y.rank = t.rank ∧
+        ∃ (E1 E3 : Poly) (Q : Ks.R N), E1.length = N ∧ E3.length = N ∧
+          normInf (σ key.p (ksErrOf N x.base2k x.size x aConv key (sk.map (σ gInv)) EL E1 E3))
+            ≤ ksErrBound N x.base2k x.size x.rank x aConv key sk (sk.map (σ gInv)) EL ∧
+          (2 : Ks.R N) ^ (t.base2k * x0.size + key.base2k * key.mat.size) * Ks.ι N (valP t.base2k N (phase sk y))
+            = (2 : Ks.R N) ^ (t.base2k * x0.size + key.base2k * key.mat.size) * Ks.ι N (σ key.p (valP t.base2k N (phase sk x)))
+              + Ks.ι N (σ key.p (ksErrOf N x.base2k x.size x aConv key (sk.map (σ gInv)) EL E1 E3))
+              + (2 : Ks.R N) ^ (t.base2k * x0.size + key.base2k * key.mat.size + t.base2k * x0.size) * Q ∧
+          ∀ c, c < t.rank → ∃ cell, cells[r * (t.rank + 1) + (c + 1)]? = some cell ∧ cell.length = t.rank + 1 ∧
+            (∀ col ∈ cell, ColWF N x0.size col) ∧ (∀ col ∈ cell, ∀ l ∈ col, ∀ v ∈ l, |v| ≤ 2 ^ t.base2k - 1) ∧
+            ∃ E3c Q3c : Poly, E3c.length = N ∧ Q3c.length = N ∧
+              normInf E3c ≤ (1 + snorm (min t.rank sk.length) sk) * C02.normTol (t.base2k * x0.size) (t.base2k * t.size) ∧
+              (2 : Ks.R N) ^ (t.base2k * x0.size + key.base2k * key.mat.size + t.base2k * t.size) *
+                  Ks.ι N (valP t.base2k N (phase sk (Ks.mkCt t.base2k N cell)))
+                = (2 : Ks.R N) ^ (t.base2k * x0.size + key.base2k * key.mat.size + t.base2k * t.size) *
+                    (Ks.ι N (sk.getD c []) * Ks.ι N (σ key.p (valP t.base2k N (phase sk x))))
+                  + ((2 : Ks.R N) ^ (t.base2k * t.size) *
+                        (Ks.ι N (sk.getD c []) * Ks.ι N (σ key.p (ksErrOf N x.base2k x.size x aConv key (sk.map (σ gInv)) EL E1 E3)))
+                    + (2 : Ks.R N) ^ (t.base2k * x0.size + key.base2k * key.mat.size + t.base2k * x0.size) *
+                        expandErr N sk (maskOf t y) t c ((2 : Ks.R N) ^ t.base2k) (ET c)
+                    + (2 : Ks.R N) ^ (t.base2k * x0.size + key.base2k * key.mat.size) * Ks.ι N E3c)
+                  + (2 : Ks.R N) ^ (t.base2k * x0.size + key.base2k * key.mat.size + t.base2k * x0.size + t.base2k * t.size) *
+                      (Ks.ι N (sk.getD c []) * Q + Ks.ι N Q3c) :=
+  KsDec.ggsw_automorphism_assign_decrypts_adm N big128 x0 xs key t cells sk gInv EL KL ET Hin Dm Dt hN hg hskl hinv hrout hc0 hD hMk hSk hbk1 hbk hs hEL hKL hkey hd hn hS hrank hMt hb1 hb hkeyT hcov1 hcov2 hIn0 hIn hDm0 hm hadm hDt0 hmT hadmT hrows h
+
+/-- **GGSW → key switch → GGSW, head-room derived** -/
+theorem ggsw_keyswitch_wellformed_adm (N : Nat) (big128 : Bool) (rs rd rds ab ads : Nat) (aCol0 : List Ks.Ct) (key : Ks.Key) (t : ToGGSWKey)
+    (cells : List (List Col)) (sIn skOut : List Poly) (EL KL : ℕ → ℕ → Poly) (ET : ℕ → ℕ → ℕ → Ks.R N) (Hin Dm Dt : Int)
+    (m : Ks.R N) (eIn : ℕ → Ks.R N)
+    (hN : 0 < N) (hrout : t.rank = key.rankOut) (hc0 : 0 < key.mat.colsOut)
+    (hD : 1 ≤ key.dsize) (hMk : ∀ j q, (key.mat.entry j q).length = N) (hSk : key.mat.rows * key.dsize ≤ key.mat.size)
+    (hbk1 : 1 ≤ key.base2k) (hbk : key.base2k ≤ 62) (hs : key.mat.colsIn ≤ sIn.length)
+    (hEL : ∀ i r, (EL i r).length = N) (hKL : ∀ i r, (KL i r).length = N)
+    (hkey : ∀ i, i < key.mat.colsIn → ∀ r, r < key.mat.rows →
+      Gadget.val (Ks.radix N key.base2k) key.mat.size (Ks.keyPhase N skOut key.mat i r) =
+        Ks.ι N (sIn.getD i []) * Ks.radix N key.base2k ^ (key.mat.size - (r + 1) * key.dsize) + Ks.ι N (EL i r)
+          + Ks.radix N key.base2k ^ key.mat.size * Ks.ι N (KL i r))
+    (hd : 1 ≤ t.dsize) (hn : t.n = N) (hS : t.dnum * t.dsize ≤ t.size) (hrank : t.rank ≤ skOut.length)
+    (hMt : ∀ c, c < t.rank → ∀ j q, ((t.at c).toPMat.entry j q).length = N) (hb1 : 1 ≤ t.base2k) (hb : t.base2k ≤ 62)
+    (hkeyT : ∀ c, c < t.rank → ∀ i, i < t.rank → ∀ r, r < t.dnum →
+      Gadget.val ((2 : Ks.R N) ^ t.base2k) t.size (Ks.keyPhase N skOut (t.at c).toPMat i r)
+        = Ks.ι N (skOut.getD c []) * Ks.ι N (skOut.getD i []) * ((2 : Ks.R N) ^ t.base2k) ^ (t.size - (r + 1) * t.dsize) + ET c i r)
+    (hcov1 : rs ≤ t.size) (hcov2 : rs ≤ t.dnum * t.dsize)
+    (hIn0 : 0 ≤ Hin) (hIn : Hin + 8 ≤ 2 ^ 62)
+    (hDm0 : 0 ≤ Dm) (hm : ∀ j q, normInf (key.mat.entry j q) ≤ Dm) (hadm : ksAdmissible big128 key N Hin Dm)
+    (hDt0 : 0 ≤ Dt) (hmT : ∀ c, c < t.rank → ∀ j q, normInf ((t.at c).toPMat.entry j q) ≤ Dt)
+    (hadmT : expandAdmissible big128 t N (2 ^ t.base2k) Dt (2 ^ t.base2k))
+    (hrows : ∀ r x, r < rd → aCol0[r]? = some x → KsRowAdm N key Hin x)
+    (hop : ∀ r x, r < rd → aCol0[r]? = some x → x.base2k = t.base2k ∧ (r + 1) * ads ≤ x.size ∧
+      Ks.ι N (valP t.base2k N (phase sIn x)) = m * ((2 : Ks.R N) ^ t.base2k) ^ (x.size - (r + 1) * ads) + eIn r)
+    (hdsr : rd * ads ≤ rs)
+    (h : Ks.ggswKeyswitch big128 N t.base2k rs rd rds ab ads aCol0 key t = .ok cells) :
+    cells.length = rd * (t.rank + 1) ∧
+      ∀ r, r < rd → ∃ x y aConv, aCol0[r]? = some x ∧ Ks.keyswitch big128 t.base2k rs key.rankOut x key = .ok y ∧
+        Ks.convIn x key = .ok aConv ∧ cells[r * (t.rank + 1)]? = some y.cols ∧ GWF N y ∧ y.size = rs ∧ y.rank = t.rank ∧
+        ∃ (E1 E3 : Poly) (Q : Ks.R N),
+          normInf (ksErrOf N t.base2k rs x aConv key skOut EL E1 E3) ≤ ksErrBound N t.base2k rs key.rankOut x aConv key sIn skOut EL ∧
+          (2 : Ks.R N) ^ (t.base2k * x.size + key.base2k * key.mat.size) * Ks.ι N (valP t.base2k N (phase skOut y))
+            = (2 : Ks.R N) ^ (t.base2k * x.size + key.base2k * key.mat.size) *
+                (m * 1 * ((2 : Ks.R N) ^ t.base2k) ^ (rs - (r + 1) * ads))
+              + ((2 : Ks.R N) ^ (t.base2k * rs + key.base2k * key.mat.size) * eIn r
+                  + Ks.ι N (ksErrOf N t.base2k rs x aConv key skOut EL E1 E3))
+              + (2 : Ks.R N) ^ (t.base2k * x.size + key.base2k * key.mat.size) * (((2 : Ks.R N) ^ t.base2k) ^ rs * Q) ∧
+          ∀ c, c < t.rank → ∃ cell, cells[r * (t.rank + 1) + (c + 1)]? = some cell ∧ cell.length = t.rank + 1 ∧
+            (∀ col ∈ cell, ColWF N rs col) ∧ (∀ col ∈ cell, ∀ l ∈ col, ∀ v ∈ l, |v| ≤ 2 ^ t.base2k - 1) ∧
+            ∃ E3c Q3c : Poly, E3c.length = N ∧ Q3c.length = N ∧
+              normInf E3c ≤ (1 + snorm (min t.rank skOut.length) skOut) * C02.normTol (t.base2k * rs) (t.base2k * t.size) ∧
+              (2 : Ks.R N) ^ (t.base2k * x.size + key.base2k * key.mat.size + t.base2k * t.size) *
+                  Ks.ι N (valP t.base2k N (phase skOut (Ks.mkCt t.base2k N cell)))
+                = (2 : Ks.R N) ^ (t.base2k * x.size + key.base2k * key.mat.size + t.base2k * t.size) *
+                    (m * Ks.ι N (skOut.getD c []) * ((2 : Ks.R N) ^ t.base2k) ^ (rs - (r + 1) * ads))
+                  + ((2 : Ks.R N) ^ (t.base2k * rs + key.base2k * key.mat.size + t.base2k * t.size) * (Ks.ι N (skOut.getD c []) * eIn r)
+                    + ((2 : Ks.R N) ^ (t.base2k * t.size) * (Ks.ι N (skOut.getD c []) * Ks.ι N (ksErrOf N t.base2k rs x aConv key skOut EL E1 E3))
+                      + (2 : Ks.R N) ^ (t.base2k * x.size + key.base2k * key.mat.size + t.base2k * rs) *
+                          expandErr N skOut (maskOf t y) t c ((2 : Ks.R N) ^ t.base2k) (ET c)
+                      + (2 : Ks.R N) ^ (t.base2k * x.size + key.base2k * key.mat.size) * Ks.ι N E3c))
+                  + (2 : Ks.R N) ^ (t.base2k * x.size + key.base2k * key.mat.size + t.base2k * t.size) *
+                      (((2 : Ks.R N) ^ t.base2k) ^ rs * (Ks.ι N (skOut.getD c []) * Q + Ks.ι N Q3c)) :=
+  KsDec.ggsw_keyswitch_wellformed_adm N big128 rs rd rds ab ads aCol0 key t cells sIn skOut EL KL ET Hin Dm Dt m eIn hN hrout hc0 hD hMk hSk hbk1 hbk hs hEL hKL hkey hd hn hS hrank hMt hb1 hb hkeyT hcov1 hcov2 hIn0 hIn hDm0 hm hadm hDt0 hmT hadmT hrows hop hdsr h
+
+/-- same with `σ_p(m)` -/
+theorem ggsw_automorphism_wellformed_adm (N : Nat) (big128 : Bool) (rs rd rds ab ads : Nat) (aCol0 : List Ks.Ct) (key : Ks.Key) (t : ToGGSWKey)
+    (cells : List (List Col)) (sk : List Poly) (gInv : Int) (EL KL : ℕ → ℕ → Poly) (ET : ℕ → ℕ → ℕ → Ks.R N) (Hin Dm Dt : Int)
+    (m : Ks.R N) (eIn : ℕ → Ks.R N)
+    (hN : 0 < N) (hg : GalOk key.p N) (hskl : Ks.AllLen N sk) (hinv : ∀ s ∈ sk, σ key.p (σ gInv s) = s)
+    (hrout : t.rank = key.rankOut) (hc0 : 0 < key.mat.colsOut)
+    (hD : 1 ≤ key.dsize) (hMk : ∀ j q, (key.mat.entry j q).length = N) (hSk : key.mat.rows * key.dsize ≤ key.mat.size)
+    (hbk1 : 1 ≤ key.base2k) (hbk : key.base2k ≤ 62) (hs : key.mat.colsIn ≤ sk.length)
+    (hEL : ∀ i r, (EL i r).length = N) (hKL : ∀ i r, (KL i r).length = N)
+    (hkey : ∀ i, i < key.mat.colsIn → ∀ r, r < key.mat.rows →
+      Gadget.val (Ks.radix N key.base2k) key.mat.size (Ks.keyPhase N (sk.map (σ gInv)) key.mat i r) =
+        Ks.ι N (sk.getD i []) * Ks.radix N key.base2k ^ (key.mat.size - (r + 1) * key.dsize) + Ks.ι N (EL i r)
+          + Ks.radix N key.base2k ^ key.mat.size * Ks.ι N (KL i r))
+    (hd : 1 ≤ t.dsize) (hn : t.n = N) (hS : t.dnum * t.dsize ≤ t.size) (hrank : t.rank ≤ sk.length)
+    (hMt : ∀ c, c < t.rank → ∀ j q, ((t.at c).toPMat.entry j q).length = N) (hb1 : 1 ≤ t.base2k) (hb : t.base2k ≤ 62)
+    (hkeyT : ∀ c, c < t.rank → ∀ i, i < t.rank → ∀ r, r < t.dnum →
+      Gadget.val ((2 : Ks.R N) ^ t.base2k) t.size (Ks.keyPhase N sk (t.at c).toPMat i r)
+        = Ks.ι N (sk.getD c []) * Ks.ι N (sk.getD i []) * ((2 : Ks.R N) ^ t.base2k) ^ (t.size - (r + 1) * t.dsize) + ET c i r)
+    (hcov1 : rs ≤ t.size) (hcov2 : rs ≤ t.dnum * t.dsize)
+    (hIn0 : 0 ≤ Hin) (hIn : Hin + 8 ≤ 2 ^ 62)
+    (hDm0 : 0 ≤ Dm) (hm : ∀ j q, normInf (key.mat.entry j q) ≤ Dm) (hadm : ksAdmissible big128 key N Hin Dm)
+    (hDt0 : 0 ≤ Dt) (hmT : ∀ c, c < t.rank → ∀ j q, normInf ((t.at c).toPMat.entry j q) ≤ Dt)
+    (hadmT : expandAdmissible big128 t N (2 ^ t.base2k) Dt (2 ^ t.base2k))
+    (hrows : ∀ r x, r < rd → aCol0[r]? = some x → KsRowAdm N key Hin x)
+    (hop : ∀ r x, r < rd → aCol0[r]? = some x → x.base2k = t.base2k ∧ (r + 1) * ads ≤ x.size ∧
+      Ks.ι N (valP t.base2k N (phase sk x)) = m * ((2 : Ks.R N) ^ t.base2k) ^ (x.size - (r + 1) * ads) + eIn r)
+    (hdsr : rd * ads ≤ rs)
+    (h : Ks.ggswAutomorphism big128 N t.base2k rs rd rds ab ads aCol0 key t = .ok cells) :
+    cells.length = rd * (t.rank + 1) ∧
+      ∀ r, r < rd → ∃ x y aConv, aCol0[r]? = some x ∧ Ks.automorphism big128 t.base2k rs key.rankOut x key = .ok y ∧
+        Ks.convIn x key = .ok aConv ∧ cells[r * (t.rank + 1)]? = some y.cols ∧ GWF N y ∧ y.size = rs ∧ y.rank = t.rank ∧
+        ∃ (E1 E3 : Poly) (Q : Ks.R N),
+          normInf (σ key.p (ksErrOf N t.base2k rs x aConv key (sk.map (σ gInv)) EL E1 E3))
+            ≤ ksErrBound N t.base2k rs key.rankOut x aConv key sk (sk.map (σ gInv)) EL ∧
+          (2 : Ks.R N) ^ (t.base2k * x.size + key.base2k * key.mat.size) * Ks.ι N (valP t.base2k N (phase sk y))
+            = (2 : Ks.R N) ^ (t.base2k * x.size + key.base2k * key.mat.size) *
+                (gal N key.p hN hg m * 1 * ((2 : Ks.R N) ^ t.base2k) ^ (rs - (r + 1) * ads))
+              + ((2 : Ks.R N) ^ (t.base2k * rs + key.base2k * key.mat.size) * gal N key.p hN hg (eIn r)
+                  + Ks.ι N (σ key.p (ksErrOf N t.base2k rs x aConv key (sk.map (σ gInv)) EL E1 E3)))
+              + (2 : Ks.R N) ^ (t.base2k * x.size + key.base2k * key.mat.size) * (((2 : Ks.R N) ^ t.base2k) ^ rs * Q) ∧
+          ∀ c, c < t.rank → ∃ cell, cells[r * (t.rank + 1) + (c + 1)]? = some cell ∧ cell.length = t.rank + 1 ∧
+            (∀ col ∈ cell, ColWF N rs col) ∧ (∀ col ∈ cell, ∀ l ∈ col, ∀ v ∈ l, |v| ≤ 2 ^ t.base2k - 1) ∧
+            ∃ E3c Q3c : Poly, E3c.length = N ∧ Q3c.length = N ∧
+              normInf E3c ≤ (1 + snorm (min t.rank sk.length) sk) * C02.normTol (t.base2k * rs) (t.base2k * t.size) ∧
+              (2 : Ks.R N) ^ (t.base2k * x.size + key.base2k * key.mat.size + t.base2k * t.size) *
+                  Ks.ι N (valP t.base2k N (phase sk (Ks.mkCt t.base2k N cell)))
+                = (2 : Ks.R N) ^ (t.base2k * x.size + key.base2k * key.mat.size + t.base2k * t.size) *
+                    (gal N key.p hN hg m * Ks.ι N (sk.getD c []) * ((2 : Ks.R N) ^ t.base2k) ^ (rs - (r + 1) * ads))
+                  + ((2 : Ks.R N) ^ (t.base2k * rs + key.base2k * key.mat.size + t.base2k * t.size) *
+                        (Ks.ι N (sk.getD c []) * gal N key.p hN hg (eIn r))
+                    + ((2 : Ks.R N) ^ (t.base2k * t.size) *
+                          (Ks.ι N (sk.getD c []) * Ks.ι N (σ key.p (ksErrOf N t.base2k rs x aConv key (sk.map (σ gInv)) EL E1 E3)))
+                      + (2 : Ks.R N) ^ (t.base2k * x.size + key.base2k * key.mat.size + t.base2k * rs) *
+                          expandErr N sk (maskOf t y) t c ((2 : Ks.R N) ^ t.base2k) (ET c)
+                      + (2 : Ks.R N) ^ (t.base2k * x.size + key.base2k * key.mat.size) * Ks.ι N E3c))
+                  + (2 : Ks.R N) ^ (t.base2k * x.size + key.base2k * key.mat.size + t.base2k * t.size) *
+                      (((2 : Ks.R N) ^ t.base2k) ^ rs * (Ks.ι N (sk.getD c []) * Q + Ks.ι N Q3c)) :=
+  KsDec.ggsw_automorphism_wellformed_adm N big128 rs rd rds ab ads aCol0 key t cells sk gInv EL KL ET Hin Dm Dt m eIn hN hg hskl hinv hrout hc0 hD hMk hSk hbk1 hbk hs hEL hKL hkey hd hn hS hrank hMt hb1 hb hkeyT hcov1 hcov2 hIn0 hIn hDm0 hm hadm hDt0 hmT hadmT hrows hop hdsr h
+
+/-- the expansion is admissible on the crate's shapes, by `decide` -/
+example : KsDec.expandAdmissible false (KsDec.shapeT 17 4096 1 1 3 3) 4096 (2 ^ 17) (2 ^ 16) (2 ^ 17) ∧
+    KsDec.expandAdmissible true (KsDec.shapeT 52 4096 1 1 8 8) 4096 (2 ^ 52) (2 ^ 51) (2 ^ 52) ∧
+    ¬ KsDec.expandAdmissible false (KsDec.shapeT 52 4096 1 1 8 8) 4096 (2 ^ 52) (2 ^ 51) (2 ^ 52) := by decide
+end GgswDecrypt2Sec
+
+section TraceExecSec
+open KsDec Hal Core Core.Ops C02L AutoMul TraceJump
+variable {M : Type*} [AddCommGroup M]
+
+/-- **one executed trace level** (`glwe_rsh 1` — C02's `rsh_phase`, every scratch content — then `glwe_automorphism_add_assign` — `glwe_automorphism_add_decrypts`): the pair of relations `2φ' = φ + e + 2Q·k`, `c·φ⁺ = c·(φ' + σφ') + Err + c·Q·k'` with `‖e‖_∞ ≤ 2(1+‖sk‖₁)` and the automorphism noise bound; the result is again well formed with balanced digits -/
+theorem trace_level_decrypts (big128 : Bool) (N : Nat) (res : Ks.Ct) (key : Ks.Key) (sk : List Poly) (gInv : Int)
+    (EL KL : ℕ → ℕ → Poly) (H Dm BA : Int)
+    (hN : 0 < N) (hsk : Ks.AllLen N sk) (hg : GalOk key.p N)
+    (hr : GWF N res) (hh : NormL.HeadRoom 64 res.base2k 0 H) (hb62 : res.base2k ≤ 62) (hbd : GBound H res)
+    (hk : TraceKeyOk big128 N res.base2k res.size res.rank sk key gInv EL KL Dm BA) :
+    ∃ r1 r2, Ks.glweRsh 1 res = .ok r1 ∧
+      Ks.automorphismFused .add big128 (Ks.zeroBuf res.n (r1.rank + 1) key.size) r1.base2k r1.size r1.rank r1 key = .ok r2 ∧
+      GWF N r2 ∧ r2.base2k = res.base2k ∧ r2.size = res.size ∧ r2.rank = res.rank ∧ GBound (2 ^ res.base2k - 1) r2 ∧
+      ∃ (e EA : Poly) (k k' : Ks.R N), e.length = N ∧ EA.length = N ∧
+        normInf e ≤ 2 * (1 + snorm (min res.rank sk.length) sk) ∧ normInf EA ≤ BA ∧
+        2 • Ks.ι N (valP res.base2k N (phase sk r1))
+          = Ks.ι N (valP res.base2k N (phase sk res)) + Ks.ι N e + (2 * 2 ^ (res.base2k * res.size) : ℤ) • k ∧
+        (2 ^ (res.base2k * res.size + res.base2k * key.mat.size) : ℤ) • Ks.ι N (valP res.base2k N (phase sk r2))
+          = (2 ^ (res.base2k * res.size + res.base2k * key.mat.size) : ℤ) • Ks.ι N (valP res.base2k N (phase sk r1))
+            + (2 ^ (res.base2k * res.size + res.base2k * key.mat.size) : ℤ) • Ks.ι N (σ key.p (valP res.base2k N (phase sk r1)))
+            + Ks.ι N EA
+            + (2 ^ (res.base2k * res.size + res.base2k * key.mat.size) * 2 ^ (res.base2k * res.size) : ℤ) • k' :=
+  KsDec.trace_level_decrypts big128 N res key sk gInv EL KL H Dm BA hN hsk hg hr hh hb62 hbd hk
+
+/-- the executed `Ks.traceLoop` unrolled level by level (invariant: shape, head-room) -/
+theorem trace_loop_unroll (big128 : Bool) (K : ℕ) (hK : K + 1 ≤ 64) (keys : List Ks.Key) (sk : List Poly) (b S Sk rk : ℕ) (H : ℤ)
+    (BA : ℕ → ℤ) (hsk : Ks.AllLen (2 ^ K) sk) (hh : NormL.HeadRoom 64 b 0 H) (hb62 : b ≤ 62) (hH : 2 ^ b - 1 ≤ H)
+    (hkeys : ∀ i p key, Ks.traceGalois (2 ^ K) i = .ok p → key ∈ keys → key.p = p →
+      key.mat.size = Sk ∧ ∃ gInv EL KL Dm, TraceKeyOk big128 (2 ^ K) b S rk sk key gInv EL KL Dm (BA i))
+    (n : ℕ) : ∀ (j : ℕ) (x r : Ks.Ct), TraceInv (2 ^ K) b S rk H x → Ks.traceLoop big128 keys x (List.range' j n) = .ok r →
+      TraceInv (2 ^ K) b S rk H r ∧
+      ∃ seq : ℕ → Ks.Ct, seq j = x ∧ seq (j + n) = r ∧ ∀ i, j ≤ i → i < j + n →
+        LevelRel K i (2 ^ (b * S + b * Sk) * 2 ^ (b * S)) (2 ^ (b * S + b * Sk) * (2 * (1 + snorm (min rk sk.length) sk))) (BA i)
+          (sph (2 ^ K) b (2 ^ (b * S + b * Sk)) sk (seq i)) (sph (2 ^ K) b (2 ^ (b * S + b * Sk)) sk (seq (i + 1))) :=
+  KsDec.traceLoop_unroll big128 K hK keys sk b S Sk rk H BA hsk hh hb62 hH hkeys n
+
+/-- **`glwe_trace` decrypts, modulo 1, with the noise summed over the levels**: for `N = 2^K`, levels `j … K−1`, the executed loop satisfies `c·2^n·φ(r) = c·T_j(φ(res)) + Err + c·2^n·2^M·z` with `‖Err‖_∞ ≤ 2^n·Σ_levels (c·2(1+‖sk‖₁) + automorphism noise of the level)` — per-level contracts INSTANTIATED (not hypotheses), integer wraps handled by `trace_suffix` -/
+theorem glwe_trace_loop_decrypts (big128 : Bool) (K j n : ℕ) (hjn : j + n = K) (hK : K + 1 ≤ 64) (keys : List Ks.Key) (sk : List Poly)
+    (res r : Ks.Ct) (Sk : ℕ) (H : ℤ) (BA : ℕ → ℤ)
+    (hsk : Ks.AllLen (2 ^ K) sk) (hr : GWF (2 ^ K) res) (hh : NormL.HeadRoom 64 res.base2k 0 H) (hb62 : res.base2k ≤ 62)
+    (hH : 2 ^ res.base2k - 1 ≤ H) (hbd : GBound H res)
+    (hkeys : ∀ i p key, Ks.traceGalois (2 ^ K) i = .ok p → key ∈ keys → key.p = p →
+      key.mat.size = Sk ∧ ∃ gInv EL KL Dm, TraceKeyOk big128 (2 ^ K) res.base2k res.size res.rank sk key gInv EL KL Dm (BA i))
+    (hrun : Ks.traceLoop big128 keys res (List.range' j n) = .ok r) :
+    GWF (2 ^ K) r ∧ r.base2k = res.base2k ∧ r.size = res.size ∧ r.rank = res.rank ∧ GBound H r ∧
+    ∃ (ErrL : Poly) (z : Ks.R (2 ^ K)), ErrL.length = 2 ^ K ∧
+      normInf ErrL ≤ 2 ^ n * ∑ t ∈ Finset.range n,
+        (2 ^ (res.base2k * res.size + res.base2k * Sk) * (2 * (1 + snorm (min res.rank sk.length) sk)) + BA (j + t)) ∧
+      (2 ^ (res.base2k * res.size + res.base2k * Sk) * 2 ^ n : ℤ) • Ks.ι (2 ^ K) (valP res.base2k (2 ^ K) (phase sk r))
+        = (2 ^ (res.base2k * res.size + res.base2k * Sk) : ℤ) •
+            traceOp (2 ^ K) (List.range' j n) (Ks.ι (2 ^ K) (valP res.base2k (2 ^ K) (phase sk res)))
+          + Ks.ι (2 ^ K) ErrL
+          + (2 ^ (res.base2k * res.size + res.base2k * Sk) * 2 ^ n * 2 ^ (res.base2k * res.size) : ℤ) • z :=
+  KsDec.glwe_trace_loop_decrypts big128 K j n hjn hK keys sk res r Sk H BA hsk hr hh hb62 hH hbd hkeys hrun
+
+/-- variant -/
+theorem glwe_trace_loop_decrypts_range (big128 : Bool) (K j n : ℕ) (hjn : j + n = K) (hK : K + 1 ≤ 64) (keys : List Ks.Key) (sk : List Poly)
+    (res r : Ks.Ct) (Sk : ℕ) (H : ℤ) (BA : ℕ → ℤ)
+    (hsk : Ks.AllLen (2 ^ K) sk) (hr : GWF (2 ^ K) res) (hh : NormL.HeadRoom 64 res.base2k 0 H) (hb62 : res.base2k ≤ 62)
+    (hH : 2 ^ res.base2k - 1 ≤ H) (hbd : GBound H res)
+    (hkeys : ∀ i p key, Ks.traceGalois (2 ^ K) i = .ok p → key ∈ keys → key.p = p →
+      key.mat.size = Sk ∧ ∃ gInv EL KL Dm, TraceKeyOk big128 (2 ^ K) res.base2k res.size res.rank sk key gInv EL KL Dm (BA i))
+    (hrun : Ks.traceLoop big128 keys res ((List.range n).map (fun t => j + t)) = .ok r) :
+    GWF (2 ^ K) r ∧ r.base2k = res.base2k ∧ r.size = res.size ∧ r.rank = res.rank ∧ GBound H r ∧
+    ∃ (ErrL : Poly) (z : Ks.R (2 ^ K)), ErrL.length = 2 ^ K ∧
+      normInf ErrL ≤ 2 ^ n * ∑ t ∈ Finset.range n,
+        (2 ^ (res.base2k * res.size + res.base2k * Sk) * (2 * (1 + snorm (min res.rank sk.length) sk)) + BA (j + t)) ∧
+      (2 ^ (res.base2k * res.size + res.base2k * Sk) * 2 ^ n : ℤ) • Ks.ι (2 ^ K) (valP res.base2k (2 ^ K) (phase sk r))
+        = (2 ^ (res.base2k * res.size + res.base2k * Sk) : ℤ) •
+            traceOp (2 ^ K) ((List.range n).map (fun t => j + t)) (Ks.ι (2 ^ K) (valP res.base2k (2 ^ K) (phase sk res)))
+          + Ks.ι (2 ^ K) ErrL
+          + (2 ^ (res.base2k * res.size + res.base2k * Sk) * 2 ^ n * 2 ^ (res.base2k * res.size) : ℤ) • z :=
+  KsDec.glwe_trace_loop_decrypts' big128 K j n hjn hK keys sk res r Sk H BA hsk hr hh hb62 hH hbd hkeys hrun
+
+/-- the executed `glwe_trace_assign` (same-radix path) -/
+theorem glwe_trace_assign_decrypts (big128 : Bool) (K skip : ℕ) (hK : K + 1 ≤ 64) (keys : List Ks.Key) (sk : List Poly)
+    (res r : Ks.Ct) (Sk : ℕ) (H : ℤ) (BA : ℕ → ℤ)
+    (hsk : Ks.AllLen (2 ^ K) sk) (hr : GWF (2 ^ K) res) (hh : NormL.HeadRoom 64 res.base2k 0 H) (hb62 : res.base2k ≤ 62)
+    (hH : 2 ^ res.base2k - 1 ≤ H) (hbd : GBound H res)
+    (hkeys : ∀ i p key, Ks.traceGalois (2 ^ K) i = .ok p → key ∈ keys → key.p = p →
+      key.mat.size = Sk ∧ ∃ gInv EL KL Dm, TraceKeyOk big128 (2 ^ K) res.base2k res.size res.rank sk key gInv EL KL Dm (BA i))
+    (hrun : Ks.traceAssign big128 res.base2k keys skip res = .ok r) :
+    skip ≤ K ∧ GWF (2 ^ K) r ∧ r.base2k = res.base2k ∧ r.size = res.size ∧ r.rank = res.rank ∧ GBound H r ∧
+    ∃ (ErrL : Poly) (z : Ks.R (2 ^ K)), ErrL.length = 2 ^ K ∧
+      normInf ErrL ≤ 2 ^ (K - skip) * ∑ t ∈ Finset.range (K - skip),
+        (2 ^ (res.base2k * res.size + res.base2k * Sk) * (2 * (1 + snorm (min res.rank sk.length) sk)) + BA (skip + t)) ∧
+      (2 ^ (res.base2k * res.size + res.base2k * Sk) * 2 ^ (K - skip) : ℤ) • Ks.ι (2 ^ K) (valP res.base2k (2 ^ K) (phase sk r))
+        = (2 ^ (res.base2k * res.size + res.base2k * Sk) : ℤ) •
+            traceOp (2 ^ K) ((List.range (K - skip)).map (fun t => skip + t)) (Ks.ι (2 ^ K) (valP res.base2k (2 ^ K) (phase sk res)))
+          + Ks.ι (2 ^ K) ErrL
+          + (2 ^ (res.base2k * res.size + res.base2k * Sk) * 2 ^ (K - skip) * 2 ^ (res.base2k * res.size) : ℤ) • z :=
+  KsDec.glwe_trace_assign_decrypts big128 K skip hK keys sk res r Sk H BA hsk hr hh hb62 hH hbd hkeys hrun
+
+/-- no level (`skip = log N`): the loop returns its input (the closed instance of `glwe_trace_loop_decrypts` is in Lemmas/TraceExec.lean) -/
+example (big128 : Bool) (keys : List Ks.Key) (res : Ks.Ct) : Ks.traceLoop big128 keys res (List.range' 3 0) = .ok res := rfl
+end TraceExecSec
 
 end C03
